@@ -64,6 +64,15 @@ let rec sub n m =
 
 module Nat =
  struct
+  (** val sub : nat -> nat -> nat **)
+
+  let rec sub n m =
+    match n with
+    | O -> n
+    | S k -> (match m with
+              | O -> n
+              | S l -> sub k l)
+
   (** val eqb : nat -> nat -> bool **)
 
   let rec eqb n m =
@@ -88,7 +97,35 @@ module Nat =
 
   let ltb n m =
     leb (S n) m
+
+  (** val divmod : nat -> nat -> nat -> nat -> nat * nat **)
+
+  let rec divmod x y q u =
+    match x with
+    | O -> (q, u)
+    | S x' ->
+      (match u with
+       | O -> divmod x' y (S q) y
+       | S u' -> divmod x' y q u')
+
+  (** val div : nat -> nat -> nat **)
+
+  let div x y = match y with
+  | O -> y
+  | S y' -> fst (divmod x y' O y')
+
+  (** val modulo : nat -> nat -> nat **)
+
+  let modulo x = function
+  | O -> x
+  | S y' -> sub y' (snd (divmod x y' O y'))
  end
+
+(** val hd : 'a1 -> 'a1 list -> 'a1 **)
+
+let hd default = function
+| [] -> default
+| x :: _ -> x
 
 (** val nth : nat -> 'a1 list -> 'a1 -> 'a1 **)
 
@@ -99,7 +136,7 @@ let rec nth n l default =
           | x :: _ -> x)
   | S m -> (match l with
             | [] -> default
-            | _ :: t -> nth m t default)
+            | _ :: t0 -> nth m t0 default)
 
 (** val nth_error : 'a1 list -> nat -> 'a1 option **)
 
@@ -111,24 +148,45 @@ let rec nth_error l = function
            | [] -> None
            | _ :: l0 -> nth_error l0 n0)
 
+(** val last : 'a1 list -> 'a1 -> 'a1 **)
+
+let rec last l d =
+  match l with
+  | [] -> d
+  | a :: l0 -> (match l0 with
+                | [] -> a
+                | _ :: _ -> last l0 d)
+
 (** val map : ('a1 -> 'a2) -> 'a1 list -> 'a2 list **)
 
 let rec map f = function
 | [] -> []
-| a :: t -> (f a) :: (map f t)
+| a :: t0 -> (f a) :: (map f t0)
+
+(** val flat_map : ('a1 -> 'a2 list) -> 'a1 list -> 'a2 list **)
+
+let rec flat_map f = function
+| [] -> []
+| x :: t0 -> app (f x) (flat_map f t0)
 
 (** val fold_left : ('a1 -> 'a2 -> 'a1) -> 'a2 list -> 'a1 -> 'a1 **)
 
 let rec fold_left f l a0 =
   match l with
   | [] -> a0
-  | b :: t -> fold_left f t (f a0 b)
+  | b :: t0 -> fold_left f t0 (f a0 b)
 
 (** val fold_right : ('a2 -> 'a1 -> 'a1) -> 'a1 -> 'a2 list -> 'a1 **)
 
 let rec fold_right f a0 = function
 | [] -> a0
-| b :: t -> f b (fold_right f a0 t)
+| b :: t0 -> f b (fold_right f a0 t0)
+
+(** val existsb : ('a1 -> bool) -> 'a1 list -> bool **)
+
+let rec existsb f = function
+| [] -> false
+| a :: l0 -> (||) (f a) (existsb f l0)
 
 (** val forallb : ('a1 -> bool) -> 'a1 list -> bool **)
 
@@ -160,6 +218,12 @@ let rec firstn n l =
   | S n0 -> (match l with
              | [] -> []
              | a :: l0 -> a :: (firstn n0 l0))
+
+(** val seq : nat -> nat -> nat list **)
+
+let rec seq start = function
+| O -> []
+| S len1 -> start :: (seq (S start) len1)
 
 (** val repeat : 'a1 -> nat -> 'a1 list **)
 
@@ -263,6 +327,20 @@ module Pos =
   let compare =
     compare_cont Eq
 
+  (** val eqb : positive -> positive -> bool **)
+
+  let rec eqb p q =
+    match p with
+    | XI p0 -> (match q with
+                | XI q0 -> eqb p0 q0
+                | _ -> false)
+    | XO p0 -> (match q with
+                | XO q0 -> eqb p0 q0
+                | _ -> false)
+    | XH -> (match q with
+             | XH -> true
+             | _ -> false)
+
   (** val iter_op : ('a1 -> 'a1 -> 'a1) -> positive -> 'a1 -> 'a1 **)
 
   let rec iter_op op p a =
@@ -349,6 +427,11 @@ module Z =
   | Zpos x0 -> Zneg x0
   | Zneg x0 -> Zpos x0
 
+  (** val sub : z -> z -> z **)
+
+  let sub m n =
+    add m (opp n)
+
   (** val mul : z -> z -> z **)
 
   let mul x y =
@@ -381,12 +464,33 @@ module Z =
        | Zneg y' -> compOpp (Pos.compare x' y')
        | _ -> Lt)
 
+  (** val leb : z -> z -> bool **)
+
+  let leb x y =
+    match compare x y with
+    | Gt -> false
+    | _ -> true
+
   (** val ltb : z -> z -> bool **)
 
   let ltb x y =
     match compare x y with
     | Lt -> true
     | _ -> false
+
+  (** val eqb : z -> z -> bool **)
+
+  let eqb x y =
+    match x with
+    | Z0 -> (match y with
+             | Z0 -> true
+             | _ -> false)
+    | Zpos p -> (match y with
+                 | Zpos q -> Pos.eqb p q
+                 | _ -> false)
+    | Zneg p -> (match y with
+                 | Zneg q -> Pos.eqb p q
+                 | _ -> false)
 
   (** val to_nat : z -> nat **)
 
@@ -399,6 +503,58 @@ module Z =
   let of_nat = function
   | O -> Z0
   | S n0 -> Zpos (Pos.of_succ_nat n0)
+
+  (** val pos_div_eucl : positive -> z -> z * z **)
+
+  let rec pos_div_eucl a b =
+    match a with
+    | XI a' ->
+      let (q, r) = pos_div_eucl a' b in
+      let r' = add (mul (Zpos (XO XH)) r) (Zpos XH) in
+      if ltb r' b
+      then ((mul (Zpos (XO XH)) q), r')
+      else ((add (mul (Zpos (XO XH)) q) (Zpos XH)), (sub r' b))
+    | XO a' ->
+      let (q, r) = pos_div_eucl a' b in
+      let r' = mul (Zpos (XO XH)) r in
+      if ltb r' b
+      then ((mul (Zpos (XO XH)) q), r')
+      else ((add (mul (Zpos (XO XH)) q) (Zpos XH)), (sub r' b))
+    | XH -> if leb (Zpos (XO XH)) b then (Z0, (Zpos XH)) else ((Zpos XH), Z0)
+
+  (** val div_eucl : z -> z -> z * z **)
+
+  let div_eucl a b =
+    match a with
+    | Z0 -> (Z0, Z0)
+    | Zpos a' ->
+      (match b with
+       | Z0 -> (Z0, a)
+       | Zpos _ -> pos_div_eucl a' b
+       | Zneg b' ->
+         let (q, r) = pos_div_eucl a' (Zpos b') in
+         (match r with
+          | Z0 -> ((opp q), Z0)
+          | _ -> ((opp (add q (Zpos XH))), (add b r))))
+    | Zneg a' ->
+      (match b with
+       | Z0 -> (Z0, a)
+       | Zpos _ ->
+         let (q, r) = pos_div_eucl a' b in
+         (match r with
+          | Z0 -> ((opp q), Z0)
+          | _ -> ((opp (add q (Zpos XH))), (sub b r)))
+       | Zneg b' -> let (q, r) = pos_div_eucl a' (Zpos b') in (q, (opp r)))
+
+  (** val div : z -> z -> z **)
+
+  let div a b =
+    let (q, _) = div_eucl a b in q
+
+  (** val modulo : z -> z -> z **)
+
+  let modulo a b =
+    let (_, r) = div_eucl a b in r
  end
 
 type sx =
@@ -438,9 +594,9 @@ let dbool = function
 
 let rec opt_all = function
 | [] -> Some []
-| o :: t ->
+| o :: t0 ->
   (match o with
-   | Some x -> (match opt_all t with
+   | Some x -> (match opt_all t0 with
                 | Some r -> Some (x :: r)
                 | None -> None)
    | None -> None)
@@ -482,18 +638,24 @@ let eopt f = function
 let rec upd l i x =
   match l with
   | [] -> []
-  | h :: t -> (match i with
-               | O -> x :: t
-               | S j -> h :: (upd t j x))
+  | h :: t0 -> (match i with
+                | O -> x :: t0
+                | S j -> h :: (upd t0 j x))
+
+(** val memb : nat -> nat list -> bool **)
+
+let rec memb i = function
+| [] -> false
+| j :: t0 -> if Nat.eqb i j then true else memb i t0
 
 (** val insert_uniq : nat -> nat list -> nat list **)
 
 let rec insert_uniq i l = match l with
 | [] -> i :: []
-| j :: t ->
+| j :: t0 ->
   if Nat.ltb i j
   then i :: l
-  else if Nat.eqb i j then l else j :: (insert_uniq i t)
+  else if Nat.eqb i j then l else j :: (insert_uniq i t0)
 
 (** val sort_uniq : nat list -> nat list **)
 
@@ -604,9 +766,9 @@ type 'r transform =
 let rec run_transforms s ts idxs xs =
   match ts with
   | [] -> Ok (idxs, xs)
-  | t :: ts' ->
+  | t0 :: ts' ->
     (match retrieve s idxs with
-     | Ok view -> let (i', x') = t idxs xs view in run_transforms s ts' i' x'
+     | Ok view -> let (i', x') = t0 idxs xs view in run_transforms s ts' i' x'
      | Err e -> Err e)
 
 (** val add0 :
@@ -672,6 +834,4564 @@ let iter_next s it =
        else let i = nth it.it_pos s.olist O in
             ({ it_pos = (S it.it_pos); it_add = it.it_add; it_clear =
             it.it_clear }, (Yield (i, (get_row s i))))
+
+type layout =
+| ExactNdarray
+| ViewOf
+| NonContiguous
+| OtherDtype
+| PyList
+
+type aval = { vbuf : nat; vw : bool; vcontig : bool; vnd : bool; vtgt : bool }
+
+(** val value_of_layout : nat -> layout -> aval **)
+
+let value_of_layout b = function
+| NonContiguous ->
+  { vbuf = b; vw = true; vcontig = false; vnd = true; vtgt = true }
+| OtherDtype ->
+  { vbuf = b; vw = true; vcontig = true; vnd = true; vtgt = false }
+| PyList -> { vbuf = b; vw = true; vcontig = true; vnd = false; vtgt = false }
+| _ -> { vbuf = b; vw = true; vcontig = true; vnd = true; vtgt = true }
+
+(** val fresh_val : nat -> aval **)
+
+let fresh_val b =
+  { vbuf = b; vw = true; vcontig = true; vnd = true; vtgt = true }
+
+type var = nat
+
+type instr =
+| IAsarray of var * var * bool
+| IMove of var * var
+| IView of var * var * bool
+| IReshape of var * var
+| ICopy of var * var
+| IOp of var * var list * nat
+| IInplace of var * var list * nat
+| IReadonly of var * var
+| ISetSelf of nat * var
+| IGetSelf of var * nat
+| IReturn of var
+| IExpose of var
+
+type env = (nat * aval) list
+
+(** val lookup : env -> nat -> aval option **)
+
+let rec lookup e x =
+  match e with
+  | [] -> None
+  | p :: t0 -> let (y, v) = p in if Nat.eqb x y then Some v else lookup t0 x
+
+(** val bind : env -> nat -> aval -> env **)
+
+let bind e x v =
+  (x, v) :: e
+
+(** val set_field : env -> nat -> aval -> env **)
+
+let set_field e f v =
+  (f, v) :: (filter (fun p -> negb (Nat.eqb (fst p) f)) e)
+
+(** val lookups : env -> nat list -> aval list option **)
+
+let rec lookups e = function
+| [] -> Some []
+| x :: t0 ->
+  (match lookup e x with
+   | Some v ->
+     (match lookups e t0 with
+      | Some r -> Some (v :: r)
+      | None -> None)
+   | None -> None)
+
+type astate = { a_next : nat; a_env : env; a_self : env; a_mut : nat list;
+                a_ret : aval list; a_exp : aval list; a_halt : bool }
+
+(** val a_halted : astate -> astate **)
+
+let a_halted a =
+  { a_next = a.a_next; a_env = a.a_env; a_self = a.a_self; a_mut = a.a_mut;
+    a_ret = a.a_ret; a_exp = a.a_exp; a_halt = true }
+
+(** val a_bind : astate -> var -> aval -> astate **)
+
+let a_bind a d v =
+  { a_next = a.a_next; a_env = (bind a.a_env d v); a_self = a.a_self; a_mut =
+    a.a_mut; a_ret = a.a_ret; a_exp = a.a_exp; a_halt = a.a_halt }
+
+(** val a_alloc : astate -> var -> astate **)
+
+let a_alloc a d =
+  { a_next = (S a.a_next); a_env = (bind a.a_env d (fresh_val a.a_next));
+    a_self = a.a_self; a_mut = a.a_mut; a_ret = a.a_ret; a_exp = a.a_exp;
+    a_halt = a.a_halt }
+
+(** val view_of : aval -> bool -> aval **)
+
+let view_of v keeps =
+  { vbuf = v.vbuf; vw = v.vw; vcontig = ((&&) v.vcontig keeps); vnd = true;
+    vtgt = v.vtgt }
+
+(** val readonly_of : aval -> aval **)
+
+let readonly_of v =
+  { vbuf = v.vbuf; vw = false; vcontig = v.vcontig; vnd = v.vnd; vtgt =
+    v.vtgt }
+
+(** val asarray_aliases : aval -> bool -> bool **)
+
+let asarray_aliases v with_dtype =
+  (&&) v.vnd ((||) (negb with_dtype) v.vtgt)
+
+(** val astep : instr -> astate -> astate **)
+
+let astep i a =
+  if a.a_halt
+  then a
+  else (match i with
+        | IAsarray (d, s, dt) ->
+          (match lookup a.a_env s with
+           | Some v ->
+             if asarray_aliases v dt then a_bind a d v else a_alloc a d
+           | None -> a_halted a)
+        | IMove (d, s) ->
+          (match lookup a.a_env s with
+           | Some v -> a_bind a d v
+           | None -> a_halted a)
+        | IView (d, s, k) ->
+          (match lookup a.a_env s with
+           | Some v -> if v.vnd then a_bind a d (view_of v k) else a_halted a
+           | None -> a_halted a)
+        | IReshape (d, s) ->
+          (match lookup a.a_env s with
+           | Some v ->
+             if (&&) v.vnd v.vcontig
+             then a_bind a d (view_of v true)
+             else a_alloc a d
+           | None -> a_halted a)
+        | ICopy (d, s) ->
+          (match lookup a.a_env s with
+           | Some _ -> a_alloc a d
+           | None -> a_halted a)
+        | IOp (d, srcs, _) ->
+          (match lookups a.a_env srcs with
+           | Some _ -> a_alloc a d
+           | None -> a_halted a)
+        | IInplace (d, srcs, _) ->
+          (match lookup a.a_env d with
+           | Some v ->
+             (match lookups a.a_env srcs with
+              | Some _ ->
+                if v.vw
+                then { a_next = a.a_next; a_env = a.a_env; a_self = a.a_self;
+                       a_mut = (v.vbuf :: a.a_mut); a_ret = a.a_ret; a_exp =
+                       a.a_exp; a_halt = a.a_halt }
+                else a_halted a
+              | None -> a_halted a)
+           | None -> a_halted a)
+        | IReadonly (d, s) ->
+          (match lookup a.a_env s with
+           | Some v -> a_bind a d (readonly_of v)
+           | None -> a_halted a)
+        | ISetSelf (f, s) ->
+          (match lookup a.a_env s with
+           | Some v ->
+             { a_next = a.a_next; a_env = a.a_env; a_self =
+               (set_field a.a_self f v); a_mut = a.a_mut; a_ret = a.a_ret;
+               a_exp = a.a_exp; a_halt = a.a_halt }
+           | None -> a_halted a)
+        | IGetSelf (d, f) ->
+          (match lookup a.a_self f with
+           | Some v -> a_bind a d v
+           | None -> a_halted a)
+        | IReturn s ->
+          (match lookup a.a_env s with
+           | Some v ->
+             { a_next = a.a_next; a_env = a.a_env; a_self = a.a_self; a_mut =
+               a.a_mut; a_ret = (v :: a.a_ret); a_exp = a.a_exp; a_halt =
+               a.a_halt }
+           | None -> a_halted a)
+        | IExpose s ->
+          (match lookup a.a_env s with
+           | Some v ->
+             { a_next = a.a_next; a_env = a.a_env; a_self = a.a_self; a_mut =
+               a.a_mut; a_ret = a.a_ret; a_exp = (v :: a.a_exp); a_halt =
+               a.a_halt }
+           | None -> a_halted a))
+
+(** val arun : instr list -> astate -> astate **)
+
+let arun p a =
+  fold_left (fun a0 i -> astep i a0) p a
+
+(** val n_store : nat **)
+
+let n_store =
+  S (S (S (S (S (S (S O))))))
+
+(** val n_internal : nat **)
+
+let n_internal =
+  S (S (S (S (S (S (S (S (S (S (S (S (S (S (S O))))))))))))))
+
+(** val is_store_buf : nat -> bool **)
+
+let is_store_buf b =
+  Nat.ltb b n_store
+
+(** val caller_buf : nat -> nat **)
+
+let caller_buf i =
+  add n_internal i
+
+(** val f_solution : nat **)
+
+let f_solution =
+  O
+
+(** val f_objective : nat **)
+
+let f_objective =
+  S O
+
+(** val f_measures : nat **)
+
+let f_measures =
+  S (S O)
+
+(** val f_threshold : nat **)
+
+let f_threshold =
+  S (S (S O))
+
+(** val f_extra : nat **)
+
+let f_extra =
+  S (S (S (S O)))
+
+(** val f_occupied : nat **)
+
+let f_occupied =
+  S (S (S (S (S O))))
+
+(** val f_olist : nat **)
+
+let f_olist =
+  S (S (S (S (S (S O)))))
+
+(** val f_i0 : nat **)
+
+let f_i0 =
+  S (S (S (S (S (S (S (S (S (S O)))))))))
+
+(** val f_i1 : nat **)
+
+let f_i1 =
+  S (S (S (S (S (S (S (S (S (S (S O))))))))))
+
+(** val f_i2 : nat **)
+
+let f_i2 =
+  S (S (S (S (S (S (S (S (S (S (S (S O)))))))))))
+
+(** val f_i3 : nat **)
+
+let f_i3 =
+  S (S (S (S (S (S (S (S (S (S (S (S (S O))))))))))))
+
+(** val f_i4 : nat **)
+
+let f_i4 =
+  S (S (S (S (S (S (S (S (S (S (S (S (S (S O)))))))))))))
+
+(** val f_i5 : nat **)
+
+let f_i5 =
+  S (S (S (S (S (S (S (S (S (S (S (S (S (S (S O))))))))))))))
+
+(** val f_i6 : nat **)
+
+let f_i6 =
+  S (S (S (S (S (S (S (S (S (S (S (S (S (S (S (S O)))))))))))))))
+
+(** val f_i7 : nat **)
+
+let f_i7 =
+  S (S (S (S (S (S (S (S (S (S (S (S (S (S (S (S (S O))))))))))))))))
+
+(** val f_new0 : nat **)
+
+let f_new0 =
+  S (S (S (S (S (S (S (S (S (S (S (S (S (S (S (S (S (S (S (S (S (S (S (S (S
+    (S (S (S (S (S O)))))))))))))))))))))))))))))
+
+(** val f_new1 : nat **)
+
+let f_new1 =
+  S (S (S (S (S (S (S (S (S (S (S (S (S (S (S (S (S (S (S (S (S (S (S (S (S
+    (S (S (S (S (S (S O))))))))))))))))))))))))))))))
+
+(** val f_new2 : nat **)
+
+let f_new2 =
+  S (S (S (S (S (S (S (S (S (S (S (S (S (S (S (S (S (S (S (S (S (S (S (S (S
+    (S (S (S (S (S (S (S O)))))))))))))))))))))))))))))))
+
+(** val f_new3 : nat **)
+
+let f_new3 =
+  S (S (S (S (S (S (S (S (S (S (S (S (S (S (S (S (S (S (S (S (S (S (S (S (S
+    (S (S (S (S (S (S (S (S O))))))))))))))))))))))))))))))))
+
+(** val f_new4 : nat **)
+
+let f_new4 =
+  S (S (S (S (S (S (S (S (S (S (S (S (S (S (S (S (S (S (S (S (S (S (S (S (S
+    (S (S (S (S (S (S (S (S (S O)))))))))))))))))))))))))))))))))
+
+(** val f_new5 : nat **)
+
+let f_new5 =
+  S (S (S (S (S (S (S (S (S (S (S (S (S (S (S (S (S (S (S (S (S (S (S (S (S
+    (S (S (S (S (S (S (S (S (S (S O))))))))))))))))))))))))))))))))))
+
+(** val init_self : env **)
+
+let init_self =
+  app (map (fun b -> (b, (fresh_val b))) (seq O n_store))
+    (map (fun b -> ((add (S (S (S O))) b), (fresh_val b)))
+      (seq n_store (sub n_internal n_store)))
+
+(** val init_args : nat -> layout list -> env **)
+
+let rec init_args i = function
+| [] -> []
+| l :: t0 -> (i, (value_of_layout (caller_buf i) l)) :: (init_args (S i) t0)
+
+(** val a_init : layout list -> astate **)
+
+let a_init la =
+  { a_next = (add n_internal (length la)); a_env = (init_args O la); a_self =
+    init_self; a_mut = []; a_ret = []; a_exp = []; a_halt = false }
+
+type ep =
+| StoreAdd
+| StoreRetrieve
+| StoreData
+| StoreIter
+| StoreRaw
+| StoreOccupied
+| StoreFromRaw
+| ArchiveAdd
+| ArchiveAddSingle
+| SlidingAdd
+| SlidingAddSingle
+| ProximityAdd
+| ProximityAddSingle
+| ArchiveRetrieve
+| ArchiveRetrieveSingle
+| SampleElites
+| ArchiveData
+| BestElite
+| ArchiveIter
+| IndexOf
+| IndexOfSingle
+| CVTCtorCentroids
+| CVTCtorSamples
+| GridCtor
+| CqdScore
+| ComputeNovelty
+| GaussianCtor
+| IsoLineCtor
+| ESCtor
+| GAECtor
+| GOECtor
+| GACtor
+| BaseTell
+| ESTell
+| GAETell
+| GAETellDqd
+| GOETellDqd
+| SchedTell
+| SchedTellDqd
+| BanditTell
+| AdamCtor
+| AdamReset
+| AdamStep
+| GAscCtor
+| GAscReset
+| GAscStep
+| ParallelAxes
+| HeatmapDf
+
+(** val ep_of_nat : nat -> ep option **)
+
+let ep_of_nat = function
+| O -> Some StoreAdd
+| S n0 ->
+  (match n0 with
+   | O -> Some StoreRetrieve
+   | S n1 ->
+     (match n1 with
+      | O -> Some StoreData
+      | S n2 ->
+        (match n2 with
+         | O -> Some StoreIter
+         | S n3 ->
+           (match n3 with
+            | O -> Some StoreRaw
+            | S n4 ->
+              (match n4 with
+               | O -> Some StoreOccupied
+               | S n5 ->
+                 (match n5 with
+                  | O -> Some StoreFromRaw
+                  | S n6 ->
+                    (match n6 with
+                     | O -> None
+                     | S n7 ->
+                       (match n7 with
+                        | O -> None
+                        | S n8 ->
+                          (match n8 with
+                           | O -> None
+                           | S n9 ->
+                             (match n9 with
+                              | O -> Some ArchiveAdd
+                              | S n10 ->
+                                (match n10 with
+                                 | O -> Some ArchiveAddSingle
+                                 | S n11 ->
+                                   (match n11 with
+                                    | O -> Some SlidingAdd
+                                    | S n12 ->
+                                      (match n12 with
+                                       | O -> Some SlidingAddSingle
+                                       | S n13 ->
+                                         (match n13 with
+                                          | O -> Some ProximityAdd
+                                          | S n14 ->
+                                            (match n14 with
+                                             | O -> Some ProximityAddSingle
+                                             | S n15 ->
+                                               (match n15 with
+                                                | O -> Some ArchiveRetrieve
+                                                | S n16 ->
+                                                  (match n16 with
+                                                   | O ->
+                                                     Some
+                                                       ArchiveRetrieveSingle
+                                                   | S n17 ->
+                                                     (match n17 with
+                                                      | O -> Some SampleElites
+                                                      | S n18 ->
+                                                        (match n18 with
+                                                         | O ->
+                                                           Some ArchiveData
+                                                         | S n19 ->
+                                                           (match n19 with
+                                                            | O ->
+                                                              Some BestElite
+                                                            | S n20 ->
+                                                              (match n20 with
+                                                               | O ->
+                                                                 Some
+                                                                   ArchiveIter
+                                                               | S n21 ->
+                                                                 (match n21 with
+                                                                  | O ->
+                                                                    Some
+                                                                    IndexOf
+                                                                  | S n22 ->
+                                                                    (match n22 with
+                                                                    | O ->
+                                                                    Some
+                                                                    IndexOfSingle
+                                                                    | S n23 ->
+                                                                    (match n23 with
+                                                                    | O ->
+                                                                    Some
+                                                                    CVTCtorCentroids
+                                                                    | S n24 ->
+                                                                    (match n24 with
+                                                                    | O ->
+                                                                    Some
+                                                                    CVTCtorSamples
+                                                                    | S n25 ->
+                                                                    (match n25 with
+                                                                    | O ->
+                                                                    Some
+                                                                    GridCtor
+                                                                    | S n26 ->
+                                                                    (match n26 with
+                                                                    | O ->
+                                                                    Some
+                                                                    CqdScore
+                                                                    | S n27 ->
+                                                                    (match n27 with
+                                                                    | O ->
+                                                                    Some
+                                                                    ComputeNovelty
+                                                                    | S n28 ->
+                                                                    (match n28 with
+                                                                    | O ->
+                                                                    None
+                                                                    | S n29 ->
+                                                                    (match n29 with
+                                                                    | O ->
+                                                                    Some
+                                                                    GaussianCtor
+                                                                    | S n30 ->
+                                                                    (match n30 with
+                                                                    | O ->
+                                                                    Some
+                                                                    IsoLineCtor
+                                                                    | S n31 ->
+                                                                    (match n31 with
+                                                                    | O ->
+                                                                    Some
+                                                                    ESCtor
+                                                                    | S n32 ->
+                                                                    (match n32 with
+                                                                    | O ->
+                                                                    Some
+                                                                    GAECtor
+                                                                    | S n33 ->
+                                                                    (match n33 with
+                                                                    | O ->
+                                                                    Some
+                                                                    GOECtor
+                                                                    | S n34 ->
+                                                                    (match n34 with
+                                                                    | O ->
+                                                                    Some
+                                                                    GACtor
+                                                                    | S n35 ->
+                                                                    (match n35 with
+                                                                    | O ->
+                                                                    Some
+                                                                    BaseTell
+                                                                    | S n36 ->
+                                                                    (match n36 with
+                                                                    | O ->
+                                                                    Some
+                                                                    ESTell
+                                                                    | S n37 ->
+                                                                    (match n37 with
+                                                                    | O ->
+                                                                    Some
+                                                                    GAETell
+                                                                    | S n38 ->
+                                                                    (match n38 with
+                                                                    | O ->
+                                                                    Some
+                                                                    GAETellDqd
+                                                                    | S n39 ->
+                                                                    (match n39 with
+                                                                    | O ->
+                                                                    Some
+                                                                    GOETellDqd
+                                                                    | S n40 ->
+                                                                    (match n40 with
+                                                                    | O ->
+                                                                    Some
+                                                                    SchedTell
+                                                                    | S n41 ->
+                                                                    (match n41 with
+                                                                    | O ->
+                                                                    Some
+                                                                    SchedTellDqd
+                                                                    | S n42 ->
+                                                                    (match n42 with
+                                                                    | O ->
+                                                                    Some
+                                                                    BanditTell
+                                                                    | S n43 ->
+                                                                    (match n43 with
+                                                                    | O ->
+                                                                    Some
+                                                                    AdamCtor
+                                                                    | S n44 ->
+                                                                    (match n44 with
+                                                                    | O ->
+                                                                    Some
+                                                                    AdamReset
+                                                                    | S n45 ->
+                                                                    (match n45 with
+                                                                    | O ->
+                                                                    Some
+                                                                    AdamStep
+                                                                    | S n46 ->
+                                                                    (match n46 with
+                                                                    | O ->
+                                                                    Some
+                                                                    GAscCtor
+                                                                    | S n47 ->
+                                                                    (match n47 with
+                                                                    | O ->
+                                                                    Some
+                                                                    GAscReset
+                                                                    | S n48 ->
+                                                                    (match n48 with
+                                                                    | O ->
+                                                                    Some
+                                                                    GAscStep
+                                                                    | S n49 ->
+                                                                    (match n49 with
+                                                                    | O ->
+                                                                    Some
+                                                                    ParallelAxes
+                                                                    | S n50 ->
+                                                                    (match n50 with
+                                                                    | O ->
+                                                                    Some
+                                                                    HeatmapDf
+                                                                    | S _ ->
+                                                                    None)))))))))))))))))))))))))))))))))))))))))))))))))))
+
+(** val arities : ep -> nat list **)
+
+let arities = function
+| StoreAdd -> (S (S (S (S O)))) :: []
+| StoreData -> O :: []
+| StoreIter -> O :: []
+| StoreRaw -> O :: []
+| StoreOccupied -> O :: []
+| StoreFromRaw -> (S (S O)) :: []
+| ArchiveAdd -> (S (S (S O))) :: ((S (S (S (S O)))) :: [])
+| ArchiveAddSingle -> (S (S (S O))) :: ((S (S (S (S O)))) :: [])
+| SlidingAdd -> (S (S (S O))) :: ((S (S (S (S O)))) :: [])
+| SlidingAddSingle -> (S (S (S O))) :: ((S (S (S (S O)))) :: [])
+| ProximityAdd -> (S (S (S O))) :: ((S (S (S (S O)))) :: [])
+| ProximityAddSingle -> (S (S (S O))) :: ((S (S (S (S O)))) :: [])
+| SampleElites -> O :: []
+| ArchiveData -> O :: []
+| BestElite -> O :: []
+| ArchiveIter -> O :: []
+| GridCtor -> (S (S O)) :: []
+| CqdScore -> (S (S O)) :: []
+| ComputeNovelty -> (S (S O)) :: []
+| GaussianCtor -> (S (S (S O))) :: []
+| IsoLineCtor -> (S (S O)) :: []
+| ESCtor -> (S (S O)) :: []
+| GOECtor -> (S (S (S O))) :: []
+| GACtor -> (S (S (S O))) :: []
+| BaseTell -> (S (S (S (S (S O))))) :: ((S (S (S (S (S (S O)))))) :: [])
+| ESTell -> (S (S (S (S (S O))))) :: ((S (S (S (S (S (S O)))))) :: [])
+| GAETell -> (S (S (S (S (S O))))) :: ((S (S (S (S (S (S O)))))) :: [])
+| GAETellDqd ->
+  (S (S (S (S (S (S O)))))) :: ((S (S (S (S (S (S (S O))))))) :: [])
+| GOETellDqd ->
+  (S (S (S (S (S (S O)))))) :: ((S (S (S (S (S (S (S O))))))) :: [])
+| SchedTell -> (S (S O)) :: ((S (S (S O))) :: [])
+| SchedTellDqd -> (S (S (S O))) :: ((S (S (S (S O)))) :: [])
+| BanditTell -> (S (S O)) :: ((S (S (S O))) :: [])
+| _ -> (S O) :: []
+
+(** val n_variants : ep -> nat **)
+
+let n_variants = function
+| StoreAdd -> S (S O)
+| StoreRetrieve -> S (S (S (S O)))
+| StoreData -> S (S (S (S O)))
+| ArchiveAdd -> S (S O)
+| ArchiveAddSingle -> S (S O)
+| SlidingAdd -> S (S O)
+| SlidingAddSingle -> S (S O)
+| ProximityAdd -> S (S O)
+| ProximityAddSingle -> S (S O)
+| ArchiveData -> S (S (S (S O)))
+| BestElite -> S (S O)
+| IndexOf -> S (S (S (S (S O))))
+| IndexOfSingle -> S (S (S (S (S O))))
+| ComputeNovelty -> S (S O)
+| GaussianCtor -> S (S O)
+| IsoLineCtor -> S (S O)
+| GOECtor -> S (S O)
+| GACtor -> S (S O)
+| ESTell -> S (S O)
+| GAETell -> S (S O)
+| GAETellDqd -> S (S O)
+| GOETellDqd -> S (S O)
+| SchedTell -> S (S (S (S (S (S O)))))
+| SchedTellDqd -> S (S (S (S (S (S O)))))
+| BanditTell -> S (S (S (S (S (S O)))))
+| ParallelAxes -> S (S O)
+| _ -> S O
+
+(** val t : nat -> var **)
+
+let t k =
+  add (S (S (S (S (S (S (S (S (S (S (S (S (S (S (S (S (S (S (S (S
+    O)))))))))))))))))))) k
+
+(** val validate_batch : var list -> instr list **)
+
+let validate_batch regs =
+  map (fun r -> IAsarray (r, r, false)) regs
+
+(** val validate_single : var -> var -> var -> instr list **)
+
+let validate_single sol obj meas =
+  (IAsarray (sol, sol, false)) :: ((ICopy (obj, obj)) :: ((IAsarray (meas,
+    meas, false)) :: []))
+
+(** val store_fields : bool -> nat list **)
+
+let store_fields has_extra =
+  app (f_solution :: (f_objective :: (f_measures :: (f_threshold :: []))))
+    (if has_extra then f_extra :: [] else [])
+
+(** val store_retrieve : var -> nat -> bool -> instr list **)
+
+let store_retrieve idx base has_extra =
+  app ((IAsarray ((t base), idx, true)) :: ((IGetSelf ((t (add base (S O))),
+    f_occupied)) :: ((IOp ((t (add base (S O))),
+    ((t (add base (S O))) :: ((t base) :: [])), (S O))) :: [])))
+    (app
+      (flat_map (fun fl -> (IGetSelf ((t (add (add base (S (S O))) fl)),
+        fl)) :: ((IOp ((t (add (add base (S (S O))) fl)),
+        ((t (add (add base (S (S O))) fl)) :: ((t base) :: [])), (S
+        O))) :: [])) (store_fields has_extra)) ((ICopy
+      ((t (add base (S (S (S (S (S (S (S O))))))))), (t base))) :: []))
+
+(** val store_write : var -> (nat * var) list -> instr list **)
+
+let store_write idx data0 =
+  app ((IGetSelf
+    ((t (S (S (S (S (S (S (S (S (S (S (S (S (S (S (S (S (S (S (S (S (S (S (S
+       (S (S (S (S (S (S (S (S (S (S (S (S (S (S (S (S (S (S (S (S (S (S (S
+       (S (S (S (S (S (S (S (S (S (S (S (S (S (S (S (S (S (S (S (S (S (S (S
+       (S (S (S (S (S (S (S (S (S (S (S (S (S (S (S (S (S (S (S (S (S
+       O))))))))))))))))))))))))))))))))))))))))))))))))))))))))))))))))))))))))))))))))))))))))))),
+    f_occupied)) :: ((IInplace
+    ((t (S (S (S (S (S (S (S (S (S (S (S (S (S (S (S (S (S (S (S (S (S (S (S
+       (S (S (S (S (S (S (S (S (S (S (S (S (S (S (S (S (S (S (S (S (S (S (S
+       (S (S (S (S (S (S (S (S (S (S (S (S (S (S (S (S (S (S (S (S (S (S (S
+       (S (S (S (S (S (S (S (S (S (S (S (S (S (S (S (S (S (S (S (S (S
+       O))))))))))))))))))))))))))))))))))))))))))))))))))))))))))))))))))))))))))))))))))))))))))),
+    (idx :: []), (S (S O)))) :: ((IGetSelf
+    ((t (S (S (S (S (S (S (S (S (S (S (S (S (S (S (S (S (S (S (S (S (S (S (S
+       (S (S (S (S (S (S (S (S (S (S (S (S (S (S (S (S (S (S (S (S (S (S (S
+       (S (S (S (S (S (S (S (S (S (S (S (S (S (S (S (S (S (S (S (S (S (S (S
+       (S (S (S (S (S (S (S (S (S (S (S (S (S (S (S (S (S (S (S (S (S (S
+       O)))))))))))))))))))))))))))))))))))))))))))))))))))))))))))))))))))))))))))))))))))))))))))),
+    f_olist)) :: ((IInplace
+    ((t (S (S (S (S (S (S (S (S (S (S (S (S (S (S (S (S (S (S (S (S (S (S (S
+       (S (S (S (S (S (S (S (S (S (S (S (S (S (S (S (S (S (S (S (S (S (S (S
+       (S (S (S (S (S (S (S (S (S (S (S (S (S (S (S (S (S (S (S (S (S (S (S
+       (S (S (S (S (S (S (S (S (S (S (S (S (S (S (S (S (S (S (S (S (S (S
+       O)))))))))))))))))))))))))))))))))))))))))))))))))))))))))))))))))))))))))))))))))))))))))))),
+    (idx :: []), (S (S O)))) :: []))))
+    (flat_map (fun p -> (IGetSelf
+      ((t (S (S (S (S (S (S (S (S (S (S (S (S (S (S (S (S (S (S (S (S (S (S
+         (S (S (S (S (S (S (S (S (S (S (S (S (S (S (S (S (S (S (S (S (S (S (S
+         (S (S (S (S (S (S (S (S (S (S (S (S (S (S (S (S (S (S (S (S (S (S (S
+         (S (S (S (S (S (S (S (S (S (S (S (S (S (S (S (S (S (S (S (S (S (S (S
+         (S
+         O))))))))))))))))))))))))))))))))))))))))))))))))))))))))))))))))))))))))))))))))))))))))))))),
+      (fst p))) :: ((IInplace
+      ((t (S (S (S (S (S (S (S (S (S (S (S (S (S (S (S (S (S (S (S (S (S (S
+         (S (S (S (S (S (S (S (S (S (S (S (S (S (S (S (S (S (S (S (S (S (S (S
+         (S (S (S (S (S (S (S (S (S (S (S (S (S (S (S (S (S (S (S (S (S (S (S
+         (S (S (S (S (S (S (S (S (S (S (S (S (S (S (S (S (S (S (S (S (S (S (S
+         (S
+         O))))))))))))))))))))))))))))))))))))))))))))))))))))))))))))))))))))))))))))))))))))))))))))),
+      (idx :: ((snd p) :: [])), (S (S (S O))))) :: [])) data0)
+
+(** val stats_update : var -> bool -> instr list **)
+
+let stats_update best_idx has_extra =
+  app
+    (store_retrieve best_idx (S (S (S (S (S (S (S (S (S (S (S (S (S (S (S (S
+      (S (S (S (S (S (S (S (S (S (S (S (S (S (S (S (S (S (S (S (S (S (S (S (S
+      (S (S (S (S (S (S (S (S (S (S (S (S (S (S (S (S (S (S (S (S
+      O)))))))))))))))))))))))))))))))))))))))))))))))))))))))))))) has_extra)
+    (app ((IView
+      ((t (S (S (S (S (S (S (S (S (S (S (S (S (S (S (S (S (S (S (S (S (S (S
+         (S (S (S (S (S (S (S (S (S (S (S (S (S (S (S (S (S (S (S (S (S (S (S
+         (S (S (S (S (S (S (S (S (S (S (S (S (S (S (S (S (S (S (S (S (S (S (S
+         (S (S (S (S (S (S (S (S (S (S (S (S
+         O))))))))))))))))))))))))))))))))))))))))))))))))))))))))))))))))))))))))))))))))),
+      (t
+        (add (S (S (S (S (S (S (S (S (S (S (S (S (S (S (S (S (S (S (S (S (S
+          (S (S (S (S (S (S (S (S (S (S (S (S (S (S (S (S (S (S (S (S (S (S
+          (S (S (S (S (S (S (S (S (S (S (S (S (S (S (S (S (S (S (S
+          O))))))))))))))))))))))))))))))))))))))))))))))))))))))))))))))
+          f_solution)), true)) :: ((ICopy
+      ((t (S (S (S (S (S (S (S (S (S (S (S (S (S (S (S (S (S (S (S (S (S (S
+         (S (S (S (S (S (S (S (S (S (S (S (S (S (S (S (S (S (S (S (S (S (S (S
+         (S (S (S (S (S (S (S (S (S (S (S (S (S (S (S (S (S (S (S (S (S (S (S
+         (S (S (S (S (S (S (S (S (S (S (S (S (S
+         O)))))))))))))))))))))))))))))))))))))))))))))))))))))))))))))))))))))))))))))))))),
+      (t
+        (add (S (S (S (S (S (S (S (S (S (S (S (S (S (S (S (S (S (S (S (S (S
+          (S (S (S (S (S (S (S (S (S (S (S (S (S (S (S (S (S (S (S (S (S (S
+          (S (S (S (S (S (S (S (S (S (S (S (S (S (S (S (S (S (S (S
+          O))))))))))))))))))))))))))))))))))))))))))))))))))))))))))))))
+          f_objective)))) :: ((IView
+      ((t (S (S (S (S (S (S (S (S (S (S (S (S (S (S (S (S (S (S (S (S (S (S
+         (S (S (S (S (S (S (S (S (S (S (S (S (S (S (S (S (S (S (S (S (S (S (S
+         (S (S (S (S (S (S (S (S (S (S (S (S (S (S (S (S (S (S (S (S (S (S (S
+         (S (S (S (S (S (S (S (S (S (S (S (S (S (S
+         O))))))))))))))))))))))))))))))))))))))))))))))))))))))))))))))))))))))))))))))))))),
+      (t
+        (add (S (S (S (S (S (S (S (S (S (S (S (S (S (S (S (S (S (S (S (S (S
+          (S (S (S (S (S (S (S (S (S (S (S (S (S (S (S (S (S (S (S (S (S (S
+          (S (S (S (S (S (S (S (S (S (S (S (S (S (S (S (S (S (S (S
+          O))))))))))))))))))))))))))))))))))))))))))))))))))))))))))))))
+          f_measures)), true)) :: ((ICopy
+      ((t (S (S (S (S (S (S (S (S (S (S (S (S (S (S (S (S (S (S (S (S (S (S
+         (S (S (S (S (S (S (S (S (S (S (S (S (S (S (S (S (S (S (S (S (S (S (S
+         (S (S (S (S (S (S (S (S (S (S (S (S (S (S (S (S (S (S (S (S (S (S (S
+         (S (S (S (S (S (S (S (S (S (S (S (S (S (S (S
+         O)))))))))))))))))))))))))))))))))))))))))))))))))))))))))))))))))))))))))))))))))))),
+      (t
+        (add (S (S (S (S (S (S (S (S (S (S (S (S (S (S (S (S (S (S (S (S (S
+          (S (S (S (S (S (S (S (S (S (S (S (S (S (S (S (S (S (S (S (S (S (S
+          (S (S (S (S (S (S (S (S (S (S (S (S (S (S (S (S (S (S (S
+          O))))))))))))))))))))))))))))))))))))))))))))))))))))))))))))))
+          f_threshold)))) :: ((ICopy
+      ((t (S (S (S (S (S (S (S (S (S (S (S (S (S (S (S (S (S (S (S (S (S (S
+         (S (S (S (S (S (S (S (S (S (S (S (S (S (S (S (S (S (S (S (S (S (S (S
+         (S (S (S (S (S (S (S (S (S (S (S (S (S (S (S (S (S (S (S (S (S (S (S
+         (S (S (S (S (S (S (S (S (S (S (S (S (S (S (S (S
+         O))))))))))))))))))))))))))))))))))))))))))))))))))))))))))))))))))))))))))))))))))))),
+      (t (S (S (S (S (S (S (S (S (S (S (S (S (S (S (S (S (S (S (S (S (S (S (S
+        (S (S (S (S (S (S (S (S (S (S (S (S (S (S (S (S (S (S (S (S (S (S (S
+        (S (S (S (S (S (S (S (S (S (S (S (S (S (S (S (S (S (S (S (S (S
+        O)))))))))))))))))))))))))))))))))))))))))))))))))))))))))))))))))))))) :: [])))))
+      (app
+        (if has_extra
+         then (IView
+                ((t (S (S (S (S (S (S (S (S (S (S (S (S (S (S (S (S (S (S (S
+                   (S (S (S (S (S (S (S (S (S (S (S (S (S (S (S (S (S (S (S
+                   (S (S (S (S (S (S (S (S (S (S (S (S (S (S (S (S (S (S (S
+                   (S (S (S (S (S (S (S (S (S (S (S (S (S (S (S (S (S (S (S
+                   (S (S (S (S (S (S (S (S (S
+                   O)))))))))))))))))))))))))))))))))))))))))))))))))))))))))))))))))))))))))))))))))))))),
+                (t
+                  (add (S (S (S (S (S (S (S (S (S (S (S (S (S (S (S (S (S (S
+                    (S (S (S (S (S (S (S (S (S (S (S (S (S (S (S (S (S (S (S
+                    (S (S (S (S (S (S (S (S (S (S (S (S (S (S (S (S (S (S (S
+                    (S (S (S (S (S (S
+                    O))))))))))))))))))))))))))))))))))))))))))))))))))))))))))))))
+                    f_extra)), true)) :: []
+         else [])
+        (app ((ISetSelf (f_new0,
+          (t (S (S (S (S (S (S (S (S (S (S (S (S (S (S (S (S (S (S (S (S (S
+            (S (S (S (S (S (S (S (S (S (S (S (S (S (S (S (S (S (S (S (S (S (S
+            (S (S (S (S (S (S (S (S (S (S (S (S (S (S (S (S (S (S (S (S (S (S
+            (S (S (S (S (S (S (S (S (S (S (S (S (S (S (S
+            O))))))))))))))))))))))))))))))))))))))))))))))))))))))))))))))))))))))))))))))))))) :: ((ISetSelf
+          (f_new1,
+          (t (S (S (S (S (S (S (S (S (S (S (S (S (S (S (S (S (S (S (S (S (S
+            (S (S (S (S (S (S (S (S (S (S (S (S (S (S (S (S (S (S (S (S (S (S
+            (S (S (S (S (S (S (S (S (S (S (S (S (S (S (S (S (S (S (S (S (S (S
+            (S (S (S (S (S (S (S (S (S (S (S (S (S (S (S (S
+            O)))))))))))))))))))))))))))))))))))))))))))))))))))))))))))))))))))))))))))))))))))) :: ((ISetSelf
+          (f_new2,
+          (t (S (S (S (S (S (S (S (S (S (S (S (S (S (S (S (S (S (S (S (S (S
+            (S (S (S (S (S (S (S (S (S (S (S (S (S (S (S (S (S (S (S (S (S (S
+            (S (S (S (S (S (S (S (S (S (S (S (S (S (S (S (S (S (S (S (S (S (S
+            (S (S (S (S (S (S (S (S (S (S (S (S (S (S (S (S (S
+            O))))))))))))))))))))))))))))))))))))))))))))))))))))))))))))))))))))))))))))))))))))) :: ((ISetSelf
+          (f_new3,
+          (t (S (S (S (S (S (S (S (S (S (S (S (S (S (S (S (S (S (S (S (S (S
+            (S (S (S (S (S (S (S (S (S (S (S (S (S (S (S (S (S (S (S (S (S (S
+            (S (S (S (S (S (S (S (S (S (S (S (S (S (S (S (S (S (S (S (S (S (S
+            (S (S (S (S (S (S (S (S (S (S (S (S (S (S (S (S (S (S
+            O)))))))))))))))))))))))))))))))))))))))))))))))))))))))))))))))))))))))))))))))))))))) :: ((ISetSelf
+          (f_new4,
+          (t (S (S (S (S (S (S (S (S (S (S (S (S (S (S (S (S (S (S (S (S (S
+            (S (S (S (S (S (S (S (S (S (S (S (S (S (S (S (S (S (S (S (S (S (S
+            (S (S (S (S (S (S (S (S (S (S (S (S (S (S (S (S (S (S (S (S (S (S
+            (S (S (S (S (S (S (S (S (S (S (S (S (S (S (S (S (S (S (S
+            O))))))))))))))))))))))))))))))))))))))))))))))))))))))))))))))))))))))))))))))))))))))) :: [])))))
+          (if has_extra
+           then (ISetSelf (f_new5,
+                  (t (S (S (S (S (S (S (S (S (S (S (S (S (S (S (S (S (S (S (S
+                    (S (S (S (S (S (S (S (S (S (S (S (S (S (S (S (S (S (S (S
+                    (S (S (S (S (S (S (S (S (S (S (S (S (S (S (S (S (S (S (S
+                    (S (S (S (S (S (S (S (S (S (S (S (S (S (S (S (S (S (S (S
+                    (S (S (S (S (S (S (S (S (S
+                    O)))))))))))))))))))))))))))))))))))))))))))))))))))))))))))))))))))))))))))))))))))))))) :: []
+           else []))))
+
+(** val archive_transforms :
+    var -> var -> var -> var option -> bool -> instr list **)
+
+let archive_transforms sol obj meas ev inserted =
+  let he = match ev with
+           | Some _ -> true
+           | None -> false in
+  app (store_retrieve (t O) (S (S (S (S (S (S (S (S (S (S O)))))))))) he)
+    (app ((IMove
+      ((t (S (S (S (S (S (S (S (S (S (S (S (S (S (S (S (S (S (S (S (S (S (S
+         (S (S (S (S (S (S (S (S O))))))))))))))))))))))))))))))),
+      (t (add (S (S (S (S (S (S (S (S (S (S (S (S O)))))))))))) f_threshold)))) :: ((IInplace
+      ((t (S (S (S (S (S (S (S (S (S (S (S (S (S (S (S (S (S (S (S (S (S (S
+         (S (S (S (S (S (S (S (S O))))))))))))))))))))))))))))))),
+      ((t (S (S (S (S (S (S (S (S (S (S (S O)))))))))))) :: []), (S (S (S (S
+      O)))))) :: ((IOp
+      ((t (S (S (S (S (S (S (S (S (S (S (S (S (S (S (S (S (S (S (S (S (S (S
+         (S (S (S (S (S (S (S (S (S O)))))))))))))))))))))))))))))))),
+      (obj :: ((t (S (S (S (S (S (S (S (S (S (S (S (S (S (S (S (S (S (S (S (S
+                 (S (S (S (S (S (S (S (S (S (S
+                 O))))))))))))))))))))))))))))))) :: [])), (S (S (S (S (S
+      O))))))) :: ((IOp
+      ((t (S (S (S (S (S (S (S (S (S (S (S (S (S (S (S (S (S (S (S (S (S (S
+         (S (S (S (S (S (S (S (S (S (S O))))))))))))))))))))))))))))))))),
+      ((t (S (S (S (S (S (S (S (S (S (S (S (S (S (S (S (S (S (S (S (S (S (S
+         (S (S (S (S (S (S (S (S (S O)))))))))))))))))))))))))))))))) :: []),
+      (S (S (S (S (S (S O)))))))) :: ((IInplace
+      ((t (S (S (S (S (S (S (S (S (S (S (S (S (S (S (S (S (S (S (S (S (S (S
+         (S (S (S (S (S (S (S (S (S (S O))))))))))))))))))))))))))))))))),
+      ((t (S (S (S (S (S (S (S (S (S (S (S (S (S (S (S (S (S (S (S (S (S (S
+         (S (S (S (S (S (S (S (S (S O)))))))))))))))))))))))))))))))) :: (
+      (t (S (S (S (S (S (S (S (S (S (S (S O)))))))))))) :: [])), (S (S (S (S
+      (S (S (S O))))))))) :: ((IInplace
+      ((t (S (S (S (S (S (S (S (S (S (S (S (S (S (S (S (S (S (S (S (S (S (S
+         (S (S (S (S (S (S (S (S O))))))))))))))))))))))))))))))),
+      ((t (S (S (S (S (S (S (S (S (S (S (S (S (S (S (S (S (S (S (S (S (S (S
+         (S (S (S (S (S (S (S (S (S O)))))))))))))))))))))))))))))))) :: (
+      (t (S (S (S (S (S (S (S (S (S (S (S O)))))))))))) :: [])), (S (S (S (S
+      (S (S (S (S O)))))))))) :: ((IOp
+      ((t (S (S (S (S (S (S (S (S (S (S (S (S (S (S (S (S (S (S (S (S (S (S
+         (S (S (S (S (S (S (S (S (S (S (S O)))))))))))))))))))))))))))))))))),
+      (obj :: ((t (S (S (S (S (S (S (S (S (S (S (S (S (S (S (S (S (S (S (S (S
+                 (S (S (S (S (S (S (S (S (S (S
+                 O))))))))))))))))))))))))))))))) :: [])), (S (S (S (S (S (S
+      (S (S (S O))))))))))) :: [])))))))
+      (if inserted
+       then app ((IOp ((t (S O)),
+              ((t O) :: ((t (S (S (S (S (S (S (S (S (S (S (S (S (S (S (S (S
+                           (S (S (S (S (S (S (S (S (S (S (S (S (S (S (S
+                           O)))))))))))))))))))))))))))))))) :: [])), (S
+              O))) :: ((IOp ((t (S (S O))),
+              (sol :: ((t (S (S (S (S (S (S (S (S (S (S (S (S (S (S (S (S (S
+                         (S (S (S (S (S (S (S (S (S (S (S (S (S (S
+                         O)))))))))))))))))))))))))))))))) :: [])), (S
+              O))) :: ((IOp ((t (S (S (S O)))),
+              (obj :: ((t (S (S (S (S (S (S (S (S (S (S (S (S (S (S (S (S (S
+                         (S (S (S (S (S (S (S (S (S (S (S (S (S (S
+                         O)))))))))))))))))))))))))))))))) :: [])), (S
+              O))) :: ((IOp ((t (S (S (S (S O))))),
+              (meas :: ((t (S (S (S (S (S (S (S (S (S (S (S (S (S (S (S (S (S
+                          (S (S (S (S (S (S (S (S (S (S (S (S (S (S
+                          O)))))))))))))))))))))))))))))))) :: [])), (S
+              O))) :: []))))
+              (app
+                (match ev with
+                 | Some e ->
+                   (IOp ((t (S (S (S (S (S O)))))),
+                     (e :: ((t (S (S (S (S (S (S (S (S (S (S (S (S (S (S (S
+                              (S (S (S (S (S (S (S (S (S (S (S (S (S (S (S (S
+                              O)))))))))))))))))))))))))))))))) :: [])), (S
+                     O))) :: []
+                 | None -> [])
+                (app ((IOp
+                  ((t (S (S (S (S (S (S (S (S (S (S (S (S (S (S (S (S (S (S
+                     (S (S (S (S (S (S (S (S (S (S (S (S (S (S (S (S
+                     O))))))))))))))))))))))))))))))))))),
+                  ((t (S (S (S (S (S (S (S (S (S (S (S (S (S (S (S (S (S (S
+                     (S (S (S (S (S (S (S (S (S (S (S (S
+                     O))))))))))))))))))))))))))))))) :: ((t (S (S (S (S (S
+                                                            (S (S (S (S (S (S
+                                                            (S (S (S (S (S (S
+                                                            (S (S (S (S (S (S
+                                                            (S (S (S (S (S (S
+                                                            (S (S
+                                                            O)))))))))))))))))))))))))))))))) :: [])),
+                  (S O))) :: ((IMove
+                  ((t (S (S (S (S (S (S (S (S (S (S (S (S (S (S (S (S (S (S
+                     (S (S (S (S (S (S (S (S (S (S (S (S (S (S (S (S (S
+                     O)))))))))))))))))))))))))))))))))))),
+                  (t (S (S (S O)))))) :: ((IOp
+                  ((t (S (S (S (S (S (S (S (S (S (S (S (S (S (S (S (S (S (S
+                     (S (S (S (S (S (S (S (S (S (S (S (S (S (S (S (S (S (S
+                     O))))))))))))))))))))))))))))))))))))),
+                  ((t (S O)) :: ((t (S (S (S O)))) :: [])), (S (S (S (S (S (S
+                  (S (S (S (S O)))))))))))) :: ((IOp ((t (S O)),
+                  ((t (S O)) :: ((t (S (S (S (S (S (S (S (S (S (S (S (S (S (S
+                                   (S (S (S (S (S (S (S (S (S (S (S (S (S (S
+                                   (S (S (S (S (S (S (S (S
+                                   O))))))))))))))))))))))))))))))))))))) :: [])),
+                  (S O))) :: ((IOp ((t (S (S O))),
+                  ((t (S (S O))) :: ((t (S (S (S (S (S (S (S (S (S (S (S (S
+                                       (S (S (S (S (S (S (S (S (S (S (S (S (S
+                                       (S (S (S (S (S (S (S (S (S (S (S
+                                       O))))))))))))))))))))))))))))))))))))) :: [])),
+                  (S O))) :: ((IOp ((t (S (S (S O)))),
+                  ((t (S (S (S O)))) :: ((t (S (S (S (S (S (S (S (S (S (S (S
+                                           (S (S (S (S (S (S (S (S (S (S (S
+                                           (S (S (S (S (S (S (S (S (S (S (S
+                                           (S (S (S
+                                           O))))))))))))))))))))))))))))))))))))) :: [])),
+                  (S O))) :: ((IOp ((t (S (S (S (S O))))),
+                  ((t (S (S (S (S O))))) :: ((t (S (S (S (S (S (S (S (S (S (S
+                                               (S (S (S (S (S (S (S (S (S (S
+                                               (S (S (S (S (S (S (S (S (S (S
+                                               (S (S (S (S (S (S
+                                               O))))))))))))))))))))))))))))))))))))) :: [])),
+                  (S O))) :: [])))))))
+                  (app
+                    (match ev with
+                     | Some _ ->
+                       (IOp ((t (S (S (S (S (S O)))))),
+                         ((t (S (S (S (S (S O)))))) :: ((t (S (S (S (S (S (S
+                                                          (S (S (S (S (S (S
+                                                          (S (S (S (S (S (S
+                                                          (S (S (S (S (S (S
+                                                          (S (S (S (S (S (S
+                                                          (S (S (S (S (S (S
+                                                          O))))))))))))))))))))))))))))))))))))) :: [])),
+                         (S O))) :: []
+                     | None -> [])
+                    (app ((IOp ((t (S (S (S (S (S (S O))))))),
+                      ((t (S (S (S (S (S (S (S (S (S (S (S (S (S (S (S (S (S
+                         (S (S (S (S (S (S (S (S (S (S (S (S (S (S (S (S (S
+                         (S O)))))))))))))))))))))))))))))))))))) :: (
+                      (t (S (S (S (S (S (S (S (S (S (S (S (S (S (S (S (S (S
+                        (S (S (S (S (S (S (S (S (S (S (S (S (S (S (S (S (S (S
+                        (S O))))))))))))))))))))))))))))))))))))) :: [])), (S
+                      O))) :: [])
+                      (app
+                        (store_retrieve (t (S O)) (S (S (S (S (S (S (S (S (S
+                          (S (S (S (S (S (S (S (S (S (S (S (S (S (S (S (S (S
+                          (S (S (S (S (S (S (S (S (S (S (S (S (S (S
+                          O)))))))))))))))))))))))))))))))))))))))) he)
+                        (app ((IMove
+                          ((t (S (S (S (S (S (S (S (S (S (S (S (S (S (S (S (S
+                             (S (S (S (S (S (S (S (S (S (S (S (S (S (S (S (S
+                             (S (S (S (S (S
+                             O)))))))))))))))))))))))))))))))))))))),
+                          (t
+                            (add (S (S (S (S (S (S (S (S (S (S (S (S (S (S (S
+                              (S (S (S (S (S (S (S (S (S (S (S (S (S (S (S (S
+                              (S (S (S (S (S (S (S (S (S (S (S
+                              O))))))))))))))))))))))))))))))))))))))))))
+                              f_objective)))) :: ((IInplace
+                          ((t (S (S (S (S (S (S (S (S (S (S (S (S (S (S (S (S
+                             (S (S (S (S (S (S (S (S (S (S (S (S (S (S (S (S
+                             (S (S (S (S (S
+                             O)))))))))))))))))))))))))))))))))))))),
+                          ((t (S (S (S (S (S (S (S (S (S (S (S (S (S (S (S (S
+                             (S (S (S (S (S (S (S (S (S (S (S (S (S (S (S (S
+                             (S (S (S (S (S (S (S (S (S
+                             O)))))))))))))))))))))))))))))))))))))))))) :: []),
+                          (S (S (S (S O)))))) :: ((IOp
+                          ((t (S (S (S (S (S (S (S (S (S (S (S (S (S (S (S (S
+                             (S (S (S (S (S (S (S (S (S (S (S (S (S (S (S (S
+                             (S (S (S (S (S (S
+                             O))))))))))))))))))))))))))))))))))))))),
+                          ((t (S (S (S O)))) :: ((t (S (S (S (S (S (S (S (S
+                                                   (S (S (S (S (S (S (S (S (S
+                                                   (S (S (S (S (S (S (S (S (S
+                                                   (S (S (S (S (S (S (S (S (S
+                                                   (S (S
+                                                   O)))))))))))))))))))))))))))))))))))))) :: [])),
+                          (S (S (S (S (S (S (S (S (S (S (S
+                          O))))))))))))) :: [])))
+                          (app
+                            (store_retrieve (t (S O)) (S (S (S (S (S (S (S (S
+                              (S (S (S (S (S (S (S (S (S (S (S (S (S (S (S (S
+                              (S (S (S (S (S (S (S (S (S (S (S (S (S (S (S (S
+                              (S (S (S (S (S (S (S (S (S (S
+                              O))))))))))))))))))))))))))))))))))))))))))))))))))
+                              he) ((IOp
+                            ((t (S (S (S (S (S (S (S (S (S (S (S (S (S (S (S
+                               (S (S (S (S (S (S (S (S (S (S (S (S (S (S (S
+                               (S (S (S (S (S (S (S (S (S
+                               O)))))))))))))))))))))))))))))))))))))))),
+                            ((t (S O)) :: ((t (S (S (S O)))) :: [])), (S (S
+                            (S (S (S (S (S (S (S (S (S (S
+                            O)))))))))))))) :: []))))))))
+       else (IOp ((t (S O)), [], (S (S (S (S (S (S (S (S (S (S (S (S (S
+              O))))))))))))))) :: []))
+
+(** val has_extra_arg : ep -> nat -> bool **)
+
+let has_extra_arg e nargs =
+  (&&) (Nat.eqb nargs (last (arities e) O))
+    (Nat.ltb (S O) (length (arities e)))
+
+(** val sliding_buffer_entry :
+    bool -> var -> var -> var -> var option -> instr list **)
+
+let sliding_buffer_entry copy sol obj meas ev =
+  app
+    (if copy
+     then (ICopy
+            ((t (S (S (S (S (S (S (S (S (S (S (S (S (S (S (S (S (S (S (S (S
+               (S (S (S (S (S (S (S (S (S (S (S (S (S (S (S (S (S (S (S (S (S
+               (S (S (S (S (S (S (S (S (S (S (S (S (S (S (S (S (S (S (S (S (S
+               (S (S (S (S (S (S (S (S
+               O))))))))))))))))))))))))))))))))))))))))))))))))))))))))))))))))))))))),
+            sol)) :: ((ICopy
+            ((t (S (S (S (S (S (S (S (S (S (S (S (S (S (S (S (S (S (S (S (S
+               (S (S (S (S (S (S (S (S (S (S (S (S (S (S (S (S (S (S (S (S (S
+               (S (S (S (S (S (S (S (S (S (S (S (S (S (S (S (S (S (S (S (S (S
+               (S (S (S (S (S (S (S (S (S
+               O)))))))))))))))))))))))))))))))))))))))))))))))))))))))))))))))))))))))),
+            meas)) :: [])
+     else (IMove
+            ((t (S (S (S (S (S (S (S (S (S (S (S (S (S (S (S (S (S (S (S (S
+               (S (S (S (S (S (S (S (S (S (S (S (S (S (S (S (S (S (S (S (S (S
+               (S (S (S (S (S (S (S (S (S (S (S (S (S (S (S (S (S (S (S (S (S
+               (S (S (S (S (S (S (S (S
+               O))))))))))))))))))))))))))))))))))))))))))))))))))))))))))))))))))))))),
+            sol)) :: ((IMove
+            ((t (S (S (S (S (S (S (S (S (S (S (S (S (S (S (S (S (S (S (S (S
+               (S (S (S (S (S (S (S (S (S (S (S (S (S (S (S (S (S (S (S (S (S
+               (S (S (S (S (S (S (S (S (S (S (S (S (S (S (S (S (S (S (S (S (S
+               (S (S (S (S (S (S (S (S (S
+               O)))))))))))))))))))))))))))))))))))))))))))))))))))))))))))))))))))))))),
+            meas)) :: []))
+    (app ((ISetSelf (f_new0,
+      (t (S (S (S (S (S (S (S (S (S (S (S (S (S (S (S (S (S (S (S (S (S (S (S
+        (S (S (S (S (S (S (S (S (S (S (S (S (S (S (S (S (S (S (S (S (S (S (S
+        (S (S (S (S (S (S (S (S (S (S (S (S (S (S (S (S (S (S (S (S (S (S (S
+        (S
+        O))))))))))))))))))))))))))))))))))))))))))))))))))))))))))))))))))))))))) :: ((ISetSelf
+      (f_new1, obj)) :: ((ISetSelf (f_new2,
+      (t (S (S (S (S (S (S (S (S (S (S (S (S (S (S (S (S (S (S (S (S (S (S (S
+        (S (S (S (S (S (S (S (S (S (S (S (S (S (S (S (S (S (S (S (S (S (S (S
+        (S (S (S (S (S (S (S (S (S (S (S (S (S (S (S (S (S (S (S (S (S (S (S
+        (S (S
+        O)))))))))))))))))))))))))))))))))))))))))))))))))))))))))))))))))))))))))) :: [])))
+      (match ev with
+       | Some e ->
+         app
+           (if copy
+            then (ICopy
+                   ((t (S (S (S (S (S (S (S (S (S (S (S (S (S (S (S (S (S (S
+                      (S (S (S (S (S (S (S (S (S (S (S (S (S (S (S (S (S (S
+                      (S (S (S (S (S (S (S (S (S (S (S (S (S (S (S (S (S (S
+                      (S (S (S (S (S (S (S (S (S (S (S (S (S (S (S (S (S (S
+                      O))))))))))))))))))))))))))))))))))))))))))))))))))))))))))))))))))))))))),
+                   e)) :: []
+            else (IMove
+                   ((t (S (S (S (S (S (S (S (S (S (S (S (S (S (S (S (S (S (S
+                      (S (S (S (S (S (S (S (S (S (S (S (S (S (S (S (S (S (S
+                      (S (S (S (S (S (S (S (S (S (S (S (S (S (S (S (S (S (S
+                      (S (S (S (S (S (S (S (S (S (S (S (S (S (S (S (S (S (S
+                      O))))))))))))))))))))))))))))))))))))))))))))))))))))))))))))))))))))))))),
+                   e)) :: []) ((ISetSelf (f_new3,
+           (t (S (S (S (S (S (S (S (S (S (S (S (S (S (S (S (S (S (S (S (S (S
+             (S (S (S (S (S (S (S (S (S (S (S (S (S (S (S (S (S (S (S (S (S
+             (S (S (S (S (S (S (S (S (S (S (S (S (S (S (S (S (S (S (S (S (S
+             (S (S (S (S (S (S (S (S (S
+             O))))))))))))))))))))))))))))))))))))))))))))))))))))))))))))))))))))))))))) :: [])
+       | None -> []))
+
+(** val archive_add_single_core :
+    var -> var -> var -> var option -> bool -> instr list **)
+
+let archive_add_single_core sol obj meas ev inserted =
+  let he = match ev with
+           | Some _ -> true
+           | None -> false in
+  app ((IView
+    ((t (S (S (S (S (S (S (S (S (S (S (S (S (S (S (S (S (S (S (S (S (S (S (S
+       (S (S (S (S (S (S (S (S (S (S (S (S (S (S (S (S (S (S (S (S (S (S (S
+       (S (S (S (S (S (S (S (S (S (S (S (S (S (S (S (S (S (S (S (S (S (S (S
+       (S (S (S (S (S (S (S (S (S (S (S (S (S (S (S (S (S (S (S (S (S (S (S
+       (S (S (S (S (S (S (S (S
+       O))))))))))))))))))))))))))))))))))))))))))))))))))))))))))))))))))))))))))))))))))))))))))))))))))))),
+    sol, true)) :: ((IView
+    ((t (S (S (S (S (S (S (S (S (S (S (S (S (S (S (S (S (S (S (S (S (S (S (S
+       (S (S (S (S (S (S (S (S (S (S (S (S (S (S (S (S (S (S (S (S (S (S (S
+       (S (S (S (S (S (S (S (S (S (S (S (S (S (S (S (S (S (S (S (S (S (S (S
+       (S (S (S (S (S (S (S (S (S (S (S (S (S (S (S (S (S (S (S (S (S (S (S
+       (S (S (S (S (S (S (S (S (S
+       O)))))))))))))))))))))))))))))))))))))))))))))))))))))))))))))))))))))))))))))))))))))))))))))))))))))),
+    obj, true)) :: ((IView
+    ((t (S (S (S (S (S (S (S (S (S (S (S (S (S (S (S (S (S (S (S (S (S (S (S
+       (S (S (S (S (S (S (S (S (S (S (S (S (S (S (S (S (S (S (S (S (S (S (S
+       (S (S (S (S (S (S (S (S (S (S (S (S (S (S (S (S (S (S (S (S (S (S (S
+       (S (S (S (S (S (S (S (S (S (S (S (S (S (S (S (S (S (S (S (S (S (S (S
+       (S (S (S (S (S (S (S (S (S (S
+       O))))))))))))))))))))))))))))))))))))))))))))))))))))))))))))))))))))))))))))))))))))))))))))))))))))))),
+    meas, true)) :: [])))
+    (app
+      (match ev with
+       | Some e ->
+         (IAsarray
+           ((t (S (S (S (S (S (S (S (S (S (S (S (S (S (S (S (S (S (S (S (S (S
+              (S (S (S (S (S (S (S (S (S (S (S (S (S (S (S (S (S (S (S (S (S
+              (S (S (S (S (S (S (S (S (S (S (S (S (S (S (S (S (S (S (S (S (S
+              (S (S (S (S (S (S (S (S (S (S (S (S (S (S (S (S (S (S (S (S (S
+              (S (S (S (S (S (S (S (S (S (S (S (S (S (S (S (S (S (S (S
+              O)))))))))))))))))))))))))))))))))))))))))))))))))))))))))))))))))))))))))))))))))))))))))))))))))))))))),
+           e, false)) :: ((IView
+           ((t (S (S (S (S (S (S (S (S (S (S (S (S (S (S (S (S (S (S (S (S (S
+              (S (S (S (S (S (S (S (S (S (S (S (S (S (S (S (S (S (S (S (S (S
+              (S (S (S (S (S (S (S (S (S (S (S (S (S (S (S (S (S (S (S (S (S
+              (S (S (S (S (S (S (S (S (S (S (S (S (S (S (S (S (S (S (S (S (S
+              (S (S (S (S (S (S (S (S (S (S (S (S (S (S (S (S (S (S (S
+              O)))))))))))))))))))))))))))))))))))))))))))))))))))))))))))))))))))))))))))))))))))))))))))))))))))))))),
+           (t (S (S (S (S (S (S (S (S (S (S (S (S (S (S (S (S (S (S (S (S (S
+             (S (S (S (S (S (S (S (S (S (S (S (S (S (S (S (S (S (S (S (S (S
+             (S (S (S (S (S (S (S (S (S (S (S (S (S (S (S (S (S (S (S (S (S
+             (S (S (S (S (S (S (S (S (S (S (S (S (S (S (S (S (S (S (S (S (S
+             (S (S (S (S (S (S (S (S (S (S (S (S (S (S (S (S (S (S (S
+             O)))))))))))))))))))))))))))))))))))))))))))))))))))))))))))))))))))))))))))))))))))))))))))))))))))))))),
+           true)) :: [])
+       | None -> [])
+      (app ((IView
+        ((t (S (S (S (S (S (S (S (S (S (S (S (S (S (S (S (S (S (S (S (S (S (S
+           (S (S (S (S (S (S (S (S (S (S (S (S (S (S (S (S (S (S (S (S (S (S
+           (S (S (S (S (S (S (S (S (S (S (S (S (S (S (S (S (S (S (S (S (S (S
+           (S (S (S (S (S (S (S (S (S (S (S (S (S (S (S (S (S (S (S (S (S (S
+           (S (S (S (S (S (S (S (S (S (S (S (S (S (S (S (S
+           O))))))))))))))))))))))))))))))))))))))))))))))))))))))))))))))))))))))))))))))))))))))))))))))))))))))))),
+        meas, true)) :: ((IOp ((t O),
+        ((t (S (S (S (S (S (S (S (S (S (S (S (S (S (S (S (S (S (S (S (S (S (S
+           (S (S (S (S (S (S (S (S (S (S (S (S (S (S (S (S (S (S (S (S (S (S
+           (S (S (S (S (S (S (S (S (S (S (S (S (S (S (S (S (S (S (S (S (S (S
+           (S (S (S (S (S (S (S (S (S (S (S (S (S (S (S (S (S (S (S (S (S (S
+           (S (S (S (S (S (S (S (S (S (S (S (S (S (S (S (S
+           O))))))))))))))))))))))))))))))))))))))))))))))))))))))))))))))))))))))))))))))))))))))))))))))))))))))))) :: []),
+        (S (S (S (S (S (S (S (S (S (S (S (S (S (S O)))))))))))))))) :: []))
+        (app
+          (store_retrieve (t O) (S (S (S (S (S (S (S (S (S (S O)))))))))) he)
+          (app ((ICopy
+            ((t (S (S (S (S (S (S (S (S (S (S (S (S (S (S (S (S (S (S (S (S
+               (S (S (S (S (S (S (S (S (S (S O))))))))))))))))))))))))))))))),
+            (t
+              (add (S (S (S (S (S (S (S (S (S (S (S (S O))))))))))))
+                f_threshold)))) :: ((ICopy
+            ((t (S (S (S (S (S (S (S (S (S (S (S (S (S (S (S (S (S (S (S (S
+               (S (S (S (S (S (S (S (S (S (S (S
+               O)))))))))))))))))))))))))))))))),
+            (t (S (S (S (S (S (S (S (S (S (S (S (S (S (S (S (S (S (S (S (S (S
+              (S (S (S (S (S (S (S (S (S (S (S (S (S (S (S (S (S (S (S (S (S
+              (S (S (S (S (S (S (S (S (S (S (S (S (S (S (S (S (S (S (S (S (S
+              (S (S (S (S (S (S (S (S (S (S (S (S (S (S (S (S (S (S (S (S (S
+              (S (S (S (S (S (S (S (S (S (S (S (S (S (S (S (S (S
+              O)))))))))))))))))))))))))))))))))))))))))))))))))))))))))))))))))))))))))))))))))))))))))))))))))))))))) :: ((IOp
+            ((t (S (S (S (S (S (S (S (S (S (S (S (S (S (S (S (S (S (S (S (S
+               (S (S (S (S (S (S (S (S (S (S (S (S
+               O))))))))))))))))))))))))))))))))), [], (S (S (S (S (S (S
+            O)))))))) :: ((IOp
+            ((t (S (S (S (S (S (S (S (S (S (S (S (S (S (S (S (S (S (S (S (S
+               (S (S (S (S (S (S (S (S (S (S (S (S (S
+               O)))))))))))))))))))))))))))))))))),
+            ((t (S (S (S (S (S (S (S (S (S (S (S (S (S (S (S (S (S (S (S (S
+               (S (S (S (S (S (S (S (S (S (S (S
+               O)))))))))))))))))))))))))))))))) :: ((t (S (S (S (S (S (S (S
+                                                       (S (S (S (S (S (S (S
+                                                       (S (S (S (S (S (S (S
+                                                       (S (S (S (S (S (S (S
+                                                       (S (S
+                                                       O))))))))))))))))))))))))))))))) :: [])),
+            (S (S (S (S (S (S (S (S (S O))))))))))) :: []))))
+            (app
+              (if inserted
+               then app ((IOp
+                      ((t (S (S (S (S (S (S (S (S (S (S (S (S (S (S (S (S (S
+                         (S (S (S (S (S (S (S (S (S (S (S (S (S (S (S
+                         O))))))))))))))))))))))))))))))))), [], (S (S (S (S
+                      (S (S O)))))))) :: ((IOp
+                      ((t (S (S (S (S (S (S O))))))),
+                      ((t (S (S (S (S (S (S (S (S (S (S (S (S (S (S (S (S (S
+                         (S (S (S (S (S (S (S (S (S (S (S (S (S
+                         O))))))))))))))))))))))))))))))) :: ((t (S (S (S (S
+                                                                (S (S (S (S
+                                                                (S (S (S (S
+                                                                (S (S (S (S
+                                                                (S (S (S (S
+                                                                (S (S (S (S
+                                                                (S (S (S (S
+                                                                (S (S (S
+                                                                O)))))))))))))))))))))))))))))))) :: [])),
+                      (S (S (S (S (S (S (S (S (S (S (S (S (S (S (S
+                      O))))))))))))))))) :: []))
+                      (app
+                        (store_retrieve (t O) (S (S (S (S (S (S (S (S (S (S
+                          (S (S (S (S (S (S (S (S (S (S (S (S (S (S (S (S (S
+                          (S (S (S (S (S (S (S (S (S (S (S (S (S
+                          O)))))))))))))))))))))))))))))))))))))))) he)
+                        (app ((IMove
+                          ((t (S (S (S (S (S (S (S (S (S (S (S (S (S (S (S (S
+                             (S (S (S (S (S (S (S (S (S (S (S (S (S (S (S (S
+                             (S (S (S (S (S
+                             O)))))))))))))))))))))))))))))))))))))),
+                          (t
+                            (add (S (S (S (S (S (S (S (S (S (S (S (S (S (S (S
+                              (S (S (S (S (S (S (S (S (S (S (S (S (S (S (S (S
+                              (S (S (S (S (S (S (S (S (S (S (S
+                              O))))))))))))))))))))))))))))))))))))))))))
+                              f_objective)))) :: ((IInplace
+                          ((t (S (S (S (S (S (S (S (S (S (S (S (S (S (S (S (S
+                             (S (S (S (S (S (S (S (S (S (S (S (S (S (S (S (S
+                             (S (S (S (S (S
+                             O)))))))))))))))))))))))))))))))))))))),
+                          ((t (S (S (S (S (S (S (S (S (S (S (S (S (S (S (S (S
+                             (S (S (S (S (S (S (S (S (S (S (S (S (S (S (S (S
+                             (S (S (S (S (S (S (S (S (S
+                             O)))))))))))))))))))))))))))))))))))))))))) :: []),
+                          (S (S (S (S O)))))) :: ((IOp
+                          ((t (S (S (S (S (S (S (S (S (S (S (S (S (S (S (S (S
+                             (S (S (S (S (S (S (S (S (S (S (S (S (S (S (S (S
+                             (S (S (S (S (S (S
+                             O))))))))))))))))))))))))))))))))))))))),
+                          ((t (S (S (S (S (S (S (S (S (S (S (S (S (S (S (S (S
+                             (S (S (S (S (S (S (S (S (S (S (S (S (S (S (S
+                             O)))))))))))))))))))))))))))))))) :: ((t (S (S
+                                                                    (S (S (S
+                                                                    (S (S (S
+                                                                    (S (S (S
+                                                                    (S (S (S
+                                                                    (S (S (S
+                                                                    (S (S (S
+                                                                    (S (S (S
+                                                                    (S (S (S
+                                                                    (S (S (S
+                                                                    (S (S (S
+                                                                    (S (S (S
+                                                                    (S (S
+                                                                    O)))))))))))))))))))))))))))))))))))))) :: [])),
+                          (S (S (S (S (S (S (S (S (S (S (S
+                          O))))))))))))) :: [])))
+                          (app
+                            (store_retrieve (t O) (S (S (S (S (S (S (S (S (S
+                              (S (S (S (S (S (S (S (S (S (S (S (S (S (S (S (S
+                              (S (S (S (S (S (S (S (S (S (S (S (S (S (S (S (S
+                              (S (S (S (S (S (S (S (S (S
+                              O))))))))))))))))))))))))))))))))))))))))))))))))))
+                              he)
+                            (app ((IOp
+                              ((t (S (S (S (S (S (S (S (S (S (S (S (S (S (S
+                                 (S (S (S (S (S (S (S (S (S (S (S (S (S (S (S
+                                 (S (S (S (S (S (S (S (S (S (S
+                                 O)))))))))))))))))))))))))))))))))))))))),
+                              ((t O) :: ((t (S (S (S (S (S (S (S (S (S (S (S
+                                           (S (S (S (S (S (S (S (S (S (S (S
+                                           (S (S (S (S (S (S (S (S (S
+                                           O)))))))))))))))))))))))))))))))) :: [])),
+                              (S (S (S (S (S (S (S (S (S (S (S (S
+                              O)))))))))))))) :: [])
+                              (app
+                                (store_write (t O)
+                                  (app ((f_solution,
+                                    (t (S (S (S (S (S (S (S (S (S (S (S (S (S
+                                      (S (S (S (S (S (S (S (S (S (S (S (S (S
+                                      (S (S (S (S (S (S (S (S (S (S (S (S (S
+                                      (S (S (S (S (S (S (S (S (S (S (S (S (S
+                                      (S (S (S (S (S (S (S (S (S (S (S (S (S
+                                      (S (S (S (S (S (S (S (S (S (S (S (S (S
+                                      (S (S (S (S (S (S (S (S (S (S (S (S (S
+                                      (S (S (S (S (S (S (S (S (S
+                                      O)))))))))))))))))))))))))))))))))))))))))))))))))))))))))))))))))))))))))))))))))))))))))))))))))))))) :: ((f_objective,
+                                    (t (S (S (S (S (S (S (S (S (S (S (S (S (S
+                                      (S (S (S (S (S (S (S (S (S (S (S (S (S
+                                      (S (S (S (S (S (S (S (S (S (S (S (S (S
+                                      (S (S (S (S (S (S (S (S (S (S (S (S (S
+                                      (S (S (S (S (S (S (S (S (S (S (S (S (S
+                                      (S (S (S (S (S (S (S (S (S (S (S (S (S
+                                      (S (S (S (S (S (S (S (S (S (S (S (S (S
+                                      (S (S (S (S (S (S (S (S (S (S
+                                      O))))))))))))))))))))))))))))))))))))))))))))))))))))))))))))))))))))))))))))))))))))))))))))))))))))))) :: ((f_measures,
+                                    (t (S (S (S (S (S (S (S (S (S (S (S (S (S
+                                      (S (S (S (S (S (S (S (S (S (S (S (S (S
+                                      (S (S (S (S (S (S (S (S (S (S (S (S (S
+                                      (S (S (S (S (S (S (S (S (S (S (S (S (S
+                                      (S (S (S (S (S (S (S (S (S (S (S (S (S
+                                      (S (S (S (S (S (S (S (S (S (S (S (S (S
+                                      (S (S (S (S (S (S (S (S (S (S (S (S (S
+                                      (S (S (S (S (S (S (S (S (S (S (S
+                                      O)))))))))))))))))))))))))))))))))))))))))))))))))))))))))))))))))))))))))))))))))))))))))))))))))))))))) :: ((f_threshold,
+                                    (t (S (S (S (S (S (S O)))))))) :: []))))
+                                    (match ev with
+                                     | Some _ ->
+                                       (f_extra,
+                                         (t (S (S (S (S (S (S (S (S (S (S (S
+                                           (S (S (S (S (S (S (S (S (S (S (S
+                                           (S (S (S (S (S (S (S (S (S (S (S
+                                           (S (S (S (S (S (S (S (S (S (S (S
+                                           (S (S (S (S (S (S (S (S (S (S (S
+                                           (S (S (S (S (S (S (S (S (S (S (S
+                                           (S (S (S (S (S (S (S (S (S (S (S
+                                           (S (S (S (S (S (S (S (S (S (S (S
+                                           (S (S (S (S (S (S (S (S (S (S (S
+                                           (S (S (S (S
+                                           O))))))))))))))))))))))))))))))))))))))))))))))))))))))))))))))))))))))))))))))))))))))))))))))))))))))))) :: []
+                                     | None -> [])))
+                                (app ((ICopy
+                                  ((t (S (S (S (S (S (S (S (S (S (S (S (S (S
+                                     (S (S (S (S (S (S (S (S (S (S (S (S (S
+                                     (S (S (S (S (S (S (S (S (S (S (S (S (S
+                                     (S (S (S (S (S (S (S (S (S (S (S (S (S
+                                     (S (S (S (S (S (S (S (S (S (S (S (S (S
+                                     (S (S (S (S (S (S (S (S (S (S (S (S (S
+                                     (S (S (S (S (S (S (S (S (S (S (S (S (S
+                                     (S (S (S (S (S (S (S (S (S (S (S (S (S
+                                     (S (S (S (S (S (S
+                                     O))))))))))))))))))))))))))))))))))))))))))))))))))))))))))))))))))))))))))))))))))))))))))))))))))))))))))))))),
+                                  (t (S (S (S (S (S (S (S (S (S (S (S (S (S
+                                    (S (S (S (S (S (S (S (S (S (S (S (S (S (S
+                                    (S (S (S (S (S
+                                    O))))))))))))))))))))))))))))))))))) :: ((ICopy
+                                  ((t (S (S (S (S (S (S (S (S (S (S (S (S (S
+                                     (S (S (S (S (S (S (S (S (S (S (S (S (S
+                                     (S (S (S (S (S (S (S (S (S (S (S (S (S
+                                     (S (S (S (S (S (S (S (S (S (S (S (S (S
+                                     (S (S (S (S (S (S (S (S (S (S (S (S (S
+                                     (S (S (S (S (S (S (S (S (S (S (S (S (S
+                                     (S (S (S (S (S (S (S (S (S (S (S (S (S
+                                     (S (S (S (S (S (S (S (S (S (S (S (S (S
+                                     (S (S (S (S (S (S (S
+                                     O)))))))))))))))))))))))))))))))))))))))))))))))))))))))))))))))))))))))))))))))))))))))))))))))))))))))))))))))),
+                                  (t (S (S (S (S (S (S (S (S (S (S (S (S (S
+                                    (S (S (S (S (S (S (S (S (S (S (S (S (S (S
+                                    (S (S (S (S (S (S
+                                    O)))))))))))))))))))))))))))))))))))) :: []))
+                                  (stats_update
+                                    (t (S (S (S (S (S (S (S (S (S (S (S (S (S
+                                      (S (S (S (S (S (S (S (S (S (S (S (S (S
+                                      (S (S (S (S (S (S (S (S (S (S (S (S (S
+                                      O))))))))))))))))))))))))))))))))))))))))
+                                    he)))))))
+               else (IOp ((t (S O)), [], (S (S (S (S (S (S (S (S (S (S (S (S
+                      (S O))))))))))))))) :: ((ICopy
+                      ((t (S (S (S (S (S (S (S (S (S (S (S (S (S (S (S (S (S
+                         (S (S (S (S (S (S (S (S (S (S (S (S (S (S (S (S (S
+                         (S (S (S (S (S (S (S (S (S (S (S (S (S (S (S (S (S
+                         (S (S (S (S (S (S (S (S (S (S (S (S (S (S (S (S (S
+                         (S (S (S (S (S (S (S (S (S (S (S (S (S (S (S (S (S
+                         (S (S (S (S (S (S (S (S (S (S (S (S (S (S (S (S (S
+                         (S (S (S (S (S (S (S (S
+                         O))))))))))))))))))))))))))))))))))))))))))))))))))))))))))))))))))))))))))))))))))))))))))))))))))))))))))))))),
+                      (t (S (S (S (S (S (S (S (S (S (S (S (S (S (S (S (S (S
+                        (S (S (S (S (S (S (S (S (S (S (S (S (S (S (S
+                        O))))))))))))))))))))))))))))))))))) :: ((ICopy
+                      ((t (S (S (S (S (S (S (S (S (S (S (S (S (S (S (S (S (S
+                         (S (S (S (S (S (S (S (S (S (S (S (S (S (S (S (S (S
+                         (S (S (S (S (S (S (S (S (S (S (S (S (S (S (S (S (S
+                         (S (S (S (S (S (S (S (S (S (S (S (S (S (S (S (S (S
+                         (S (S (S (S (S (S (S (S (S (S (S (S (S (S (S (S (S
+                         (S (S (S (S (S (S (S (S (S (S (S (S (S (S (S (S (S
+                         (S (S (S (S (S (S (S (S (S
+                         O)))))))))))))))))))))))))))))))))))))))))))))))))))))))))))))))))))))))))))))))))))))))))))))))))))))))))))))))),
+                      (t (S (S (S (S (S (S (S (S (S (S (S (S (S (S (S (S (S
+                        (S (S (S (S (S (S (S (S (S (S (S (S (S (S (S (S
+                        O)))))))))))))))))))))))))))))))))))) :: [])))
+              ((IReturn
+              (t (S (S (S (S (S (S (S (S (S (S (S (S (S (S (S (S (S (S (S (S
+                (S (S (S (S (S (S (S (S (S (S (S (S (S (S (S (S (S (S (S (S
+                (S (S (S (S (S (S (S (S (S (S (S (S (S (S (S (S (S (S (S (S
+                (S (S (S (S (S (S (S (S (S (S (S (S (S (S (S (S (S (S (S (S
+                (S (S (S (S (S (S (S (S (S (S (S (S (S (S (S (S (S (S (S (S
+                (S (S (S (S (S (S (S (S (S (S
+                O)))))))))))))))))))))))))))))))))))))))))))))))))))))))))))))))))))))))))))))))))))))))))))))))))))))))))))))))) :: ((IReturn
+              (t (S (S (S (S (S (S (S (S (S (S (S (S (S (S (S (S (S (S (S (S
+                (S (S (S (S (S (S (S (S (S (S (S (S (S (S (S (S (S (S (S (S
+                (S (S (S (S (S (S (S (S (S (S (S (S (S (S (S (S (S (S (S (S
+                (S (S (S (S (S (S (S (S (S (S (S (S (S (S (S (S (S (S (S (S
+                (S (S (S (S (S (S (S (S (S (S (S (S (S (S (S (S (S (S (S (S
+                (S (S (S (S (S (S (S (S (S (S (S
+                O))))))))))))))))))))))))))))))))))))))))))))))))))))))))))))))))))))))))))))))))))))))))))))))))))))))))))))))))) :: [])))))))
+
+(** val archive_add_core :
+    var -> var -> var -> var option -> nat -> bool -> instr list **)
+
+let archive_add_core sol obj meas ev index_op inserted =
+  let he = match ev with
+           | Some _ -> true
+           | None -> false in
+  app ((IOp ((t O), (meas :: []), index_op)) :: [])
+    (app (archive_transforms sol obj meas ev inserted)
+      (app
+        (if inserted
+         then app
+                (store_write (t (S O))
+                  (app ((f_solution, (t (S (S O)))) :: ((f_objective,
+                    (t (S (S (S O))))) :: ((f_measures,
+                    (t (S (S (S (S O)))))) :: ((f_threshold,
+                    (t (S (S (S (S (S (S O)))))))) :: []))))
+                    (match ev with
+                     | Some _ -> (f_extra, (t (S (S (S (S (S O))))))) :: []
+                     | None -> [])))
+                (stats_update
+                  (t (S (S (S (S (S (S (S (S (S (S (S (S (S (S (S (S (S (S (S
+                    (S (S (S (S (S (S (S (S (S (S (S (S (S (S (S (S (S (S (S
+                    (S O)))))))))))))))))))))))))))))))))))))))) he)
+         else []) ((IReturn
+        (t (S (S (S (S (S (S (S (S (S (S (S (S (S (S (S (S (S (S (S (S (S (S
+          (S (S (S (S (S (S (S (S (S (S O)))))))))))))))))))))))))))))))))) :: ((IReturn
+        (t (S (S (S (S (S (S (S (S (S (S (S (S (S (S (S (S (S (S (S (S (S (S
+          (S (S (S (S (S (S (S (S (S (S (S O))))))))))))))))))))))))))))))))))) :: []))))
+
+(** val opt_ev : ep -> nat -> nat -> var option **)
+
+let opt_ev e nargs pos =
+  if has_extra_arg e nargs then Some pos else None
+
+(** val ranker_and_opt : bool -> var list -> instr list **)
+
+let ranker_and_opt spy regs =
+  app (if spy then map (fun x -> IExpose x) regs else []) ((IOp
+    ((t (S (S (S (S (S (S (S (S (S (S (S (S (S (S (S (S (S (S (S (S
+       O))))))))))))))))))))), ((nth (S O) regs O) :: []), (S (S (S (S (S (S
+    (S (S (S (S (S (S (S (S (S (S (S (S (S (S
+    O)))))))))))))))))))))) :: ((IOp
+    ((t (S (S (S (S (S (S (S (S (S (S (S (S (S (S (S (S (S (S (S (S (S
+       O)))))))))))))))))))))), ((nth (S O) regs O) :: []), (S (S (S (S (S (S
+    (S (S (S (S (S (S (S (S (S (S (S (S (S (S (S
+    O))))))))))))))))))))))) :: []))
+
+(** val emitter_tell : nat -> bool -> var list -> instr list **)
+
+let emitter_tell kind spy regs =
+  app (validate_batch regs)
+    (match kind with
+     | O -> []
+     | S n ->
+       (match n with
+        | O ->
+          app (ranker_and_opt spy regs) ((IGetSelf
+            ((t (S (S (S (S (S (S (S (S (S (S (S (S (S (S (S (S (S (S (S (S
+               (S (S O))))))))))))))))))))))), f_i0)) :: ((IOp
+            ((t (S (S (S (S (S (S (S (S (S (S (S (S (S (S (S (S (S (S (S (S
+               (S (S (S O)))))))))))))))))))))))),
+            ((t (S (S (S (S (S (S (S (S (S (S (S (S (S (S (S (S (S (S (S (S
+               (S (S O))))))))))))))))))))))) :: ((t (S (S (S (S (S (S (S (S
+                                                    (S (S (S (S (S (S (S (S
+                                                    (S (S (S (S
+                                                    O))))))))))))))))))))) :: [])),
+            (S O))) :: ((IOp
+            ((t (S (S (S (S (S (S (S (S (S (S (S (S (S (S (S (S (S (S (S (S
+               (S (S (S (S O))))))))))))))))))))))))),
+            ((t (S (S (S (S (S (S (S (S (S (S (S (S (S (S (S (S (S (S (S (S
+               (S (S (S O)))))))))))))))))))))))) :: []), (S (S (S (S (S (S
+            (S (S (S (S (S (S (S (S (S (S (S (S (S (S (S (S
+            O)))))))))))))))))))))))) :: ((ISetSelf (f_i1,
+            (t (S (S (S (S (S (S (S (S (S (S (S (S (S (S (S (S (S (S (S (S (S
+              (S (S (S O))))))))))))))))))))))))))) :: []))))
+        | S _ ->
+          app (ranker_and_opt spy regs) ((IOp
+            ((t (S (S (S (S (S (S (S (S (S (S (S (S (S (S (S (S (S (S (S (S
+               (S (S (S (S (S O)))))))))))))))))))))))))),
+            ((hd O regs) :: ((t (S (S (S (S (S (S (S (S (S (S (S (S (S (S (S
+                               (S (S (S (S (S O))))))))))))))))))))) :: [])),
+            (S O))) :: ((IView
+            ((t (S (S (S (S (S (S (S (S (S (S (S (S (S (S (S (S (S (S (S (S
+               (S (S (S (S (S O)))))))))))))))))))))))))),
+            (t (S (S (S (S (S (S (S (S (S (S (S (S (S (S (S (S (S (S (S (S (S
+              (S (S (S (S O)))))))))))))))))))))))))), true)) :: ((IOp
+            ((t (S (S (S (S (S (S (S (S (S (S (S (S (S (S (S (S (S (S (S (S
+               (S (S (S (S (S (S O))))))))))))))))))))))))))),
+            ((t (S (S (S (S (S (S (S (S (S (S (S (S (S (S (S (S (S (S (S (S
+               (S (S (S (S (S O)))))))))))))))))))))))))) :: []), (S (S (S (S
+            (S (S (S (S (S (S (S (S (S (S (S (S (S (S (S (S (S (S (S
+            O))))))))))))))))))))))))) :: ((IGetSelf
+            ((t (S (S (S (S (S (S (S (S (S (S (S (S (S (S (S (S (S (S (S (S
+               (S (S (S (S (S (S (S O)))))))))))))))))))))))))))),
+            f_i2)) :: ((IOp
+            ((t (S (S (S (S (S (S (S (S (S (S (S (S (S (S (S (S (S (S (S (S
+               (S (S (S (S (S (S (S (S O))))))))))))))))))))))))))))),
+            ((t (S (S (S (S (S (S (S (S (S (S (S (S (S (S (S (S (S (S (S (S
+               (S (S (S (S (S (S O))))))))))))))))))))))))))) :: ((t (S (S (S
+                                                                    (S (S (S
+                                                                    (S (S (S
+                                                                    (S (S (S
+                                                                    (S (S (S
+                                                                    (S (S (S
+                                                                    (S (S (S
+                                                                    (S (S (S
+                                                                    (S (S (S
+                                                                    O)))))))))))))))))))))))))))) :: [])),
+            (S (S (S (S (S (S (S (S (S (S (S (S (S (S (S (S (S (S (S (S (S (S
+            (S (S O)))))))))))))))))))))))))) :: ((IAsarray
+            ((t (S (S (S (S (S (S (S (S (S (S (S (S (S (S (S (S (S (S (S (S
+               (S (S (S (S (S (S (S (S O))))))))))))))))))))))))))))),
+            (t (S (S (S (S (S (S (S (S (S (S (S (S (S (S (S (S (S (S (S (S (S
+              (S (S (S (S (S (S (S O))))))))))))))))))))))))))))),
+            false)) :: ((IOp
+            ((t (S (S (S (S (S (S (S (S (S (S (S (S (S (S (S (S (S (S (S (S
+               (S (S (S (S (S (S (S (S (S O)))))))))))))))))))))))))))))),
+            ((t (S (S (S (S (S (S (S (S (S (S (S (S (S (S (S (S (S (S (S (S
+               (S (S (S (S (S (S (S (S O))))))))))))))))))))))))))))) :: []),
+            (S (S (S (S (S (S (S (S (S (S (S (S (S (S (S (S (S (S (S (S (S (S
+            (S (S (S O))))))))))))))))))))))))))) :: ((IInplace
+            ((t (S (S (S (S (S (S (S (S (S (S (S (S (S (S (S (S (S (S (S (S
+               (S (S (S (S (S (S (S (S (S O)))))))))))))))))))))))))))))),
+            ((t (S (S (S (S (S (S (S (S (S (S (S (S (S (S (S (S (S (S (S (S
+               (S (S (S (S (S (S (S O)))))))))))))))))))))))))))) :: []), (S
+            (S (S (S (S (S (S (S (S (S (S (S (S (S (S (S (S (S (S (S (S (S (S
+            (S (S (S O)))))))))))))))))))))))))))) :: ((IInplace
+            ((t (S (S (S (S (S (S (S (S (S (S (S (S (S (S (S (S (S (S (S (S
+               (S (S (S (S (S (S (S O)))))))))))))))))))))))))))),
+            ((t (S (S (S (S (S (S (S (S (S (S (S (S (S (S (S (S (S (S (S (S
+               (S (S (S (S (S (S (S (S (S O)))))))))))))))))))))))))))))) :: []),
+            (S (S (S (S (S (S (S (S (S (S (S (S (S (S (S (S (S (S (S (S (S (S
+            (S (S (S (S (S O))))))))))))))))))))))))))))) :: [])))))))))))
+
+(** val tell_dqd : bool -> bool -> var list -> var -> instr list **)
+
+let tell_dqd copy normalize regs jac =
+  app (validate_batch regs)
+    (app
+      (if normalize
+       then app ((IOp
+              ((t (S (S (S (S (S (S (S (S (S (S (S (S (S (S (S (S (S (S (S (S
+                 O))))))))))))))))))))), (jac :: []), (S (S (S (S (S (S (S (S
+              (S (S (S (S (S (S (S (S (S (S (S (S (S (S (S (S (S (S (S (S (S
+              (S O)))))))))))))))))))))))))))))))) :: [])
+              (if copy
+               then (IOp
+                      ((t (S (S (S (S (S (S (S (S (S (S (S (S (S (S (S (S (S
+                         (S (S (S (S O)))))))))))))))))))))),
+                      (jac :: ((t (S (S (S (S (S (S (S (S (S (S (S (S (S (S
+                                 (S (S (S (S (S (S O))))))))))))))))))))) :: [])),
+                      (S (S (S (S (S (S (S (S (S (S (S (S (S (S (S (S (S (S
+                      (S (S (S (S (S (S (S (S (S (S (S (S (S
+                      O))))))))))))))))))))))))))))))))) :: []
+               else (IInplace (jac,
+                      ((t (S (S (S (S (S (S (S (S (S (S (S (S (S (S (S (S (S
+                         (S (S (S O))))))))))))))))))))) :: []), (S (S (S (S
+                      (S (S (S (S (S (S (S (S (S (S (S (S (S (S (S (S (S (S
+                      (S (S (S (S (S (S (S (S (S
+                      O))))))))))))))))))))))))))))))))) :: ((IMove
+                      ((t (S (S (S (S (S (S (S (S (S (S (S (S (S (S (S (S (S
+                         (S (S (S (S O)))))))))))))))))))))), jac)) :: []))
+       else if copy
+            then (ICopy
+                   ((t (S (S (S (S (S (S (S (S (S (S (S (S (S (S (S (S (S (S
+                      (S (S (S O)))))))))))))))))))))), jac)) :: []
+            else (IMove
+                   ((t (S (S (S (S (S (S (S (S (S (S (S (S (S (S (S (S (S (S
+                      (S (S (S O)))))))))))))))))))))), jac)) :: [])
+      ((ISetSelf (f_i3,
+      (t (S (S (S (S (S (S (S (S (S (S (S (S (S (S (S (S (S (S (S (S (S
+        O)))))))))))))))))))))))) :: []))
+
+(** val emitter_start : bool -> bool -> var -> instr list **)
+
+let emitter_start copy use_init r =
+  if use_init
+  then app
+         (if copy
+          then (ICopy
+                 ((t (S (S (S (S (S (S (S (S (S (S (S (S (S (S (S (S (S (S (S
+                    (S O))))))))))))))))))))), r)) :: []
+          else (IAsarray
+                 ((t (S (S (S (S (S (S (S (S (S (S (S (S (S (S (S (S (S (S (S
+                    (S O))))))))))))))))))))), r, true)) :: []) ((ISetSelf
+         (f_new1,
+         (t (S (S (S (S (S (S (S (S (S (S (S (S (S (S (S (S (S (S (S (S
+           O))))))))))))))))))))))) :: [])
+  else (ICopy
+         ((t (S (S (S (S (S (S (S (S (S (S (S (S (S (S (S (S (S (S (S (S
+            O))))))))))))))))))))), r)) :: ((ISetSelf (f_new0,
+         (t (S (S (S (S (S (S (S (S (S (S (S (S (S (S (S (S (S (S (S (S
+           O))))))))))))))))))))))) :: [])
+
+(** val emitter_bounds : var -> instr list **)
+
+let emitter_bounds r =
+  (IOp
+    ((t (S (S (S (S (S (S (S (S (S (S (S (S (S (S (S (S (S (S (S (S (S
+       O)))))))))))))))))))))), [], (S (S (S (S (S (S (S (S (S (S (S (S (S (S
+    (S (S (S (S (S (S (S (S (S (S (S (S (S (S (S (S (S (S (S (S (S (S (S (S
+    (S (S O)))))))))))))))))))))))))))))))))))))))))) :: ((IOp
+    ((t (S (S (S (S (S (S (S (S (S (S (S (S (S (S (S (S (S (S (S (S (S (S
+       O))))))))))))))))))))))), [], (S (S (S (S (S (S (S (S (S (S (S (S (S
+    (S (S (S (S (S (S (S (S (S (S (S (S (S (S (S (S (S (S (S (S (S (S (S (S
+    (S (S (S O)))))))))))))))))))))))))))))))))))))))))) :: ((IInplace
+    ((t (S (S (S (S (S (S (S (S (S (S (S (S (S (S (S (S (S (S (S (S (S
+       O)))))))))))))))))))))), (r :: []), (S (S (S (S (S (S (S (S (S (S (S
+    (S (S (S (S (S (S (S (S (S (S (S (S (S (S (S (S (S (S (S (S (S (S (S (S
+    (S (S (S (S (S (S
+    O))))))))))))))))))))))))))))))))))))))))))) :: ((IInplace
+    ((t (S (S (S (S (S (S (S (S (S (S (S (S (S (S (S (S (S (S (S (S (S (S
+       O))))))))))))))))))))))), (r :: []), (S (S (S (S (S (S (S (S (S (S (S
+    (S (S (S (S (S (S (S (S (S (S (S (S (S (S (S (S (S (S (S (S (S (S (S (S
+    (S (S (S (S (S (S
+    O))))))))))))))))))))))))))))))))))))))))))) :: ((ISetSelf (f_new2,
+    (t (S (S (S (S (S (S (S (S (S (S (S (S (S (S (S (S (S (S (S (S (S
+      O)))))))))))))))))))))))) :: ((ISetSelf (f_new3,
+    (t (S (S (S (S (S (S (S (S (S (S (S (S (S (S (S (S (S (S (S (S (S (S
+      O))))))))))))))))))))))))) :: [])))))
+
+(** val sched_archive_add :
+    bool -> nat -> bool -> var -> var -> var option -> instr list **)
+
+let sched_archive_add copy akind single obj meas ev =
+  let sol =
+    t (S (S (S (S (S (S (S (S (S (S (S (S (S (S (S (S (S (S (S (S (S (S (S (S
+      (S (S (S (S (S (S (S (S (S (S (S (S (S (S (S (S (S (S (S (S (S (S (S (S
+      (S (S (S (S (S (S (S (S (S (S (S (S (S (S (S (S (S (S (S (S (S (S (S (S
+      (S (S (S (S (S (S (S (S (S (S (S (S (S (S (S (S (S (S (S (S (S (S (S (S
+      (S (S (S (S (S (S (S (S (S (S (S (S (S (S (S (S (S (S (S (S (S (S (S (S
+      O))))))))))))))))))))))))))))))))))))))))))))))))))))))))))))))))))))))))))))))))))))))))))))))))))))))))))))))))))))))))
+  in
+  app ((IGetSelf (sol, f_i4)) :: [])
+    (if single
+     then app ((IView
+            ((t (S (S (S (S (S (S (S (S (S (S (S (S (S (S (S (S (S (S (S (S
+               (S (S (S (S (S (S (S (S (S (S (S (S (S (S (S (S (S (S (S (S (S
+               (S (S (S (S (S (S (S (S (S (S (S (S (S (S (S (S (S (S (S (S (S
+               (S (S (S (S (S (S (S (S (S (S (S (S (S (S (S (S (S (S (S (S (S
+               (S (S (S (S (S (S (S (S (S (S (S (S (S (S (S (S (S (S (S (S (S
+               (S (S (S (S (S (S (S (S (S (S (S (S (S (S (S (S (S
+               O)))))))))))))))))))))))))))))))))))))))))))))))))))))))))))))))))))))))))))))))))))))))))))))))))))))))))))))))))))))))))),
+            sol, true)) :: ((ICopy
+            ((t (S (S (S (S (S (S (S (S (S (S (S (S (S (S (S (S (S (S (S (S
+               (S (S (S (S (S (S (S (S (S (S (S (S (S (S (S (S (S (S (S (S (S
+               (S (S (S (S (S (S (S (S (S (S (S (S (S (S (S (S (S (S (S (S (S
+               (S (S (S (S (S (S (S (S (S (S (S (S (S (S (S (S (S (S (S (S (S
+               (S (S (S (S (S (S (S (S (S (S (S (S (S (S (S (S (S (S (S (S (S
+               (S (S (S (S (S (S (S (S (S (S (S (S (S (S (S (S (S (S
+               O))))))))))))))))))))))))))))))))))))))))))))))))))))))))))))))))))))))))))))))))))))))))))))))))))))))))))))))))))))))))))),
+            obj)) :: ((IView
+            ((t (S (S (S (S (S (S (S (S (S (S (S (S (S (S (S (S (S (S (S (S
+               (S (S (S (S (S (S (S (S (S (S (S (S (S (S (S (S (S (S (S (S (S
+               (S (S (S (S (S (S (S (S (S (S (S (S (S (S (S (S (S (S (S (S (S
+               (S (S (S (S (S (S (S (S (S (S (S (S (S (S (S (S (S (S (S (S (S
+               (S (S (S (S (S (S (S (S (S (S (S (S (S (S (S (S (S (S (S (S (S
+               (S (S (S (S (S (S (S (S (S (S (S (S (S (S (S (S (S (S (S
+               O)))))))))))))))))))))))))))))))))))))))))))))))))))))))))))))))))))))))))))))))))))))))))))))))))))))))))))))))))))))))))))),
+            meas, true)) :: [])))
+            (app
+              (match ev with
+               | Some e ->
+                 (IView
+                   ((t (S (S (S (S (S (S (S (S (S (S (S (S (S (S (S (S (S (S
+                      (S (S (S (S (S (S (S (S (S (S (S (S (S (S (S (S (S (S
+                      (S (S (S (S (S (S (S (S (S (S (S (S (S (S (S (S (S (S
+                      (S (S (S (S (S (S (S (S (S (S (S (S (S (S (S (S (S (S
+                      (S (S (S (S (S (S (S (S (S (S (S (S (S (S (S (S (S (S
+                      (S (S (S (S (S (S (S (S (S (S (S (S (S (S (S (S (S (S
+                      (S (S (S (S (S (S (S (S (S (S (S (S (S (S (S (S
+                      O))))))))))))))))))))))))))))))))))))))))))))))))))))))))))))))))))))))))))))))))))))))))))))))))))))))))))))))))))))))))))))),
+                   e, true)) :: []
+               | None -> [])
+              (app
+                (validate_single
+                  (t (S (S (S (S (S (S (S (S (S (S (S (S (S (S (S (S (S (S (S
+                    (S (S (S (S (S (S (S (S (S (S (S (S (S (S (S (S (S (S (S
+                    (S (S (S (S (S (S (S (S (S (S (S (S (S (S (S (S (S (S (S
+                    (S (S (S (S (S (S (S (S (S (S (S (S (S (S (S (S (S (S (S
+                    (S (S (S (S (S (S (S (S (S (S (S (S (S (S (S (S (S (S (S
+                    (S (S (S (S (S (S (S (S (S (S (S (S (S (S (S (S (S (S (S
+                    (S (S (S (S (S (S (S
+                    O))))))))))))))))))))))))))))))))))))))))))))))))))))))))))))))))))))))))))))))))))))))))))))))))))))))))))))))))))))))))))
+                  (t (S (S (S (S (S (S (S (S (S (S (S (S (S (S (S (S (S (S (S
+                    (S (S (S (S (S (S (S (S (S (S (S (S (S (S (S (S (S (S (S
+                    (S (S (S (S (S (S (S (S (S (S (S (S (S (S (S (S (S (S (S
+                    (S (S (S (S (S (S (S (S (S (S (S (S (S (S (S (S (S (S (S
+                    (S (S (S (S (S (S (S (S (S (S (S (S (S (S (S (S (S (S (S
+                    (S (S (S (S (S (S (S (S (S (S (S (S (S (S (S (S (S (S (S
+                    (S (S (S (S (S (S (S (S
+                    O)))))))))))))))))))))))))))))))))))))))))))))))))))))))))))))))))))))))))))))))))))))))))))))))))))))))))))))))))))))))))))
+                  (t (S (S (S (S (S (S (S (S (S (S (S (S (S (S (S (S (S (S (S
+                    (S (S (S (S (S (S (S (S (S (S (S (S (S (S (S (S (S (S (S
+                    (S (S (S (S (S (S (S (S (S (S (S (S (S (S (S (S (S (S (S
+                    (S (S (S (S (S (S (S (S (S (S (S (S (S (S (S (S (S (S (S
+                    (S (S (S (S (S (S (S (S (S (S (S (S (S (S (S (S (S (S (S
+                    (S (S (S (S (S (S (S (S (S (S (S (S (S (S (S (S (S (S (S
+                    (S (S (S (S (S (S (S (S (S
+                    O)))))))))))))))))))))))))))))))))))))))))))))))))))))))))))))))))))))))))))))))))))))))))))))))))))))))))))))))))))))))))))))
+                (app
+                  (match akind with
+                   | O -> []
+                   | S n ->
+                     (match n with
+                      | O ->
+                        sliding_buffer_entry copy
+                          (t (S (S (S (S (S (S (S (S (S (S (S (S (S (S (S (S
+                            (S (S (S (S (S (S (S (S (S (S (S (S (S (S (S (S
+                            (S (S (S (S (S (S (S (S (S (S (S (S (S (S (S (S
+                            (S (S (S (S (S (S (S (S (S (S (S (S (S (S (S (S
+                            (S (S (S (S (S (S (S (S (S (S (S (S (S (S (S (S
+                            (S (S (S (S (S (S (S (S (S (S (S (S (S (S (S (S
+                            (S (S (S (S (S (S (S (S (S (S (S (S (S (S (S (S
+                            (S (S (S (S (S (S (S (S (S
+                            O))))))))))))))))))))))))))))))))))))))))))))))))))))))))))))))))))))))))))))))))))))))))))))))))))))))))))))))))))))))))))
+                          (t (S (S (S (S (S (S (S (S (S (S (S (S (S (S (S (S
+                            (S (S (S (S (S (S (S (S (S (S (S (S (S (S (S (S
+                            (S (S (S (S (S (S (S (S (S (S (S (S (S (S (S (S
+                            (S (S (S (S (S (S (S (S (S (S (S (S (S (S (S (S
+                            (S (S (S (S (S (S (S (S (S (S (S (S (S (S (S (S
+                            (S (S (S (S (S (S (S (S (S (S (S (S (S (S (S (S
+                            (S (S (S (S (S (S (S (S (S (S (S (S (S (S (S (S
+                            (S (S (S (S (S (S (S (S (S (S
+                            O)))))))))))))))))))))))))))))))))))))))))))))))))))))))))))))))))))))))))))))))))))))))))))))))))))))))))))))))))))))))))))
+                          (t (S (S (S (S (S (S (S (S (S (S (S (S (S (S (S (S
+                            (S (S (S (S (S (S (S (S (S (S (S (S (S (S (S (S
+                            (S (S (S (S (S (S (S (S (S (S (S (S (S (S (S (S
+                            (S (S (S (S (S (S (S (S (S (S (S (S (S (S (S (S
+                            (S (S (S (S (S (S (S (S (S (S (S (S (S (S (S (S
+                            (S (S (S (S (S (S (S (S (S (S (S (S (S (S (S (S
+                            (S (S (S (S (S (S (S (S (S (S (S (S (S (S (S (S
+                            (S (S (S (S (S (S (S (S (S (S (S
+                            O))))))))))))))))))))))))))))))))))))))))))))))))))))))))))))))))))))))))))))))))))))))))))))))))))))))))))))))))))))))))))))
+                          (match ev with
+                           | Some _ ->
+                             Some
+                               (t (S (S (S (S (S (S (S (S (S (S (S (S (S (S
+                                 (S (S (S (S (S (S (S (S (S (S (S (S (S (S (S
+                                 (S (S (S (S (S (S (S (S (S (S (S (S (S (S (S
+                                 (S (S (S (S (S (S (S (S (S (S (S (S (S (S (S
+                                 (S (S (S (S (S (S (S (S (S (S (S (S (S (S (S
+                                 (S (S (S (S (S (S (S (S (S (S (S (S (S (S (S
+                                 (S (S (S (S (S (S (S (S (S (S (S (S (S (S (S
+                                 (S (S (S (S (S (S (S (S (S (S (S (S (S (S (S
+                                 (S (S (S (S (S
+                                 O)))))))))))))))))))))))))))))))))))))))))))))))))))))))))))))))))))))))))))))))))))))))))))))))))))))))))))))))))))))))))))))
+                           | None -> None)
+                      | S _ -> []))
+                  (archive_add_single_core
+                    (t (S (S (S (S (S (S (S (S (S (S (S (S (S (S (S (S (S (S
+                      (S (S (S (S (S (S (S (S (S (S (S (S (S (S (S (S (S (S
+                      (S (S (S (S (S (S (S (S (S (S (S (S (S (S (S (S (S (S
+                      (S (S (S (S (S (S (S (S (S (S (S (S (S (S (S (S (S (S
+                      (S (S (S (S (S (S (S (S (S (S (S (S (S (S (S (S (S (S
+                      (S (S (S (S (S (S (S (S (S (S (S (S (S (S (S (S (S (S
+                      (S (S (S (S (S (S (S (S (S (S (S (S (S
+                      O))))))))))))))))))))))))))))))))))))))))))))))))))))))))))))))))))))))))))))))))))))))))))))))))))))))))))))))))))))))))))
+                    (t (S (S (S (S (S (S (S (S (S (S (S (S (S (S (S (S (S (S
+                      (S (S (S (S (S (S (S (S (S (S (S (S (S (S (S (S (S (S
+                      (S (S (S (S (S (S (S (S (S (S (S (S (S (S (S (S (S (S
+                      (S (S (S (S (S (S (S (S (S (S (S (S (S (S (S (S (S (S
+                      (S (S (S (S (S (S (S (S (S (S (S (S (S (S (S (S (S (S
+                      (S (S (S (S (S (S (S (S (S (S (S (S (S (S (S (S (S (S
+                      (S (S (S (S (S (S (S (S (S (S (S (S (S (S
+                      O)))))))))))))))))))))))))))))))))))))))))))))))))))))))))))))))))))))))))))))))))))))))))))))))))))))))))))))))))))))))))))
+                    (t (S (S (S (S (S (S (S (S (S (S (S (S (S (S (S (S (S (S
+                      (S (S (S (S (S (S (S (S (S (S (S (S (S (S (S (S (S (S
+                      (S (S (S (S (S (S (S (S (S (S (S (S (S (S (S (S (S (S
+                      (S (S (S (S (S (S (S (S (S (S (S (S (S (S (S (S (S (S
+                      (S (S (S (S (S (S (S (S (S (S (S (S (S (S (S (S (S (S
+                      (S (S (S (S (S (S (S (S (S (S (S (S (S (S (S (S (S (S
+                      (S (S (S (S (S (S (S (S (S (S (S (S (S (S (S
+                      O))))))))))))))))))))))))))))))))))))))))))))))))))))))))))))))))))))))))))))))))))))))))))))))))))))))))))))))))))))))))))))
+                    (match ev with
+                     | Some _ ->
+                       Some
+                         (t (S (S (S (S (S (S (S (S (S (S (S (S (S (S (S (S
+                           (S (S (S (S (S (S (S (S (S (S (S (S (S (S (S (S (S
+                           (S (S (S (S (S (S (S (S (S (S (S (S (S (S (S (S (S
+                           (S (S (S (S (S (S (S (S (S (S (S (S (S (S (S (S (S
+                           (S (S (S (S (S (S (S (S (S (S (S (S (S (S (S (S (S
+                           (S (S (S (S (S (S (S (S (S (S (S (S (S (S (S (S (S
+                           (S (S (S (S (S (S (S (S (S (S (S (S (S (S (S (S (S
+                           (S (S (S (S (S (S
+                           O)))))))))))))))))))))))))))))))))))))))))))))))))))))))))))))))))))))))))))))))))))))))))))))))))))))))))))))))))))))))))))))
+                     | None -> None) true))))
+     else app
+            (validate_batch
+              (app (sol :: (obj :: (meas :: [])))
+                (match ev with
+                 | Some e -> e :: []
+                 | None -> [])))
+            (match akind with
+             | O ->
+               archive_add_core sol obj meas ev (S (S (S (S (S (S (S (S (S (S
+                 (S (S (S (S (S (S O)))))))))))))))) true
+             | S n ->
+               (match n with
+                | O ->
+                  app ((IView
+                    ((t (S (S (S (S (S (S (S (S (S (S (S (S (S (S (S (S (S (S
+                       (S (S (S (S (S (S (S (S (S (S (S (S (S (S (S (S (S (S
+                       (S (S (S (S (S (S (S (S (S (S (S (S (S (S (S (S (S (S
+                       (S (S (S (S (S (S (S (S (S (S (S (S (S (S (S (S (S (S
+                       (S (S (S (S (S (S (S (S (S (S (S (S (S (S (S (S (S (S
+                       (S (S (S (S (S (S (S (S (S (S (S (S (S (S (S (S (S (S
+                       (S (S (S (S (S (S (S (S (S (S (S (S (S
+                       O)))))))))))))))))))))))))))))))))))))))))))))))))))))))))))))))))))))))))))))))))))))))))))))))))))))))))))))))))))))))))),
+                    sol, true)) :: ((ICopy
+                    ((t (S (S (S (S (S (S (S (S (S (S (S (S (S (S (S (S (S (S
+                       (S (S (S (S (S (S (S (S (S (S (S (S (S (S (S (S (S (S
+                       (S (S (S (S (S (S (S (S (S (S (S (S (S (S (S (S (S (S
+                       (S (S (S (S (S (S (S (S (S (S (S (S (S (S (S (S (S (S
+                       (S (S (S (S (S (S (S (S (S (S (S (S (S (S (S (S (S (S
+                       (S (S (S (S (S (S (S (S (S (S (S (S (S (S (S (S (S (S
+                       (S (S (S (S (S (S (S (S (S (S (S (S (S (S
+                       O))))))))))))))))))))))))))))))))))))))))))))))))))))))))))))))))))))))))))))))))))))))))))))))))))))))))))))))))))))))))))),
+                    obj)) :: ((IView
+                    ((t (S (S (S (S (S (S (S (S (S (S (S (S (S (S (S (S (S (S
+                       (S (S (S (S (S (S (S (S (S (S (S (S (S (S (S (S (S (S
+                       (S (S (S (S (S (S (S (S (S (S (S (S (S (S (S (S (S (S
+                       (S (S (S (S (S (S (S (S (S (S (S (S (S (S (S (S (S (S
+                       (S (S (S (S (S (S (S (S (S (S (S (S (S (S (S (S (S (S
+                       (S (S (S (S (S (S (S (S (S (S (S (S (S (S (S (S (S (S
+                       (S (S (S (S (S (S (S (S (S (S (S (S (S (S (S
+                       O)))))))))))))))))))))))))))))))))))))))))))))))))))))))))))))))))))))))))))))))))))))))))))))))))))))))))))))))))))))))))))),
+                    meas, true)) :: [])))
+                    (app
+                      (match ev with
+                       | Some e ->
+                         (IView
+                           ((t (S (S (S (S (S (S (S (S (S (S (S (S (S (S (S
+                              (S (S (S (S (S (S (S (S (S (S (S (S (S (S (S (S
+                              (S (S (S (S (S (S (S (S (S (S (S (S (S (S (S (S
+                              (S (S (S (S (S (S (S (S (S (S (S (S (S (S (S (S
+                              (S (S (S (S (S (S (S (S (S (S (S (S (S (S (S (S
+                              (S (S (S (S (S (S (S (S (S (S (S (S (S (S (S (S
+                              (S (S (S (S (S (S (S (S (S (S (S (S (S (S (S (S
+                              (S (S (S (S (S (S (S (S (S (S (S (S (S
+                              O))))))))))))))))))))))))))))))))))))))))))))))))))))))))))))))))))))))))))))))))))))))))))))))))))))))))))))))))))))))))))))),
+                           e, true)) :: []
+                       | None -> [])
+                      (app
+                        (validate_single
+                          (t (S (S (S (S (S (S (S (S (S (S (S (S (S (S (S (S
+                            (S (S (S (S (S (S (S (S (S (S (S (S (S (S (S (S
+                            (S (S (S (S (S (S (S (S (S (S (S (S (S (S (S (S
+                            (S (S (S (S (S (S (S (S (S (S (S (S (S (S (S (S
+                            (S (S (S (S (S (S (S (S (S (S (S (S (S (S (S (S
+                            (S (S (S (S (S (S (S (S (S (S (S (S (S (S (S (S
+                            (S (S (S (S (S (S (S (S (S (S (S (S (S (S (S (S
+                            (S (S (S (S (S (S (S (S (S
+                            O))))))))))))))))))))))))))))))))))))))))))))))))))))))))))))))))))))))))))))))))))))))))))))))))))))))))))))))))))))))))))
+                          (t (S (S (S (S (S (S (S (S (S (S (S (S (S (S (S (S
+                            (S (S (S (S (S (S (S (S (S (S (S (S (S (S (S (S
+                            (S (S (S (S (S (S (S (S (S (S (S (S (S (S (S (S
+                            (S (S (S (S (S (S (S (S (S (S (S (S (S (S (S (S
+                            (S (S (S (S (S (S (S (S (S (S (S (S (S (S (S (S
+                            (S (S (S (S (S (S (S (S (S (S (S (S (S (S (S (S
+                            (S (S (S (S (S (S (S (S (S (S (S (S (S (S (S (S
+                            (S (S (S (S (S (S (S (S (S (S
+                            O)))))))))))))))))))))))))))))))))))))))))))))))))))))))))))))))))))))))))))))))))))))))))))))))))))))))))))))))))))))))))))
+                          (t (S (S (S (S (S (S (S (S (S (S (S (S (S (S (S (S
+                            (S (S (S (S (S (S (S (S (S (S (S (S (S (S (S (S
+                            (S (S (S (S (S (S (S (S (S (S (S (S (S (S (S (S
+                            (S (S (S (S (S (S (S (S (S (S (S (S (S (S (S (S
+                            (S (S (S (S (S (S (S (S (S (S (S (S (S (S (S (S
+                            (S (S (S (S (S (S (S (S (S (S (S (S (S (S (S (S
+                            (S (S (S (S (S (S (S (S (S (S (S (S (S (S (S (S
+                            (S (S (S (S (S (S (S (S (S (S (S
+                            O)))))))))))))))))))))))))))))))))))))))))))))))))))))))))))))))))))))))))))))))))))))))))))))))))))))))))))))))))))))))))))))
+                        (app
+                          (sliding_buffer_entry copy
+                            (t (S (S (S (S (S (S (S (S (S (S (S (S (S (S (S
+                              (S (S (S (S (S (S (S (S (S (S (S (S (S (S (S (S
+                              (S (S (S (S (S (S (S (S (S (S (S (S (S (S (S (S
+                              (S (S (S (S (S (S (S (S (S (S (S (S (S (S (S (S
+                              (S (S (S (S (S (S (S (S (S (S (S (S (S (S (S (S
+                              (S (S (S (S (S (S (S (S (S (S (S (S (S (S (S (S
+                              (S (S (S (S (S (S (S (S (S (S (S (S (S (S (S (S
+                              (S (S (S (S (S (S (S (S (S (S
+                              O))))))))))))))))))))))))))))))))))))))))))))))))))))))))))))))))))))))))))))))))))))))))))))))))))))))))))))))))))))))))))
+                            (t (S (S (S (S (S (S (S (S (S (S (S (S (S (S (S
+                              (S (S (S (S (S (S (S (S (S (S (S (S (S (S (S (S
+                              (S (S (S (S (S (S (S (S (S (S (S (S (S (S (S (S
+                              (S (S (S (S (S (S (S (S (S (S (S (S (S (S (S (S
+                              (S (S (S (S (S (S (S (S (S (S (S (S (S (S (S (S
+                              (S (S (S (S (S (S (S (S (S (S (S (S (S (S (S (S
+                              (S (S (S (S (S (S (S (S (S (S (S (S (S (S (S (S
+                              (S (S (S (S (S (S (S (S (S (S (S
+                              O)))))))))))))))))))))))))))))))))))))))))))))))))))))))))))))))))))))))))))))))))))))))))))))))))))))))))))))))))))))))))))
+                            (t (S (S (S (S (S (S (S (S (S (S (S (S (S (S (S
+                              (S (S (S (S (S (S (S (S (S (S (S (S (S (S (S (S
+                              (S (S (S (S (S (S (S (S (S (S (S (S (S (S (S (S
+                              (S (S (S (S (S (S (S (S (S (S (S (S (S (S (S (S
+                              (S (S (S (S (S (S (S (S (S (S (S (S (S (S (S (S
+                              (S (S (S (S (S (S (S (S (S (S (S (S (S (S (S (S
+                              (S (S (S (S (S (S (S (S (S (S (S (S (S (S (S (S
+                              (S (S (S (S (S (S (S (S (S (S (S (S
+                              O))))))))))))))))))))))))))))))))))))))))))))))))))))))))))))))))))))))))))))))))))))))))))))))))))))))))))))))))))))))))))))
+                            (match ev with
+                             | Some _ ->
+                               Some
+                                 (t (S (S (S (S (S (S (S (S (S (S (S (S (S (S
+                                   (S (S (S (S (S (S (S (S (S (S (S (S (S (S
+                                   (S (S (S (S (S (S (S (S (S (S (S (S (S (S
+                                   (S (S (S (S (S (S (S (S (S (S (S (S (S (S
+                                   (S (S (S (S (S (S (S (S (S (S (S (S (S (S
+                                   (S (S (S (S (S (S (S (S (S (S (S (S (S (S
+                                   (S (S (S (S (S (S (S (S (S (S (S (S (S (S
+                                   (S (S (S (S (S (S (S (S (S (S (S (S (S (S
+                                   (S (S (S (S (S (S (S (S (S (S (S (S
+                                   O)))))))))))))))))))))))))))))))))))))))))))))))))))))))))))))))))))))))))))))))))))))))))))))))))))))))))))))))))))))))))))))
+                             | None -> None))
+                          (archive_add_single_core
+                            (t (S (S (S (S (S (S (S (S (S (S (S (S (S (S (S
+                              (S (S (S (S (S (S (S (S (S (S (S (S (S (S (S (S
+                              (S (S (S (S (S (S (S (S (S (S (S (S (S (S (S (S
+                              (S (S (S (S (S (S (S (S (S (S (S (S (S (S (S (S
+                              (S (S (S (S (S (S (S (S (S (S (S (S (S (S (S (S
+                              (S (S (S (S (S (S (S (S (S (S (S (S (S (S (S (S
+                              (S (S (S (S (S (S (S (S (S (S (S (S (S (S (S (S
+                              (S (S (S (S (S (S (S (S (S (S
+                              O))))))))))))))))))))))))))))))))))))))))))))))))))))))))))))))))))))))))))))))))))))))))))))))))))))))))))))))))))))))))))
+                            (t (S (S (S (S (S (S (S (S (S (S (S (S (S (S (S
+                              (S (S (S (S (S (S (S (S (S (S (S (S (S (S (S (S
+                              (S (S (S (S (S (S (S (S (S (S (S (S (S (S (S (S
+                              (S (S (S (S (S (S (S (S (S (S (S (S (S (S (S (S
+                              (S (S (S (S (S (S (S (S (S (S (S (S (S (S (S (S
+                              (S (S (S (S (S (S (S (S (S (S (S (S (S (S (S (S
+                              (S (S (S (S (S (S (S (S (S (S (S (S (S (S (S (S
+                              (S (S (S (S (S (S (S (S (S (S (S
+                              O)))))))))))))))))))))))))))))))))))))))))))))))))))))))))))))))))))))))))))))))))))))))))))))))))))))))))))))))))))))))))))
+                            (t (S (S (S (S (S (S (S (S (S (S (S (S (S (S (S
+                              (S (S (S (S (S (S (S (S (S (S (S (S (S (S (S (S
+                              (S (S (S (S (S (S (S (S (S (S (S (S (S (S (S (S
+                              (S (S (S (S (S (S (S (S (S (S (S (S (S (S (S (S
+                              (S (S (S (S (S (S (S (S (S (S (S (S (S (S (S (S
+                              (S (S (S (S (S (S (S (S (S (S (S (S (S (S (S (S
+                              (S (S (S (S (S (S (S (S (S (S (S (S (S (S (S (S
+                              (S (S (S (S (S (S (S (S (S (S (S (S
+                              O))))))))))))))))))))))))))))))))))))))))))))))))))))))))))))))))))))))))))))))))))))))))))))))))))))))))))))))))))))))))))))
+                            (match ev with
+                             | Some _ ->
+                               Some
+                                 (t (S (S (S (S (S (S (S (S (S (S (S (S (S (S
+                                   (S (S (S (S (S (S (S (S (S (S (S (S (S (S
+                                   (S (S (S (S (S (S (S (S (S (S (S (S (S (S
+                                   (S (S (S (S (S (S (S (S (S (S (S (S (S (S
+                                   (S (S (S (S (S (S (S (S (S (S (S (S (S (S
+                                   (S (S (S (S (S (S (S (S (S (S (S (S (S (S
+                                   (S (S (S (S (S (S (S (S (S (S (S (S (S (S
+                                   (S (S (S (S (S (S (S (S (S (S (S (S (S (S
+                                   (S (S (S (S (S (S (S (S (S (S (S (S
+                                   O)))))))))))))))))))))))))))))))))))))))))))))))))))))))))))))))))))))))))))))))))))))))))))))))))))))))))))))))))))))))))))))
+                             | None -> None) true))))
+                | S _ ->
+                  archive_add_core sol obj meas ev (S (S (S (S (S (S (S (S (S
+                    (S (S (S (S (S (S (S O)))))))))))))))) true)))
+
+(** val sched_emitter_slices : var -> var -> var option -> instr list **)
+
+let sched_emitter_slices obj meas ev =
+  app ((IGetSelf
+    ((t (S (S (S (S (S (S (S (S (S (S (S (S (S (S (S (S (S (S (S (S (S (S (S
+       (S (S (S (S (S (S (S (S (S (S (S (S (S (S (S (S (S (S (S (S (S (S (S
+       (S (S (S (S (S (S (S (S (S (S (S (S (S (S (S (S (S (S (S (S (S (S (S
+       (S (S (S (S (S (S (S (S (S (S (S (S (S (S (S (S (S (S (S (S (S (S (S
+       (S (S (S (S (S (S (S (S (S (S (S (S (S (S (S (S (S (S (S (S (S (S (S
+       (S (S (S (S (S (S (S (S (S (S (S (S (S (S (S
+       O))))))))))))))))))))))))))))))))))))))))))))))))))))))))))))))))))))))))))))))))))))))))))))))))))))))))))))))))))))))))))))))))))),
+    f_i4)) :: ((IView
+    ((t (S (S (S (S (S (S (S (S (S (S (S (S (S (S (S (S (S (S (S (S (S (S (S
+       (S (S (S (S (S (S (S (S (S (S (S (S (S (S (S (S (S (S (S (S (S (S (S
+       (S (S (S (S (S (S (S (S (S (S (S (S (S (S (S (S (S (S (S (S (S (S (S
+       (S (S (S (S (S (S (S (S (S (S (S (S (S (S (S (S (S (S (S (S (S (S (S
+       (S (S (S (S (S (S (S (S (S (S (S (S (S (S (S (S (S (S (S (S (S (S (S
+       (S (S (S (S (S (S (S (S (S (S (S (S (S (S (S
+       O))))))))))))))))))))))))))))))))))))))))))))))))))))))))))))))))))))))))))))))))))))))))))))))))))))))))))))))))))))))))))))))))))),
+    (t (S (S (S (S (S (S (S (S (S (S (S (S (S (S (S (S (S (S (S (S (S (S (S
+      (S (S (S (S (S (S (S (S (S (S (S (S (S (S (S (S (S (S (S (S (S (S (S (S
+      (S (S (S (S (S (S (S (S (S (S (S (S (S (S (S (S (S (S (S (S (S (S (S (S
+      (S (S (S (S (S (S (S (S (S (S (S (S (S (S (S (S (S (S (S (S (S (S (S (S
+      (S (S (S (S (S (S (S (S (S (S (S (S (S (S (S (S (S (S (S (S (S (S (S (S
+      (S (S (S (S (S (S (S (S (S (S (S
+      O))))))))))))))))))))))))))))))))))))))))))))))))))))))))))))))))))))))))))))))))))))))))))))))))))))))))))))))))))))))))))))))))))),
+    true)) :: ((IView
+    ((t (S (S (S (S (S (S (S (S (S (S (S (S (S (S (S (S (S (S (S (S (S (S (S
+       (S (S (S (S (S (S (S (S (S (S (S (S (S (S (S (S (S (S (S (S (S (S (S
+       (S (S (S (S (S (S (S (S (S (S (S (S (S (S (S (S (S (S (S (S (S (S (S
+       (S (S (S (S (S (S (S (S (S (S (S (S (S (S (S (S (S (S (S (S (S (S (S
+       (S (S (S (S (S (S (S (S (S (S (S (S (S (S (S (S (S (S (S (S (S (S (S
+       (S (S (S (S (S (S (S (S (S (S (S (S (S (S (S (S
+       O)))))))))))))))))))))))))))))))))))))))))))))))))))))))))))))))))))))))))))))))))))))))))))))))))))))))))))))))))))))))))))))))))))),
+    obj, true)) :: ((IView
+    ((t (S (S (S (S (S (S (S (S (S (S (S (S (S (S (S (S (S (S (S (S (S (S (S
+       (S (S (S (S (S (S (S (S (S (S (S (S (S (S (S (S (S (S (S (S (S (S (S
+       (S (S (S (S (S (S (S (S (S (S (S (S (S (S (S (S (S (S (S (S (S (S (S
+       (S (S (S (S (S (S (S (S (S (S (S (S (S (S (S (S (S (S (S (S (S (S (S
+       (S (S (S (S (S (S (S (S (S (S (S (S (S (S (S (S (S (S (S (S (S (S (S
+       (S (S (S (S (S (S (S (S (S (S (S (S (S (S (S (S (S
+       O))))))))))))))))))))))))))))))))))))))))))))))))))))))))))))))))))))))))))))))))))))))))))))))))))))))))))))))))))))))))))))))))))))),
+    meas, true)) :: []))))
+    (app
+      (match ev with
+       | Some e ->
+         (IView
+           ((t (S (S (S (S (S (S (S (S (S (S (S (S (S (S (S (S (S (S (S (S (S
+              (S (S (S (S (S (S (S (S (S (S (S (S (S (S (S (S (S (S (S (S (S
+              (S (S (S (S (S (S (S (S (S (S (S (S (S (S (S (S (S (S (S (S (S
+              (S (S (S (S (S (S (S (S (S (S (S (S (S (S (S (S (S (S (S (S (S
+              (S (S (S (S (S (S (S (S (S (S (S (S (S (S (S (S (S (S (S (S (S
+              (S (S (S (S (S (S (S (S (S (S (S (S (S (S (S (S (S (S (S (S (S
+              (S (S (S (S (S (S (S
+              O)))))))))))))))))))))))))))))))))))))))))))))))))))))))))))))))))))))))))))))))))))))))))))))))))))))))))))))))))))))))))))))))))))))),
+           e, true)) :: []
+       | None -> []) ((IOp
+      ((t (S (S (S (S (S (S (S (S (S (S (S (S (S (S (S (S (S (S (S (S (S (S
+         (S (S (S (S (S (S (S (S (S (S (S (S (S (S (S (S (S (S (S (S (S (S (S
+         (S (S (S (S (S (S (S (S (S (S (S (S (S (S (S (S (S (S (S (S (S (S (S
+         (S (S (S (S (S (S (S (S (S (S (S (S (S (S (S (S (S (S (S (S (S (S (S
+         (S (S (S (S (S (S (S (S (S (S (S (S (S (S (S (S (S (S (S (S (S (S (S
+         (S (S (S (S (S (S (S (S (S (S (S (S (S (S (S (S (S (S (S (S
+         O))))))))))))))))))))))))))))))))))))))))))))))))))))))))))))))))))))))))))))))))))))))))))))))))))))))))))))))))))))))))))))))))))))))),
+      [], (S (S (S (S (S (S O)))))))) :: ((IView
+      ((t (S (S (S (S (S (S (S (S (S (S (S (S (S (S (S (S (S (S (S (S (S (S
+         (S (S (S (S (S (S (S (S (S (S (S (S (S (S (S (S (S (S (S (S (S (S (S
+         (S (S (S (S (S (S (S (S (S (S (S (S (S (S (S (S (S (S (S (S (S (S (S
+         (S (S (S (S (S (S (S (S (S (S (S (S (S (S (S (S (S (S (S (S (S (S (S
+         (S (S (S (S (S (S (S (S (S (S (S (S (S (S (S (S (S (S (S (S (S (S (S
+         (S (S (S (S (S (S (S (S (S (S (S (S (S (S (S (S (S (S (S (S
+         O))))))))))))))))))))))))))))))))))))))))))))))))))))))))))))))))))))))))))))))))))))))))))))))))))))))))))))))))))))))))))))))))))))))),
+      (t (S (S (S (S (S (S (S (S (S (S (S (S (S (S (S (S (S (S (S (S (S (S (S
+        (S (S (S (S (S (S (S (S (S (S (S (S (S (S (S (S (S (S (S (S (S (S (S
+        (S (S (S (S (S (S (S (S (S (S (S (S (S (S (S (S (S (S (S (S (S (S (S
+        (S (S (S (S (S (S (S (S (S (S (S (S (S (S (S (S (S (S (S (S (S (S (S
+        (S (S (S (S (S (S (S (S (S (S (S (S (S (S (S (S (S (S (S (S (S (S (S
+        (S (S (S (S (S (S (S (S (S (S (S (S (S (S (S (S (S (S (S
+        O))))))))))))))))))))))))))))))))))))))))))))))))))))))))))))))))))))))))))))))))))))))))))))))))))))))))))))))))))))))))))))))))))))))),
+      true)) :: ((IOp
+      ((t (S (S (S (S (S (S (S (S (S (S (S (S (S (S (S (S (S (S (S (S (S (S
+         (S (S (S (S (S (S (S (S (S (S (S (S (S (S (S (S (S (S (S (S (S (S (S
+         (S (S (S (S (S (S (S (S (S (S (S (S (S (S (S (S (S (S (S (S (S (S (S
+         (S (S (S (S (S (S (S (S (S (S (S (S (S (S (S (S (S (S (S (S (S (S (S
+         (S (S (S (S (S (S (S (S (S (S (S (S (S (S (S (S (S (S (S (S (S (S (S
+         (S (S (S (S (S (S (S (S (S (S (S (S (S (S (S (S (S (S (S (S (S
+         O)))))))))))))))))))))))))))))))))))))))))))))))))))))))))))))))))))))))))))))))))))))))))))))))))))))))))))))))))))))))))))))))))))))))),
+      [], (S (S (S (S (S (S (S (S (S O))))))))))) :: ((IView
+      ((t (S (S (S (S (S (S (S (S (S (S (S (S (S (S (S (S (S (S (S (S (S (S
+         (S (S (S (S (S (S (S (S (S (S (S (S (S (S (S (S (S (S (S (S (S (S (S
+         (S (S (S (S (S (S (S (S (S (S (S (S (S (S (S (S (S (S (S (S (S (S (S
+         (S (S (S (S (S (S (S (S (S (S (S (S (S (S (S (S (S (S (S (S (S (S (S
+         (S (S (S (S (S (S (S (S (S (S (S (S (S (S (S (S (S (S (S (S (S (S (S
+         (S (S (S (S (S (S (S (S (S (S (S (S (S (S (S (S (S (S (S (S (S
+         O)))))))))))))))))))))))))))))))))))))))))))))))))))))))))))))))))))))))))))))))))))))))))))))))))))))))))))))))))))))))))))))))))))))))),
+      (t (S (S (S (S (S (S (S (S (S (S (S (S (S (S (S (S (S (S (S (S (S (S (S
+        (S (S (S (S (S (S (S (S (S (S (S (S (S (S (S (S (S (S (S (S (S (S (S
+        (S (S (S (S (S (S (S (S (S (S (S (S (S (S (S (S (S (S (S (S (S (S (S
+        (S (S (S (S (S (S (S (S (S (S (S (S (S (S (S (S (S (S (S (S (S (S (S
+        (S (S (S (S (S (S (S (S (S (S (S (S (S (S (S (S (S (S (S (S (S (S (S
+        (S (S (S (S (S (S (S (S (S (S (S (S (S (S (S (S (S (S (S (S
+        O)))))))))))))))))))))))))))))))))))))))))))))))))))))))))))))))))))))))))))))))))))))))))))))))))))))))))))))))))))))))))))))))))))))))),
+      true)) :: [])))))
+
+(** val prog_gen : bool -> ep -> nat -> nat -> instr list **)
+
+let prog_gen copy e variant nargs =
+  let he = has_extra_arg e nargs in
+  (match e with
+   | StoreAdd ->
+     app
+       (if Nat.eqb variant (S O)
+        then flat_map (fun _ ->
+               app
+                 (store_retrieve O (S (S (S (S (S (S (S (S (S (S O))))))))))
+                   false) ((IExpose O) :: ((IExpose (S O)) :: ((IExpose (S (S
+                 O))) :: ((IExpose (S (S (S O)))) :: ((IExpose
+                 (t (S (S (S (S (S (S (S (S (S (S (S O))))))))))))) :: ((IExpose
+                 (t
+                   (add (S (S (S (S (S (S (S (S (S (S (S (S O))))))))))))
+                     f_solution))) :: ((IExpose
+                 (t
+                   (add (S (S (S (S (S (S (S (S (S (S (S (S O))))))))))))
+                     f_objective))) :: ((IExpose
+                 (t
+                   (add (S (S (S (S (S (S (S (S (S (S (S (S O))))))))))))
+                     f_measures))) :: ((IExpose
+                 (t (S (S (S (S (S (S (S (S (S (S (S (S (S (S (S (S (S
+                   O))))))))))))))))))) :: [])))))))))) (O :: ((S O) :: []))
+        else [])
+       (store_write O ((f_objective, (S O)) :: ((f_measures, (S (S
+         O))) :: ((f_solution, (S (S (S O)))) :: []))))
+   | StoreRetrieve ->
+     app (store_retrieve O (S (S (S (S (S (S (S (S (S (S O)))))))))) false)
+       (app ((IReturn
+         (t (S (S (S (S (S (S (S (S (S (S (S O))))))))))))) :: [])
+         (match variant with
+          | O ->
+            (IReturn
+              (t
+                (add (S (S (S (S (S (S (S (S (S (S (S (S O))))))))))))
+                  f_solution))) :: ((IReturn
+              (t
+                (add (S (S (S (S (S (S (S (S (S (S (S (S O))))))))))))
+                  f_objective))) :: ((IReturn
+              (t
+                (add (S (S (S (S (S (S (S (S (S (S (S (S O))))))))))))
+                  f_measures))) :: ((IReturn
+              (t (S (S (S (S (S (S (S (S (S (S (S (S (S (S (S (S (S
+                O))))))))))))))))))) :: [])))
+          | S n ->
+            (match n with
+             | O ->
+               (IReturn
+                 (t
+                   (add (S (S (S (S (S (S (S (S (S (S (S (S O))))))))))))
+                     f_solution))) :: ((IReturn
+                 (t
+                   (add (S (S (S (S (S (S (S (S (S (S (S (S O))))))))))))
+                     f_objective))) :: ((IReturn
+                 (t
+                   (add (S (S (S (S (S (S (S (S (S (S (S (S O))))))))))))
+                     f_measures))) :: ((IReturn
+                 (t (S (S (S (S (S (S (S (S (S (S (S (S (S (S (S (S (S
+                   O))))))))))))))))))) :: [])))
+             | S n0 ->
+               (match n0 with
+                | O ->
+                  (IView
+                    ((t (S (S (S (S (S (S (S (S (S (S (S (S (S (S (S (S (S (S
+                       (S (S (S (S (S (S (S (S (S (S (S (S
+                       O))))))))))))))))))))))))))))))),
+                    (t
+                      (add (S (S (S (S (S (S (S (S (S (S (S (S O))))))))))))
+                        f_solution)), false)) :: ((IView
+                    ((t (S (S (S (S (S (S (S (S (S (S (S (S (S (S (S (S (S (S
+                       (S (S (S (S (S (S (S (S (S (S (S (S (S
+                       O)))))))))))))))))))))))))))))))),
+                    (t
+                      (add (S (S (S (S (S (S (S (S (S (S (S (S O))))))))))))
+                        f_measures)), false)) :: ((IReturn
+                    (t (S (S (S (S (S (S (S (S (S (S (S (S (S (S (S (S (S (S
+                      (S (S (S (S (S (S (S (S (S (S (S (S
+                      O)))))))))))))))))))))))))))))))) :: ((IReturn
+                    (t (S (S (S (S (S (S (S (S (S (S (S (S (S (S (S (S (S (S
+                      (S (S (S (S (S (S (S (S (S (S (S (S (S
+                      O))))))))))))))))))))))))))))))))) :: ((IReturn
+                    (t
+                      (add (S (S (S (S (S (S (S (S (S (S (S (S O))))))))))))
+                        f_objective))) :: ((IReturn
+                    (t (S (S (S (S (S (S (S (S (S (S (S (S (S (S (S (S (S
+                      O))))))))))))))))))) :: [])))))
+                | S n1 ->
+                  (match n1 with
+                   | O ->
+                     (IReturn
+                       (t
+                         (add (S (S (S (S (S (S (S (S (S (S (S (S
+                           O)))))))))))) f_solution))) :: []
+                   | S _ ->
+                     (IReturn
+                       (t
+                         (add (S (S (S (S (S (S (S (S (S (S (S (S
+                           O)))))))))))) f_solution))) :: ((IReturn
+                       (t
+                         (add (S (S (S (S (S (S (S (S (S (S (S (S
+                           O)))))))))))) f_objective))) :: ((IReturn
+                       (t
+                         (add (S (S (S (S (S (S (S (S (S (S (S (S
+                           O)))))))))))) f_measures))) :: ((IReturn
+                       (t (S (S (S (S (S (S (S (S (S (S (S (S (S (S (S (S (S
+                         O))))))))))))))))))) :: []))))))))
+   | StoreData ->
+     app ((IGetSelf ((t (S O)), f_olist)) :: ((IView ((t (S O)), (t (S O)),
+       true)) :: ((IReadonly ((t (S O)), (t (S O)))) :: [])))
+       (app
+         (store_retrieve (t (S O)) (S (S (S (S (S (S (S (S (S (S O))))))))))
+           true)
+         (match variant with
+          | O ->
+            (IReturn
+              (t
+                (add (S (S (S (S (S (S (S (S (S (S (S (S O))))))))))))
+                  f_solution))) :: ((IReturn
+              (t
+                (add (S (S (S (S (S (S (S (S (S (S (S (S O))))))))))))
+                  f_objective))) :: ((IReturn
+              (t
+                (add (S (S (S (S (S (S (S (S (S (S (S (S O))))))))))))
+                  f_measures))) :: ((IReturn
+              (t
+                (add (S (S (S (S (S (S (S (S (S (S (S (S O))))))))))))
+                  f_threshold))) :: ((IReturn
+              (t
+                (add (S (S (S (S (S (S (S (S (S (S (S (S O))))))))))))
+                  f_extra))) :: ((IReturn
+              (t (S (S (S (S (S (S (S (S (S (S (S (S (S (S (S (S (S
+                O))))))))))))))))))) :: [])))))
+          | S n ->
+            (match n with
+             | O ->
+               (IReturn
+                 (t
+                   (add (S (S (S (S (S (S (S (S (S (S (S (S O))))))))))))
+                     f_solution))) :: ((IReturn
+                 (t
+                   (add (S (S (S (S (S (S (S (S (S (S (S (S O))))))))))))
+                     f_objective))) :: ((IReturn
+                 (t
+                   (add (S (S (S (S (S (S (S (S (S (S (S (S O))))))))))))
+                     f_measures))) :: ((IReturn
+                 (t
+                   (add (S (S (S (S (S (S (S (S (S (S (S (S O))))))))))))
+                     f_threshold))) :: ((IReturn
+                 (t
+                   (add (S (S (S (S (S (S (S (S (S (S (S (S O))))))))))))
+                     f_extra))) :: ((IReturn
+                 (t (S (S (S (S (S (S (S (S (S (S (S (S (S (S (S (S (S
+                   O))))))))))))))))))) :: [])))))
+             | S n0 ->
+               (match n0 with
+                | O ->
+                  (IView
+                    ((t (S (S (S (S (S (S (S (S (S (S (S (S (S (S (S (S (S (S
+                       (S (S (S (S (S (S (S (S (S (S (S (S
+                       O))))))))))))))))))))))))))))))),
+                    (t
+                      (add (S (S (S (S (S (S (S (S (S (S (S (S O))))))))))))
+                        f_solution)), false)) :: ((IView
+                    ((t (S (S (S (S (S (S (S (S (S (S (S (S (S (S (S (S (S (S
+                       (S (S (S (S (S (S (S (S (S (S (S (S (S
+                       O)))))))))))))))))))))))))))))))),
+                    (t
+                      (add (S (S (S (S (S (S (S (S (S (S (S (S O))))))))))))
+                        f_measures)), false)) :: ((IReturn
+                    (t (S (S (S (S (S (S (S (S (S (S (S (S (S (S (S (S (S (S
+                      (S (S (S (S (S (S (S (S (S (S (S (S
+                      O)))))))))))))))))))))))))))))))) :: ((IReturn
+                    (t (S (S (S (S (S (S (S (S (S (S (S (S (S (S (S (S (S (S
+                      (S (S (S (S (S (S (S (S (S (S (S (S (S
+                      O))))))))))))))))))))))))))))))))) :: ((IReturn
+                    (t
+                      (add (S (S (S (S (S (S (S (S (S (S (S (S O))))))))))))
+                        f_objective))) :: ((IReturn
+                    (t (S (S (S (S (S (S (S (S (S (S (S (S (S (S (S (S (S
+                      O))))))))))))))))))) :: ((ICopy
+                    ((t (S (S (S (S (S (S (S (S (S (S (S (S (S (S (S (S (S (S
+                       (S (S (S (S (S (S (S (S (S (S (S (S (S (S
+                       O))))))))))))))))))))))))))))))))),
+                    (t (S (S (S (S (S (S (S (S (S (S (S (S (S (S (S (S (S (S
+                      (S (S (S (S (S (S (S (S (S (S (S (S
+                      O))))))))))))))))))))))))))))))))) :: ((IReturn
+                    (t (S (S (S (S (S (S (S (S (S (S (S (S (S (S (S (S (S (S
+                      (S (S (S (S (S (S (S (S (S (S (S (S (S (S
+                      O)))))))))))))))))))))))))))))))))) :: [])))))))
+                | S n1 ->
+                  (match n1 with
+                   | O ->
+                     (IReturn
+                       (t
+                         (add (S (S (S (S (S (S (S (S (S (S (S (S
+                           O)))))))))))) f_solution))) :: []
+                   | S _ ->
+                     (IReturn
+                       (t
+                         (add (S (S (S (S (S (S (S (S (S (S (S (S
+                           O)))))))))))) f_solution))) :: ((IReturn
+                       (t
+                         (add (S (S (S (S (S (S (S (S (S (S (S (S
+                           O)))))))))))) f_objective))) :: ((IReturn
+                       (t
+                         (add (S (S (S (S (S (S (S (S (S (S (S (S
+                           O)))))))))))) f_measures))) :: ((IReturn
+                       (t
+                         (add (S (S (S (S (S (S (S (S (S (S (S (S
+                           O)))))))))))) f_threshold))) :: ((IReturn
+                       (t
+                         (add (S (S (S (S (S (S (S (S (S (S (S (S
+                           O)))))))))))) f_extra))) :: ((IReturn
+                       (t (S (S (S (S (S (S (S (S (S (S (S (S (S (S (S (S (S
+                         O))))))))))))))))))) :: []))))))))))
+   | StoreIter ->
+     app ((IGetSelf ((t (S O)), f_olist)) :: ((ICopy ((t (S (S O))),
+       (t (S O)))) :: ((IGetSelf ((t (S (S (S O)))),
+       f_solution)) :: ((IGetSelf ((t (S (S (S (S O))))),
+       f_objective)) :: ((IGetSelf ((t (S (S (S (S (S O)))))),
+       f_measures)) :: ((IGetSelf ((t (S (S (S (S (S (S O))))))),
+       f_extra)) :: []))))))
+       (app
+         (if copy
+          then (ICopy ((t (S (S (S O)))), (t (S (S (S O)))))) :: ((ICopy
+                 ((t (S (S (S (S (S O)))))),
+                 (t (S (S (S (S (S O)))))))) :: ((ICopy
+                 ((t (S (S (S (S (S (S O))))))),
+                 (t (S (S (S (S (S (S O))))))))) :: []))
+          else (IView ((t (S (S (S O)))), (t (S (S (S O)))),
+                 true)) :: ((IView ((t (S (S (S (S (S O)))))),
+                 (t (S (S (S (S (S O)))))), true)) :: ((IView
+                 ((t (S (S (S (S (S (S O))))))),
+                 (t (S (S (S (S (S (S O))))))), true)) :: []))) ((ICopy
+         ((t (S (S (S (S O))))), (t (S (S (S (S O))))))) :: ((IReturn
+         (t (S (S O)))) :: ((IReturn (t (S (S (S O))))) :: ((IReturn
+         (t (S (S (S (S O)))))) :: ((IReturn
+         (t (S (S (S (S (S O))))))) :: ((IReturn
+         (t (S (S (S (S (S (S O)))))))) :: [])))))))
+   | StoreRaw ->
+     flat_map (fun fl -> (IGetSelf ((t fl), fl)) :: ((IView ((t fl), 
+       (t fl), true)) :: ((IReadonly ((t fl), (t fl))) :: ((IReturn
+       (t fl)) :: []))))
+       (f_solution :: (f_objective :: (f_measures :: (f_occupied :: (f_olist :: [])))))
+   | StoreOccupied ->
+     (IGetSelf ((t (S O)), f_occupied)) :: ((IView ((t (S O)), (t (S O)),
+       true)) :: ((IReadonly ((t (S O)), (t (S O)))) :: ((IReturn
+       (t (S O))) :: ((IGetSelf ((t (S (S O))), f_olist)) :: ((IView
+       ((t (S (S O))), (t (S (S O))), true)) :: ((IReadonly ((t (S (S O))),
+       (t (S (S O))))) :: ((IReturn (t (S (S O)))) :: [])))))))
+   | StoreFromRaw ->
+     app
+       (if copy
+        then (ICopy ((t (S O)), O)) :: ((ICopy ((t (S (S O))), (S O))) :: [])
+        else (IMove ((t (S O)), O)) :: ((IMove ((t (S (S O))), (S O))) :: []))
+       ((ISetSelf (f_new0, (t (S O)))) :: ((ISetSelf (f_new1,
+       (t (S (S O))))) :: []))
+   | ArchiveAdd ->
+     app
+       (validate_batch
+         (app (O :: ((S O) :: ((S (S O)) :: [])))
+           (if he then (S (S (S O))) :: [] else [])))
+       (archive_add_core O (S O) (S (S O)) (opt_ev e nargs (S (S (S O)))) (S
+         (S (S (S (S (S (S (S (S (S (S (S (S (S (S (S O))))))))))))))))
+         (Nat.eqb variant O))
+   | ArchiveAddSingle ->
+     app (validate_single O (S O) (S (S O)))
+       (archive_add_single_core O (S O) (S (S O))
+         (opt_ev e nargs (S (S (S O)))) (Nat.eqb variant O))
+   | SlidingAdd ->
+     app
+       (validate_batch
+         (app (O :: ((S O) :: ((S (S O)) :: [])))
+           (if he then (S (S (S O))) :: [] else [])))
+       (app ((IView
+         ((t (S (S (S (S (S (S (S (S (S (S (S (S (S (S (S (S (S (S (S (S (S
+            (S (S (S (S (S (S (S (S (S (S (S (S (S (S (S (S (S (S (S (S (S (S
+            (S (S (S (S (S (S (S (S (S (S (S (S (S (S (S (S (S (S (S (S (S (S
+            (S (S (S (S (S (S (S (S (S (S (S (S (S (S (S (S (S (S (S (S (S (S
+            (S (S (S (S (S (S (S (S (S (S (S (S (S (S (S (S (S (S (S (S (S (S
+            (S (S (S (S (S (S (S (S (S (S (S (S
+            O)))))))))))))))))))))))))))))))))))))))))))))))))))))))))))))))))))))))))))))))))))))))))))))))))))))))))))))))))))))))))),
+         O, true)) :: ((ICopy
+         ((t (S (S (S (S (S (S (S (S (S (S (S (S (S (S (S (S (S (S (S (S (S
+            (S (S (S (S (S (S (S (S (S (S (S (S (S (S (S (S (S (S (S (S (S (S
+            (S (S (S (S (S (S (S (S (S (S (S (S (S (S (S (S (S (S (S (S (S (S
+            (S (S (S (S (S (S (S (S (S (S (S (S (S (S (S (S (S (S (S (S (S (S
+            (S (S (S (S (S (S (S (S (S (S (S (S (S (S (S (S (S (S (S (S (S (S
+            (S (S (S (S (S (S (S (S (S (S (S (S (S
+            O))))))))))))))))))))))))))))))))))))))))))))))))))))))))))))))))))))))))))))))))))))))))))))))))))))))))))))))))))))))))))),
+         (S O))) :: ((IView
+         ((t (S (S (S (S (S (S (S (S (S (S (S (S (S (S (S (S (S (S (S (S (S
+            (S (S (S (S (S (S (S (S (S (S (S (S (S (S (S (S (S (S (S (S (S (S
+            (S (S (S (S (S (S (S (S (S (S (S (S (S (S (S (S (S (S (S (S (S (S
+            (S (S (S (S (S (S (S (S (S (S (S (S (S (S (S (S (S (S (S (S (S (S
+            (S (S (S (S (S (S (S (S (S (S (S (S (S (S (S (S (S (S (S (S (S (S
+            (S (S (S (S (S (S (S (S (S (S (S (S (S (S
+            O)))))))))))))))))))))))))))))))))))))))))))))))))))))))))))))))))))))))))))))))))))))))))))))))))))))))))))))))))))))))))))),
+         (S (S O)), true)) :: [])))
+         (app
+           (if he
+            then (IView
+                   ((t (S (S (S (S (S (S (S (S (S (S (S (S (S (S (S (S (S (S
+                      (S (S (S (S (S (S (S (S (S (S (S (S (S (S (S (S (S (S
+                      (S (S (S (S (S (S (S (S (S (S (S (S (S (S (S (S (S (S
+                      (S (S (S (S (S (S (S (S (S (S (S (S (S (S (S (S (S (S
+                      (S (S (S (S (S (S (S (S (S (S (S (S (S (S (S (S (S (S
+                      (S (S (S (S (S (S (S (S (S (S (S (S (S (S (S (S (S (S
+                      (S (S (S (S (S (S (S (S (S (S (S (S (S (S (S (S
+                      O))))))))))))))))))))))))))))))))))))))))))))))))))))))))))))))))))))))))))))))))))))))))))))))))))))))))))))))))))))))))))))),
+                   (S (S (S O))), true)) :: []
+            else [])
+           (app
+             (validate_single
+               (t (S (S (S (S (S (S (S (S (S (S (S (S (S (S (S (S (S (S (S (S
+                 (S (S (S (S (S (S (S (S (S (S (S (S (S (S (S (S (S (S (S (S
+                 (S (S (S (S (S (S (S (S (S (S (S (S (S (S (S (S (S (S (S (S
+                 (S (S (S (S (S (S (S (S (S (S (S (S (S (S (S (S (S (S (S (S
+                 (S (S (S (S (S (S (S (S (S (S (S (S (S (S (S (S (S (S (S (S
+                 (S (S (S (S (S (S (S (S (S (S (S (S (S (S (S (S (S (S (S (S
+                 (S
+                 O))))))))))))))))))))))))))))))))))))))))))))))))))))))))))))))))))))))))))))))))))))))))))))))))))))))))))))))))))))))))))
+               (t (S (S (S (S (S (S (S (S (S (S (S (S (S (S (S (S (S (S (S (S
+                 (S (S (S (S (S (S (S (S (S (S (S (S (S (S (S (S (S (S (S (S
+                 (S (S (S (S (S (S (S (S (S (S (S (S (S (S (S (S (S (S (S (S
+                 (S (S (S (S (S (S (S (S (S (S (S (S (S (S (S (S (S (S (S (S
+                 (S (S (S (S (S (S (S (S (S (S (S (S (S (S (S (S (S (S (S (S
+                 (S (S (S (S (S (S (S (S (S (S (S (S (S (S (S (S (S (S (S (S
+                 (S (S
+                 O)))))))))))))))))))))))))))))))))))))))))))))))))))))))))))))))))))))))))))))))))))))))))))))))))))))))))))))))))))))))))))
+               (t (S (S (S (S (S (S (S (S (S (S (S (S (S (S (S (S (S (S (S (S
+                 (S (S (S (S (S (S (S (S (S (S (S (S (S (S (S (S (S (S (S (S
+                 (S (S (S (S (S (S (S (S (S (S (S (S (S (S (S (S (S (S (S (S
+                 (S (S (S (S (S (S (S (S (S (S (S (S (S (S (S (S (S (S (S (S
+                 (S (S (S (S (S (S (S (S (S (S (S (S (S (S (S (S (S (S (S (S
+                 (S (S (S (S (S (S (S (S (S (S (S (S (S (S (S (S (S (S (S (S
+                 (S (S (S
+                 O)))))))))))))))))))))))))))))))))))))))))))))))))))))))))))))))))))))))))))))))))))))))))))))))))))))))))))))))))))))))))))))
+             (app
+               (sliding_buffer_entry copy
+                 (t (S (S (S (S (S (S (S (S (S (S (S (S (S (S (S (S (S (S (S
+                   (S (S (S (S (S (S (S (S (S (S (S (S (S (S (S (S (S (S (S
+                   (S (S (S (S (S (S (S (S (S (S (S (S (S (S (S (S (S (S (S
+                   (S (S (S (S (S (S (S (S (S (S (S (S (S (S (S (S (S (S (S
+                   (S (S (S (S (S (S (S (S (S (S (S (S (S (S (S (S (S (S (S
+                   (S (S (S (S (S (S (S (S (S (S (S (S (S (S (S (S (S (S (S
+                   (S (S (S (S (S (S (S
+                   O))))))))))))))))))))))))))))))))))))))))))))))))))))))))))))))))))))))))))))))))))))))))))))))))))))))))))))))))))))))))))
+                 (t (S (S (S (S (S (S (S (S (S (S (S (S (S (S (S (S (S (S (S
+                   (S (S (S (S (S (S (S (S (S (S (S (S (S (S (S (S (S (S (S
+                   (S (S (S (S (S (S (S (S (S (S (S (S (S (S (S (S (S (S (S
+                   (S (S (S (S (S (S (S (S (S (S (S (S (S (S (S (S (S (S (S
+                   (S (S (S (S (S (S (S (S (S (S (S (S (S (S (S (S (S (S (S
+                   (S (S (S (S (S (S (S (S (S (S (S (S (S (S (S (S (S (S (S
+                   (S (S (S (S (S (S (S (S
+                   O)))))))))))))))))))))))))))))))))))))))))))))))))))))))))))))))))))))))))))))))))))))))))))))))))))))))))))))))))))))))))))
+                 (t (S (S (S (S (S (S (S (S (S (S (S (S (S (S (S (S (S (S (S
+                   (S (S (S (S (S (S (S (S (S (S (S (S (S (S (S (S (S (S (S
+                   (S (S (S (S (S (S (S (S (S (S (S (S (S (S (S (S (S (S (S
+                   (S (S (S (S (S (S (S (S (S (S (S (S (S (S (S (S (S (S (S
+                   (S (S (S (S (S (S (S (S (S (S (S (S (S (S (S (S (S (S (S
+                   (S (S (S (S (S (S (S (S (S (S (S (S (S (S (S (S (S (S (S
+                   (S (S (S (S (S (S (S (S (S
+                   O))))))))))))))))))))))))))))))))))))))))))))))))))))))))))))))))))))))))))))))))))))))))))))))))))))))))))))))))))))))))))))
+                 (if he
+                  then Some
+                         (t (S (S (S (S (S (S (S (S (S (S (S (S (S (S (S (S
+                           (S (S (S (S (S (S (S (S (S (S (S (S (S (S (S (S (S
+                           (S (S (S (S (S (S (S (S (S (S (S (S (S (S (S (S (S
+                           (S (S (S (S (S (S (S (S (S (S (S (S (S (S (S (S (S
+                           (S (S (S (S (S (S (S (S (S (S (S (S (S (S (S (S (S
+                           (S (S (S (S (S (S (S (S (S (S (S (S (S (S (S (S (S
+                           (S (S (S (S (S (S (S (S (S (S (S (S (S (S (S (S (S
+                           (S (S (S (S (S (S
+                           O)))))))))))))))))))))))))))))))))))))))))))))))))))))))))))))))))))))))))))))))))))))))))))))))))))))))))))))))))))))))))))))
+                  else None))
+               (app
+                 (archive_add_single_core
+                   (t (S (S (S (S (S (S (S (S (S (S (S (S (S (S (S (S (S (S
+                     (S (S (S (S (S (S (S (S (S (S (S (S (S (S (S (S (S (S (S
+                     (S (S (S (S (S (S (S (S (S (S (S (S (S (S (S (S (S (S (S
+                     (S (S (S (S (S (S (S (S (S (S (S (S (S (S (S (S (S (S (S
+                     (S (S (S (S (S (S (S (S (S (S (S (S (S (S (S (S (S (S (S
+                     (S (S (S (S (S (S (S (S (S (S (S (S (S (S (S (S (S (S (S
+                     (S (S (S (S (S (S (S (S
+                     O))))))))))))))))))))))))))))))))))))))))))))))))))))))))))))))))))))))))))))))))))))))))))))))))))))))))))))))))))))))))))
+                   (t (S (S (S (S (S (S (S (S (S (S (S (S (S (S (S (S (S (S
+                     (S (S (S (S (S (S (S (S (S (S (S (S (S (S (S (S (S (S (S
+                     (S (S (S (S (S (S (S (S (S (S (S (S (S (S (S (S (S (S (S
+                     (S (S (S (S (S (S (S (S (S (S (S (S (S (S (S (S (S (S (S
+                     (S (S (S (S (S (S (S (S (S (S (S (S (S (S (S (S (S (S (S
+                     (S (S (S (S (S (S (S (S (S (S (S (S (S (S (S (S (S (S (S
+                     (S (S (S (S (S (S (S (S (S
+                     O)))))))))))))))))))))))))))))))))))))))))))))))))))))))))))))))))))))))))))))))))))))))))))))))))))))))))))))))))))))))))))
+                   (t (S (S (S (S (S (S (S (S (S (S (S (S (S (S (S (S (S (S
+                     (S (S (S (S (S (S (S (S (S (S (S (S (S (S (S (S (S (S (S
+                     (S (S (S (S (S (S (S (S (S (S (S (S (S (S (S (S (S (S (S
+                     (S (S (S (S (S (S (S (S (S (S (S (S (S (S (S (S (S (S (S
+                     (S (S (S (S (S (S (S (S (S (S (S (S (S (S (S (S (S (S (S
+                     (S (S (S (S (S (S (S (S (S (S (S (S (S (S (S (S (S (S (S
+                     (S (S (S (S (S (S (S (S (S (S
+                     O))))))))))))))))))))))))))))))))))))))))))))))))))))))))))))))))))))))))))))))))))))))))))))))))))))))))))))))))))))))))))))
+                   (if he
+                    then Some
+                           (t (S (S (S (S (S (S (S (S (S (S (S (S (S (S (S (S
+                             (S (S (S (S (S (S (S (S (S (S (S (S (S (S (S (S
+                             (S (S (S (S (S (S (S (S (S (S (S (S (S (S (S (S
+                             (S (S (S (S (S (S (S (S (S (S (S (S (S (S (S (S
+                             (S (S (S (S (S (S (S (S (S (S (S (S (S (S (S (S
+                             (S (S (S (S (S (S (S (S (S (S (S (S (S (S (S (S
+                             (S (S (S (S (S (S (S (S (S (S (S (S (S (S (S (S
+                             (S (S (S (S (S (S (S (S (S (S (S (S
+                             O)))))))))))))))))))))))))))))))))))))))))))))))))))))))))))))))))))))))))))))))))))))))))))))))))))))))))))))))))))))))))))))
+                    else None) true) ((IOp
+                 ((t (S (S (S (S (S (S (S (S (S (S (S (S (S (S (S (S (S (S (S
+                    (S (S (S (S (S (S (S (S (S (S (S (S (S (S (S (S (S (S (S
+                    (S (S (S (S (S (S (S (S (S (S (S (S (S (S (S (S (S (S (S
+                    (S (S (S (S (S (S (S (S (S (S (S (S (S (S (S (S (S (S (S
+                    (S (S (S (S (S (S (S (S (S (S (S (S (S (S (S (S (S (S (S
+                    (S (S (S (S (S (S (S (S (S (S (S (S (S (S (S (S (S (S (S
+                    (S (S (S (S (S (S (S (S (S (S (S (S (S (S (S (S (S (S (S
+                    (S (S (S (S (S (S (S (S (S (S (S (S (S (S (S (S (S
+                    O))))))))))))))))))))))))))))))))))))))))))))))))))))))))))))))))))))))))))))))))))))))))))))))))))))))))))))))))))))))))))))))))))))))))))))))))))))))),
+                 ((t (S (S (S (S (S (S (S (S (S (S (S (S (S (S (S (S (S (S (S
+                    (S (S (S (S (S (S (S (S (S (S (S (S (S (S (S (S (S (S (S
+                    (S (S (S (S (S (S (S (S (S (S (S (S (S (S (S (S (S (S (S
+                    (S (S (S (S (S (S (S (S (S (S (S (S (S (S (S (S (S (S (S
+                    (S (S (S (S (S (S (S (S (S (S (S (S (S (S (S (S (S (S (S
+                    (S (S (S (S (S (S (S (S (S (S (S (S (S (S (S
+                    O))))))))))))))))))))))))))))))))))))))))))))))))))))))))))))))))))))))))))))))))))))))))))))))))))))))))))))))) :: []),
+                 (S (S (S (S (S (S (S (S (S (S (S (S (S (S (S (S (S (S (S (S
+                 (S (S (S (S (S (S (S (S (S (S (S (S (S (S (S (S (S (S (S (S
+                 (S (S (S (S (S (S (S (S (S (S (S (S
+                 O)))))))))))))))))))))))))))))))))))))))))))))))))))))) :: ((IOp
+                 ((t (S (S (S (S (S (S (S (S (S (S (S (S (S (S (S (S (S (S (S
+                    (S (S (S (S (S (S (S (S (S (S (S (S (S (S (S (S (S (S (S
+                    (S (S (S (S (S (S (S (S (S (S (S (S (S (S (S (S (S (S (S
+                    (S (S (S (S (S (S (S (S (S (S (S (S (S (S (S (S (S (S (S
+                    (S (S (S (S (S (S (S (S (S (S (S (S (S (S (S (S (S (S (S
+                    (S (S (S (S (S (S (S (S (S (S (S (S (S (S (S (S (S (S (S
+                    (S (S (S (S (S (S (S (S (S (S (S (S (S (S (S (S (S (S (S
+                    (S (S (S (S (S (S (S (S (S (S (S (S (S (S (S (S (S (S
+                    O)))))))))))))))))))))))))))))))))))))))))))))))))))))))))))))))))))))))))))))))))))))))))))))))))))))))))))))))))))))))))))))))))))))))))))))))))))))))),
+                 ((t (S (S (S (S (S (S (S (S (S (S (S (S (S (S (S (S (S (S (S
+                    (S (S (S (S (S (S (S (S (S (S (S (S (S (S (S (S (S (S (S
+                    (S (S (S (S (S (S (S (S (S (S (S (S (S (S (S (S (S (S (S
+                    (S (S (S (S (S (S (S (S (S (S (S (S (S (S (S (S (S (S (S
+                    (S (S (S (S (S (S (S (S (S (S (S (S (S (S (S (S (S (S (S
+                    (S (S (S (S (S (S (S (S (S (S (S (S (S (S (S (S
+                    O)))))))))))))))))))))))))))))))))))))))))))))))))))))))))))))))))))))))))))))))))))))))))))))))))))))))))))))))) :: []),
+                 (S (S (S (S (S (S (S (S (S (S (S (S (S (S (S (S (S (S (S (S
+                 (S (S (S (S (S (S (S (S (S (S (S (S (S (S (S (S (S (S (S (S
+                 (S (S (S (S (S (S (S (S (S (S (S (S
+                 O)))))))))))))))))))))))))))))))))))))))))))))))))))))) :: ((IReturn
+                 (t (S (S (S (S (S (S (S (S (S (S (S (S (S (S (S (S (S (S (S
+                   (S (S (S (S (S (S (S (S (S (S (S (S (S (S (S (S (S (S (S
+                   (S (S (S (S (S (S (S (S (S (S (S (S (S (S (S (S (S (S (S
+                   (S (S (S (S (S (S (S (S (S (S (S (S (S (S (S (S (S (S (S
+                   (S (S (S (S (S (S (S (S (S (S (S (S (S (S (S (S (S (S (S
+                   (S (S (S (S (S (S (S (S (S (S (S (S (S (S (S (S (S (S (S
+                   (S (S (S (S (S (S (S (S (S (S (S (S (S (S (S (S (S (S (S
+                   (S (S (S (S (S (S (S (S (S (S (S (S (S (S (S (S (S
+                   O)))))))))))))))))))))))))))))))))))))))))))))))))))))))))))))))))))))))))))))))))))))))))))))))))))))))))))))))))))))))))))))))))))))))))))))))))))))))) :: ((IReturn
+                 (t (S (S (S (S (S (S (S (S (S (S (S (S (S (S (S (S (S (S (S
+                   (S (S (S (S (S (S (S (S (S (S (S (S (S (S (S (S (S (S (S
+                   (S (S (S (S (S (S (S (S (S (S (S (S (S (S (S (S (S (S (S
+                   (S (S (S (S (S (S (S (S (S (S (S (S (S (S (S (S (S (S (S
+                   (S (S (S (S (S (S (S (S (S (S (S (S (S (S (S (S (S (S (S
+                   (S (S (S (S (S (S (S (S (S (S (S (S (S (S (S (S (S (S (S
+                   (S (S (S (S (S (S (S (S (S (S (S (S (S (S (S (S (S (S (S
+                   (S (S (S (S (S (S (S (S (S (S (S (S (S (S (S (S (S (S
+                   O))))))))))))))))))))))))))))))))))))))))))))))))))))))))))))))))))))))))))))))))))))))))))))))))))))))))))))))))))))))))))))))))))))))))))))))))))))))))) :: [])))))))))
+   | SlidingAddSingle ->
+     app (validate_single O (S O) (S (S O)))
+       (app
+         (sliding_buffer_entry copy O (S O) (S (S O))
+           (opt_ev e nargs (S (S (S O)))))
+         (app
+           (if Nat.eqb variant (S O)
+            then app ((IGetSelf
+                   ((t (S (S (S (S (S (S (S (S (S (S (S (S (S (S (S (S (S (S
+                      (S (S (S (S (S (S (S (S (S (S (S (S (S (S (S (S (S (S
+                      (S (S (S (S (S (S (S (S (S (S (S (S (S (S (S (S (S (S
+                      (S (S (S (S (S (S (S (S (S (S (S (S (S (S (S (S (S (S
+                      (S (S (S (S (S (S (S (S (S (S (S (S (S (S (S (S (S (S
+                      (S (S (S (S (S (S (S (S (S (S (S (S (S (S (S (S (S (S
+                      (S (S (S (S (S (S (S (S (S (S (S (S (S (S (S (S (S (S
+                      (S (S (S (S (S (S (S (S (S (S (S (S (S (S
+                      O))))))))))))))))))))))))))))))))))))))))))))))))))))))))))))))))))))))))))))))))))))))))))))))))))))))))))))))))))))))))))))))))))))))))))))),
+                   f_new0)) :: ((IGetSelf
+                   ((t (S (S (S (S (S (S (S (S (S (S (S (S (S (S (S (S (S (S
+                      (S (S (S (S (S (S (S (S (S (S (S (S (S (S (S (S (S (S
+                      (S (S (S (S (S (S (S (S (S (S (S (S (S (S (S (S (S (S
+                      (S (S (S (S (S (S (S (S (S (S (S (S (S (S (S (S (S (S
+                      (S (S (S (S (S (S (S (S (S (S (S (S (S (S (S (S (S (S
+                      (S (S (S (S (S (S (S (S (S (S (S (S (S (S (S (S (S (S
+                      (S (S (S (S (S (S (S (S (S (S (S (S (S (S (S (S (S (S
+                      (S (S (S (S (S (S (S (S (S (S (S (S (S (S (S
+                      O)))))))))))))))))))))))))))))))))))))))))))))))))))))))))))))))))))))))))))))))))))))))))))))))))))))))))))))))))))))))))))))))))))))))))))))),
+                   f_new1)) :: ((IGetSelf
+                   ((t (S (S (S (S (S (S (S (S (S (S (S (S (S (S (S (S (S (S
+                      (S (S (S (S (S (S (S (S (S (S (S (S (S (S (S (S (S (S
+                      (S (S (S (S (S (S (S (S (S (S (S (S (S (S (S (S (S (S
+                      (S (S (S (S (S (S (S (S (S (S (S (S (S (S (S (S (S (S
+                      (S (S (S (S (S (S (S (S (S (S (S (S (S (S (S (S (S (S
+                      (S (S (S (S (S (S (S (S (S (S (S (S (S (S (S (S (S (S
+                      (S (S (S (S (S (S (S (S (S (S (S (S (S (S (S (S (S (S
+                      (S (S (S (S (S (S (S (S (S (S (S (S (S (S (S (S
+                      O))))))))))))))))))))))))))))))))))))))))))))))))))))))))))))))))))))))))))))))))))))))))))))))))))))))))))))))))))))))))))))))))))))))))))))))),
+                   f_new2)) :: ((IOp
+                   ((t (S (S (S (S (S (S (S (S (S (S (S (S (S (S (S (S (S (S
+                      (S (S (S (S (S (S (S (S (S (S (S (S (S (S (S (S (S (S
+                      (S (S (S (S (S (S (S (S (S (S (S (S (S (S (S (S (S (S
+                      (S (S (S (S (S (S (S (S (S (S (S (S (S (S (S (S (S (S
+                      (S (S (S (S (S (S (S (S (S (S (S (S (S (S (S (S (S (S
+                      (S (S (S (S (S (S (S (S (S (S (S (S (S (S (S (S (S (S
+                      (S (S (S (S (S (S (S (S (S (S (S (S (S (S (S (S (S (S
+                      (S (S (S (S (S (S (S (S (S (S (S (S (S (S (S (S (S
+                      O)))))))))))))))))))))))))))))))))))))))))))))))))))))))))))))))))))))))))))))))))))))))))))))))))))))))))))))))))))))))))))))))))))))))))))))))),
+                   ((t (S (S (S (S (S (S (S (S (S (S (S (S (S (S (S (S (S (S
+                      (S (S (S (S (S (S (S (S (S (S (S (S (S (S (S (S (S (S
+                      (S (S (S (S (S (S (S (S (S (S (S (S (S (S (S (S (S (S
+                      (S (S (S (S (S (S (S (S (S (S (S (S (S (S (S (S (S (S
+                      (S (S (S (S (S (S (S (S (S (S (S (S (S (S (S (S (S (S
+                      (S (S (S (S (S (S (S (S (S (S (S (S (S (S (S (S (S (S
+                      (S (S (S (S (S (S (S (S (S (S (S (S (S (S (S (S (S (S
+                      (S (S (S (S (S (S (S (S (S (S (S (S (S (S
+                      O))))))))))))))))))))))))))))))))))))))))))))))))))))))))))))))))))))))))))))))))))))))))))))))))))))))))))))))))))))))))))))))))))))))))))))) :: []),
+                   (S (S (S (S (S (S (S (S (S (S (S (S (S (S (S (S (S (S (S
+                   (S (S (S (S (S (S (S (S (S (S (S (S (S (S (S (S (S (S (S
+                   (S (S (S (S (S (S (S (S (S (S (S (S
+                   O)))))))))))))))))))))))))))))))))))))))))))))))))))) :: ((IOp
+                   ((t (S (S (S (S (S (S (S (S (S (S (S (S (S (S (S (S (S (S
+                      (S (S (S (S (S (S (S (S (S (S (S (S (S (S (S (S (S (S
+                      (S (S (S (S (S (S (S (S (S (S (S (S (S (S (S (S (S (S
+                      (S (S (S (S (S (S (S (S (S (S (S (S (S (S (S (S (S (S
+                      (S (S (S (S (S (S (S (S (S (S (S (S (S (S (S (S (S (S
+                      (S (S (S (S (S (S (S (S (S (S (S (S (S (S (S (S (S (S
+                      (S (S (S (S (S (S (S (S (S (S (S (S (S (S (S (S (S (S
+                      (S (S (S (S (S (S (S (S (S (S (S (S (S (S (S (S (S (S
+                      O))))))))))))))))))))))))))))))))))))))))))))))))))))))))))))))))))))))))))))))))))))))))))))))))))))))))))))))))))))))))))))))))))))))))))))))))),
+                   ((t (S (S (S (S (S (S (S (S (S (S (S (S (S (S (S (S (S (S
+                      (S (S (S (S (S (S (S (S (S (S (S (S (S (S (S (S (S (S
+                      (S (S (S (S (S (S (S (S (S (S (S (S (S (S (S (S (S (S
+                      (S (S (S (S (S (S (S (S (S (S (S (S (S (S (S (S (S (S
+                      (S (S (S (S (S (S (S (S (S (S (S (S (S (S (S (S (S (S
+                      (S (S (S (S (S (S (S (S (S (S (S (S (S (S (S (S (S (S
+                      (S (S (S (S (S (S (S (S (S (S (S (S (S (S (S (S (S (S
+                      (S (S (S (S (S (S (S (S (S (S (S (S (S (S (S
+                      O)))))))))))))))))))))))))))))))))))))))))))))))))))))))))))))))))))))))))))))))))))))))))))))))))))))))))))))))))))))))))))))))))))))))))))))) :: []),
+                   (S (S (S (S (S (S (S (S (S (S (S (S (S (S (S (S (S (S (S
+                   (S (S (S (S (S (S (S (S (S (S (S (S (S (S (S (S (S (S (S
+                   (S (S (S (S (S (S (S (S (S (S (S (S
+                   O)))))))))))))))))))))))))))))))))))))))))))))))))))) :: ((IOp
+                   ((t (S (S (S (S (S (S (S (S (S (S (S (S (S (S (S (S (S (S
+                      (S (S (S (S (S (S (S (S (S (S (S (S (S (S (S (S (S (S
+                      (S (S (S (S (S (S (S (S (S (S (S (S (S (S (S (S (S (S
+                      (S (S (S (S (S (S (S (S (S (S (S (S (S (S (S (S (S (S
+                      (S (S (S (S (S (S (S (S (S (S (S (S (S (S (S (S (S (S
+                      (S (S (S (S (S (S (S (S (S (S (S (S (S (S (S (S (S (S
+                      (S (S (S (S (S (S (S (S (S (S (S (S (S (S (S (S (S (S
+                      (S (S (S (S (S (S (S (S (S (S (S (S (S (S (S (S (S (S
+                      (S
+                      O)))))))))))))))))))))))))))))))))))))))))))))))))))))))))))))))))))))))))))))))))))))))))))))))))))))))))))))))))))))))))))))))))))))))))))))))))),
+                   ((t (S (S (S (S (S (S (S (S (S (S (S (S (S (S (S (S (S (S
+                      (S (S (S (S (S (S (S (S (S (S (S (S (S (S (S (S (S (S
+                      (S (S (S (S (S (S (S (S (S (S (S (S (S (S (S (S (S (S
+                      (S (S (S (S (S (S (S (S (S (S (S (S (S (S (S (S (S (S
+                      (S (S (S (S (S (S (S (S (S (S (S (S (S (S (S (S (S (S
+                      (S (S (S (S (S (S (S (S (S (S (S (S (S (S (S (S (S (S
+                      (S (S (S (S (S (S (S (S (S (S (S (S (S (S (S (S (S (S
+                      (S (S (S (S (S (S (S (S (S (S (S (S (S (S (S (S
+                      O))))))))))))))))))))))))))))))))))))))))))))))))))))))))))))))))))))))))))))))))))))))))))))))))))))))))))))))))))))))))))))))))))))))))))))))) :: []),
+                   (S (S (S (S (S (S (S (S (S (S (S (S (S (S (S (S (S (S (S
+                   (S (S (S (S (S (S (S (S (S (S (S (S (S (S (S (S (S (S (S
+                   (S (S (S (S (S (S (S (S (S (S (S (S
+                   O)))))))))))))))))))))))))))))))))))))))))))))))))))) :: ((IOp
+                   ((t O),
+                   ((t (S (S (S (S (S (S (S (S (S (S (S (S (S (S (S (S (S (S
+                      (S (S (S (S (S (S (S (S (S (S (S (S (S (S (S (S (S (S
+                      (S (S (S (S (S (S (S (S (S (S (S (S (S (S (S (S (S (S
+                      (S (S (S (S (S (S (S (S (S (S (S (S (S (S (S (S (S (S
+                      (S (S (S (S (S (S (S (S (S (S (S (S (S (S (S (S (S (S
+                      (S (S (S (S (S (S (S (S (S (S (S (S (S (S (S (S (S (S
+                      (S (S (S (S (S (S (S (S (S (S (S (S (S (S (S (S (S (S
+                      (S (S (S (S (S (S (S (S (S (S (S (S (S (S (S (S (S (S
+                      (S
+                      O)))))))))))))))))))))))))))))))))))))))))))))))))))))))))))))))))))))))))))))))))))))))))))))))))))))))))))))))))))))))))))))))))))))))))))))))))) :: []),
+                   (S (S (S (S (S (S (S (S (S (S (S (S (S (S (S (S
+                   O)))))))))))))))))) :: ((IGetSelf
+                   ((t (S (S (S (S (S (S (S (S (S (S (S (S (S (S (S (S (S (S
+                      (S (S (S (S (S (S (S (S (S (S (S (S (S (S (S (S (S (S
+                      (S (S (S (S (S (S (S (S (S (S (S (S (S (S (S (S (S (S
+                      (S (S (S (S (S (S (S (S (S (S (S (S (S (S (S (S (S (S
+                      (S (S (S (S (S (S (S (S (S (S (S (S (S (S (S (S (S (S
+                      (S (S (S (S (S (S (S (S (S (S (S (S (S (S (S (S (S (S
+                      (S (S (S (S (S (S (S (S (S (S (S (S (S (S (S (S (S (S
+                      (S (S (S (S (S (S (S (S (S (S (S (S (S (S (S (S (S (S
+                      (S (S
+                      O))))))))))))))))))))))))))))))))))))))))))))))))))))))))))))))))))))))))))))))))))))))))))))))))))))))))))))))))))))))))))))))))))))))))))))))))))),
+                   f_occupied)) :: ((IInplace
+                   ((t (S (S (S (S (S (S (S (S (S (S (S (S (S (S (S (S (S (S
+                      (S (S (S (S (S (S (S (S (S (S (S (S (S (S (S (S (S (S
+                      (S (S (S (S (S (S (S (S (S (S (S (S (S (S (S (S (S (S
+                      (S (S (S (S (S (S (S (S (S (S (S (S (S (S (S (S (S (S
+                      (S (S (S (S (S (S (S (S (S (S (S (S (S (S (S (S (S (S
+                      (S (S (S (S (S (S (S (S (S (S (S (S (S (S (S (S (S (S
+                      (S (S (S (S (S (S (S (S (S (S (S (S (S (S (S (S (S (S
+                      (S (S (S (S (S (S (S (S (S (S (S (S (S (S (S (S (S (S
+                      (S (S
+                      O))))))))))))))))))))))))))))))))))))))))))))))))))))))))))))))))))))))))))))))))))))))))))))))))))))))))))))))))))))))))))))))))))))))))))))))))))),
+                   [], (S (S (S (S (S (S (S (S (S (S (S (S (S (S (S (S (S (S
+                   (S (S (S (S (S (S (S (S (S (S (S (S (S (S (S (S (S (S (S
+                   (S (S (S (S (S (S (S (S (S (S (S (S (S (S
+                   O))))))))))))))))))))))))))))))))))))))))))))))))))))) :: [])))))))))
+                   (store_write (t O) ((f_solution,
+                     (t (S (S (S (S (S (S (S (S (S (S (S (S (S (S (S (S (S (S
+                       (S (S (S (S (S (S (S (S (S (S (S (S (S (S (S (S (S (S
+                       (S (S (S (S (S (S (S (S (S (S (S (S (S (S (S (S (S (S
+                       (S (S (S (S (S (S (S (S (S (S (S (S (S (S (S (S (S (S
+                       (S (S (S (S (S (S (S (S (S (S (S (S (S (S (S (S (S (S
+                       (S (S (S (S (S (S (S (S (S (S (S (S (S (S (S (S (S (S
+                       (S (S (S (S (S (S (S (S (S (S (S (S (S (S (S (S (S (S
+                       (S (S (S (S (S (S (S (S (S (S (S (S (S (S (S (S (S
+                       O))))))))))))))))))))))))))))))))))))))))))))))))))))))))))))))))))))))))))))))))))))))))))))))))))))))))))))))))))))))))))))))))))))))))))))))))) :: ((f_objective,
+                     (t (S (S (S (S (S (S (S (S (S (S (S (S (S (S (S (S (S (S
+                       (S (S (S (S (S (S (S (S (S (S (S (S (S (S (S (S (S (S
+                       (S (S (S (S (S (S (S (S (S (S (S (S (S (S (S (S (S (S
+                       (S (S (S (S (S (S (S (S (S (S (S (S (S (S (S (S (S (S
+                       (S (S (S (S (S (S (S (S (S (S (S (S (S (S (S (S (S (S
+                       (S (S (S (S (S (S (S (S (S (S (S (S (S (S (S (S (S (S
+                       (S (S (S (S (S (S (S (S (S (S (S (S (S (S (S (S (S (S
+                       (S (S (S (S (S (S (S (S (S (S (S (S (S (S (S (S (S (S
+                       O)))))))))))))))))))))))))))))))))))))))))))))))))))))))))))))))))))))))))))))))))))))))))))))))))))))))))))))))))))))))))))))))))))))))))))))))))) :: ((f_measures,
+                     (t (S (S (S (S (S (S (S (S (S (S (S (S (S (S (S (S (S (S
+                       (S (S (S (S (S (S (S (S (S (S (S (S (S (S (S (S (S (S
+                       (S (S (S (S (S (S (S (S (S (S (S (S (S (S (S (S (S (S
+                       (S (S (S (S (S (S (S (S (S (S (S (S (S (S (S (S (S (S
+                       (S (S (S (S (S (S (S (S (S (S (S (S (S (S (S (S (S (S
+                       (S (S (S (S (S (S (S (S (S (S (S (S (S (S (S (S (S (S
+                       (S (S (S (S (S (S (S (S (S (S (S (S (S (S (S (S (S (S
+                       (S (S (S (S (S (S (S (S (S (S (S (S (S (S (S (S (S (S
+                       (S
+                       O))))))))))))))))))))))))))))))))))))))))))))))))))))))))))))))))))))))))))))))))))))))))))))))))))))))))))))))))))))))))))))))))))))))))))))))))))) :: []))))
+            else [])
+           (archive_add_single_core O (S O) (S (S O))
+             (opt_ev e nargs (S (S (S O)))) true)))
+   | ProximityAdd ->
+     app
+       (validate_batch
+         (app (O :: ((S O) :: ((S (S O)) :: [])))
+           (if he then (S (S (S O))) :: [] else [])))
+       (app ((IOp
+         ((t (S (S (S (S (S (S (S (S (S (S (S (S (S (S (S (S (S (S (S (S (S
+            (S (S (S (S (S (S (S (S (S (S (S (S (S (S (S (S (S (S (S (S (S (S
+            (S (S (S (S (S (S (S (S (S (S (S (S (S (S (S (S (S (S (S (S (S (S
+            (S (S (S (S (S (S (S (S (S (S (S (S (S (S (S (S (S (S (S (S (S (S
+            (S (S (S (S (S (S (S (S (S (S (S (S (S (S (S (S (S (S (S (S (S (S
+            (S (S (S (S (S (S (S (S (S (S (S (S (S (S (S (S (S (S (S (S (S (S
+            (S (S (S (S (S (S (S (S (S (S (S (S (S (S (S (S (S (S (S (S (S (S
+            (S (S (S (S (S (S (S
+            O))))))))))))))))))))))))))))))))))))))))))))))))))))))))))))))))))))))))))))))))))))))))))))))))))))))))))))))))))))))))))))))))))))))))))))))))))))))))))))))))),
+         ((S (S O)) :: []), (S (S (S (S (S (S (S (S (S (S (S (S (S (S (S (S
+         (S (S (S (S (S (S (S (S (S (S (S (S (S (S (S (S (S (S (S (S (S (S (S
+         (S (S (S (S (S (S (S (S (S (S (S (S (S (S (S (S (S (S (S (S (S
+         O)))))))))))))))))))))))))))))))))))))))))))))))))))))))))))))) :: ((IOp
+         ((t (S (S (S (S (S (S (S (S (S (S (S (S (S (S (S (S (S (S (S (S (S
+            (S (S (S (S (S (S (S (S (S (S (S (S (S (S (S (S (S (S (S (S (S (S
+            (S (S (S (S (S (S (S (S (S (S (S (S (S (S (S (S (S (S (S (S (S (S
+            (S (S (S (S (S (S (S (S (S (S (S (S (S (S (S (S (S (S (S (S (S (S
+            (S (S (S (S (S (S (S (S (S (S (S (S (S (S (S (S (S (S (S (S (S (S
+            (S (S (S (S (S (S (S (S (S (S (S (S (S (S (S (S (S (S (S (S (S (S
+            (S (S (S (S (S (S (S (S (S (S (S (S (S (S (S (S (S (S (S (S (S (S
+            (S (S (S (S (S (S (S (S
+            O)))))))))))))))))))))))))))))))))))))))))))))))))))))))))))))))))))))))))))))))))))))))))))))))))))))))))))))))))))))))))))))))))))))))))))))))))))))))))))))))))),
+         ((t (S (S (S (S (S (S (S (S (S (S (S (S (S (S (S (S (S (S (S (S (S
+            (S (S (S (S (S (S (S (S (S (S (S (S (S (S (S (S (S (S (S (S (S (S
+            (S (S (S (S (S (S (S (S (S (S (S (S (S (S (S (S (S (S (S (S (S (S
+            (S (S (S (S (S (S (S (S (S (S (S (S (S (S (S (S (S (S (S (S (S (S
+            (S (S (S (S (S (S (S (S (S (S (S (S (S (S (S (S (S (S (S (S (S (S
+            (S (S (S (S (S (S (S (S (S (S (S (S (S (S (S (S (S (S (S (S (S (S
+            (S (S (S (S (S (S (S (S (S (S (S (S (S (S (S (S (S (S (S (S (S (S
+            (S (S (S (S (S (S (S
+            O))))))))))))))))))))))))))))))))))))))))))))))))))))))))))))))))))))))))))))))))))))))))))))))))))))))))))))))))))))))))))))))))))))))))))))))))))))))))))))))))) :: []),
+         (S (S (S (S (S (S (S (S (S (S (S (S (S (S (S (S (S (S (S (S (S (S (S
+         (S (S (S (S (S (S (S (S (S (S (S (S (S (S (S (S (S (S (S (S (S (S (S
+         (S (S (S (S (S (S (S (S (S (S (S (S (S (S (S
+         O))))))))))))))))))))))))))))))))))))))))))))))))))))))))))))))) :: []))
+         (app
+           (if Nat.eqb variant O
+            then app ((IOp
+                   ((t (S (S (S (S (S (S (S (S (S (S (S (S (S (S (S (S (S (S
+                      (S (S (S (S (S (S (S (S (S (S (S (S (S (S (S (S (S (S
+                      (S (S (S (S (S (S (S (S (S (S (S (S (S (S (S (S (S (S
+                      (S (S (S (S (S (S (S (S (S (S (S (S (S (S (S (S (S (S
+                      (S (S (S (S (S (S (S (S (S (S (S (S (S (S (S (S (S (S
+                      (S (S (S (S (S (S (S (S (S (S (S (S (S (S (S (S (S (S
+                      (S (S (S (S (S (S (S (S (S (S (S (S (S (S (S (S (S (S
+                      (S (S (S (S (S (S (S (S (S (S (S (S (S (S (S (S (S (S
+                      (S (S (S (S (S (S (S (S (S (S (S (S (S (S (S (S (S (S
+                      O))))))))))))))))))))))))))))))))))))))))))))))))))))))))))))))))))))))))))))))))))))))))))))))))))))))))))))))))))))))))))))))))))))))))))))))))))))))))))))))))))),
+                   (O :: ((t (S (S (S (S (S (S (S (S (S (S (S (S (S (S (S (S
+                            (S (S (S (S (S (S (S (S (S (S (S (S (S (S (S (S
+                            (S (S (S (S (S (S (S (S (S (S (S (S (S (S (S (S
+                            (S (S (S (S (S (S (S (S (S (S (S (S (S (S (S (S
+                            (S (S (S (S (S (S (S (S (S (S (S (S (S (S (S (S
+                            (S (S (S (S (S (S (S (S (S (S (S (S (S (S (S (S
+                            (S (S (S (S (S (S (S (S (S (S (S (S (S (S (S (S
+                            (S (S (S (S (S (S (S (S (S (S (S (S (S (S (S (S
+                            (S (S (S (S (S (S (S (S (S (S (S (S (S (S (S (S
+                            (S (S (S (S (S (S (S (S (S (S (S (S (S (S (S (S
+                            (S
+                            O)))))))))))))))))))))))))))))))))))))))))))))))))))))))))))))))))))))))))))))))))))))))))))))))))))))))))))))))))))))))))))))))))))))))))))))))))))))))))))))))))) :: [])),
+                   (S O))) :: ((IOp
+                   ((t (S (S (S (S (S (S (S (S (S (S (S (S (S (S (S (S (S (S
+                      (S (S (S (S (S (S (S (S (S (S (S (S (S (S (S (S (S (S
+                      (S (S (S (S (S (S (S (S (S (S (S (S (S (S (S (S (S (S
+                      (S (S (S (S (S (S (S (S (S (S (S (S (S (S (S (S (S (S
+                      (S (S (S (S (S (S (S (S (S (S (S (S (S (S (S (S (S (S
+                      (S (S (S (S (S (S (S (S (S (S (S (S (S (S (S (S (S (S
+                      (S (S (S (S (S (S (S (S (S (S (S (S (S (S (S (S (S (S
+                      (S (S (S (S (S (S (S (S (S (S (S (S (S (S (S (S (S (S
+                      (S (S (S (S (S (S (S (S (S (S (S (S (S (S (S (S (S (S
+                      (S
+                      O)))))))))))))))))))))))))))))))))))))))))))))))))))))))))))))))))))))))))))))))))))))))))))))))))))))))))))))))))))))))))))))))))))))))))))))))))))))))))))))))))))),
+                   ((S
+                   O) :: ((t (S (S (S (S (S (S (S (S (S (S (S (S (S (S (S (S
+                            (S (S (S (S (S (S (S (S (S (S (S (S (S (S (S (S
+                            (S (S (S (S (S (S (S (S (S (S (S (S (S (S (S (S
+                            (S (S (S (S (S (S (S (S (S (S (S (S (S (S (S (S
+                            (S (S (S (S (S (S (S (S (S (S (S (S (S (S (S (S
+                            (S (S (S (S (S (S (S (S (S (S (S (S (S (S (S (S
+                            (S (S (S (S (S (S (S (S (S (S (S (S (S (S (S (S
+                            (S (S (S (S (S (S (S (S (S (S (S (S (S (S (S (S
+                            (S (S (S (S (S (S (S (S (S (S (S (S (S (S (S (S
+                            (S (S (S (S (S (S (S (S (S (S (S (S (S (S (S (S
+                            (S
+                            O)))))))))))))))))))))))))))))))))))))))))))))))))))))))))))))))))))))))))))))))))))))))))))))))))))))))))))))))))))))))))))))))))))))))))))))))))))))))))))))))))) :: [])),
+                   (S O))) :: ((IOp
+                   ((t (S (S (S (S (S (S (S (S (S (S (S (S (S (S (S (S (S (S
+                      (S (S (S (S (S (S (S (S (S (S (S (S (S (S (S (S (S (S
+                      (S (S (S (S (S (S (S (S (S (S (S (S (S (S (S (S (S (S
+                      (S (S (S (S (S (S (S (S (S (S (S (S (S (S (S (S (S (S
+                      (S (S (S (S (S (S (S (S (S (S (S (S (S (S (S (S (S (S
+                      (S (S (S (S (S (S (S (S (S (S (S (S (S (S (S (S (S (S
+                      (S (S (S (S (S (S (S (S (S (S (S (S (S (S (S (S (S (S
+                      (S (S (S (S (S (S (S (S (S (S (S (S (S (S (S (S (S (S
+                      (S (S (S (S (S (S (S (S (S (S (S (S (S (S (S (S (S (S
+                      (S (S
+                      O))))))))))))))))))))))))))))))))))))))))))))))))))))))))))))))))))))))))))))))))))))))))))))))))))))))))))))))))))))))))))))))))))))))))))))))))))))))))))))))))))))),
+                   ((S (S
+                   O)) :: ((t (S (S (S (S (S (S (S (S (S (S (S (S (S (S (S (S
+                             (S (S (S (S (S (S (S (S (S (S (S (S (S (S (S (S
+                             (S (S (S (S (S (S (S (S (S (S (S (S (S (S (S (S
+                             (S (S (S (S (S (S (S (S (S (S (S (S (S (S (S (S
+                             (S (S (S (S (S (S (S (S (S (S (S (S (S (S (S (S
+                             (S (S (S (S (S (S (S (S (S (S (S (S (S (S (S (S
+                             (S (S (S (S (S (S (S (S (S (S (S (S (S (S (S (S
+                             (S (S (S (S (S (S (S (S (S (S (S (S (S (S (S (S
+                             (S (S (S (S (S (S (S (S (S (S (S (S (S (S (S (S
+                             (S (S (S (S (S (S (S (S (S (S (S (S (S (S (S (S
+                             (S
+                             O)))))))))))))))))))))))))))))))))))))))))))))))))))))))))))))))))))))))))))))))))))))))))))))))))))))))))))))))))))))))))))))))))))))))))))))))))))))))))))))))))) :: [])),
+                   (S O))) :: [])))
+                   (app
+                     (if he
+                      then (IOp
+                             ((t (S (S (S (S (S (S (S (S (S (S (S (S (S (S (S
+                                (S (S (S (S (S (S (S (S (S (S (S (S (S (S (S
+                                (S (S (S (S (S (S (S (S (S (S (S (S (S (S (S
+                                (S (S (S (S (S (S (S (S (S (S (S (S (S (S (S
+                                (S (S (S (S (S (S (S (S (S (S (S (S (S (S (S
+                                (S (S (S (S (S (S (S (S (S (S (S (S (S (S (S
+                                (S (S (S (S (S (S (S (S (S (S (S (S (S (S (S
+                                (S (S (S (S (S (S (S (S (S (S (S (S (S (S (S
+                                (S (S (S (S (S (S (S (S (S (S (S (S (S (S (S
+                                (S (S (S (S (S (S (S (S (S (S (S (S (S (S (S
+                                (S (S (S (S (S (S (S (S (S (S (S (S (S (S (S
+                                O)))))))))))))))))))))))))))))))))))))))))))))))))))))))))))))))))))))))))))))))))))))))))))))))))))))))))))))))))))))))))))))))))))))))))))))))))))))))))))))))))))))),
+                             ((S (S (S
+                             O))) :: ((t (S (S (S (S (S (S (S (S (S (S (S (S
+                                        (S (S (S (S (S (S (S (S (S (S (S (S
+                                        (S (S (S (S (S (S (S (S (S (S (S (S
+                                        (S (S (S (S (S (S (S (S (S (S (S (S
+                                        (S (S (S (S (S (S (S (S (S (S (S (S
+                                        (S (S (S (S (S (S (S (S (S (S (S (S
+                                        (S (S (S (S (S (S (S (S (S (S (S (S
+                                        (S (S (S (S (S (S (S (S (S (S (S (S
+                                        (S (S (S (S (S (S (S (S (S (S (S (S
+                                        (S (S (S (S (S (S (S (S (S (S (S (S
+                                        (S (S (S (S (S (S (S (S (S (S (S (S
+                                        (S (S (S (S (S (S (S (S (S (S (S (S
+                                        (S (S (S (S (S (S (S (S (S (S (S (S
+                                        (S (S (S (S (S
+                                        O)))))))))))))))))))))))))))))))))))))))))))))))))))))))))))))))))))))))))))))))))))))))))))))))))))))))))))))))))))))))))))))))))))))))))))))))))))))))))))))))))) :: [])),
+                             (S O))) :: []
+                      else [])
+                     (app ((IOp ((t O),
+                       ((t (S (S (S (S (S (S (S (S (S (S (S (S (S (S (S (S (S
+                          (S (S (S (S (S (S (S (S (S (S (S (S (S (S (S (S (S
+                          (S (S (S (S (S (S (S (S (S (S (S (S (S (S (S (S (S
+                          (S (S (S (S (S (S (S (S (S (S (S (S (S (S (S (S (S
+                          (S (S (S (S (S (S (S (S (S (S (S (S (S (S (S (S (S
+                          (S (S (S (S (S (S (S (S (S (S (S (S (S (S (S (S (S
+                          (S (S (S (S (S (S (S (S (S (S (S (S (S (S (S (S (S
+                          (S (S (S (S (S (S (S (S (S (S (S (S (S (S (S (S (S
+                          (S (S (S (S (S (S (S (S (S (S (S (S (S (S (S (S (S
+                          (S (S (S (S (S (S (S (S
+                          O)))))))))))))))))))))))))))))))))))))))))))))))))))))))))))))))))))))))))))))))))))))))))))))))))))))))))))))))))))))))))))))))))))))))))))))))))))))))))))))))))) :: []),
+                       (S (S (S (S (S (S (S (S (S (S (S (S (S (S (S (S (S (S
+                       (S (S (S (S (S (S (S (S (S (S (S (S (S (S (S (S (S (S
+                       (S (S (S (S (S (S (S (S (S (S (S (S (S (S (S (S (S (S
+                       (S (S (S (S (S (S (S (S
+                       O)))))))))))))))))))))))))))))))))))))))))))))))))))))))))))))))) :: [])
+                       (app
+                         (archive_transforms
+                           (t (S (S (S (S (S (S (S (S (S (S (S (S (S (S (S (S
+                             (S (S (S (S (S (S (S (S (S (S (S (S (S (S (S (S
+                             (S (S (S (S (S (S (S (S (S (S (S (S (S (S (S (S
+                             (S (S (S (S (S (S (S (S (S (S (S (S (S (S (S (S
+                             (S (S (S (S (S (S (S (S (S (S (S (S (S (S (S (S
+                             (S (S (S (S (S (S (S (S (S (S (S (S (S (S (S (S
+                             (S (S (S (S (S (S (S (S (S (S (S (S (S (S (S (S
+                             (S (S (S (S (S (S (S (S (S (S (S (S (S (S (S (S
+                             (S (S (S (S (S (S (S (S (S (S (S (S (S (S (S (S
+                             (S (S (S (S (S (S (S (S (S (S (S (S (S (S (S (S
+                             (S (S
+                             O)))))))))))))))))))))))))))))))))))))))))))))))))))))))))))))))))))))))))))))))))))))))))))))))))))))))))))))))))))))))))))))))))))))))))))))))))))))))))))))))))))
+                           (t (S (S (S (S (S (S (S (S (S (S (S (S (S (S (S (S
+                             (S (S (S (S (S (S (S (S (S (S (S (S (S (S (S (S
+                             (S (S (S (S (S (S (S (S (S (S (S (S (S (S (S (S
+                             (S (S (S (S (S (S (S (S (S (S (S (S (S (S (S (S
+                             (S (S (S (S (S (S (S (S (S (S (S (S (S (S (S (S
+                             (S (S (S (S (S (S (S (S (S (S (S (S (S (S (S (S
+                             (S (S (S (S (S (S (S (S (S (S (S (S (S (S (S (S
+                             (S (S (S (S (S (S (S (S (S (S (S (S (S (S (S (S
+                             (S (S (S (S (S (S (S (S (S (S (S (S (S (S (S (S
+                             (S (S (S (S (S (S (S (S (S (S (S (S (S (S (S (S
+                             (S (S (S
+                             O))))))))))))))))))))))))))))))))))))))))))))))))))))))))))))))))))))))))))))))))))))))))))))))))))))))))))))))))))))))))))))))))))))))))))))))))))))))))))))))))))))
+                           (t (S (S (S (S (S (S (S (S (S (S (S (S (S (S (S (S
+                             (S (S (S (S (S (S (S (S (S (S (S (S (S (S (S (S
+                             (S (S (S (S (S (S (S (S (S (S (S (S (S (S (S (S
+                             (S (S (S (S (S (S (S (S (S (S (S (S (S (S (S (S
+                             (S (S (S (S (S (S (S (S (S (S (S (S (S (S (S (S
+                             (S (S (S (S (S (S (S (S (S (S (S (S (S (S (S (S
+                             (S (S (S (S (S (S (S (S (S (S (S (S (S (S (S (S
+                             (S (S (S (S (S (S (S (S (S (S (S (S (S (S (S (S
+                             (S (S (S (S (S (S (S (S (S (S (S (S (S (S (S (S
+                             (S (S (S (S (S (S (S (S (S (S (S (S (S (S (S (S
+                             (S (S (S (S
+                             O)))))))))))))))))))))))))))))))))))))))))))))))))))))))))))))))))))))))))))))))))))))))))))))))))))))))))))))))))))))))))))))))))))))))))))))))))))))))))))))))))))))
+                           (if he
+                            then Some
+                                   (t (S (S (S (S (S (S (S (S (S (S (S (S (S
+                                     (S (S (S (S (S (S (S (S (S (S (S (S (S
+                                     (S (S (S (S (S (S (S (S (S (S (S (S (S
+                                     (S (S (S (S (S (S (S (S (S (S (S (S (S
+                                     (S (S (S (S (S (S (S (S (S (S (S (S (S
+                                     (S (S (S (S (S (S (S (S (S (S (S (S (S
+                                     (S (S (S (S (S (S (S (S (S (S (S (S (S
+                                     (S (S (S (S (S (S (S (S (S (S (S (S (S
+                                     (S (S (S (S (S (S (S (S (S (S (S (S (S
+                                     (S (S (S (S (S (S (S (S (S (S (S (S (S
+                                     (S (S (S (S (S (S (S (S (S (S (S (S (S
+                                     (S (S (S (S (S (S (S (S (S (S (S (S (S
+                                     (S (S (S (S (S (S (S (S (S
+                                     O))))))))))))))))))))))))))))))))))))))))))))))))))))))))))))))))))))))))))))))))))))))))))))))))))))))))))))))))))))))))))))))))))))))))))))))))))))))))))))))))))))))
+                            else None) true)
+                         (app
+                           (store_write (t (S O))
+                             (app ((f_solution,
+                               (t (S (S O)))) :: ((f_objective,
+                               (t (S (S (S O))))) :: ((f_measures,
+                               (t (S (S (S (S O)))))) :: ((f_threshold,
+                               (t (S (S (S (S (S (S O)))))))) :: []))))
+                               (if he
+                                then (f_extra,
+                                       (t (S (S (S (S (S O))))))) :: []
+                                else [])))
+                           (app
+                             (stats_update
+                               (t (S (S (S (S (S (S (S (S (S (S (S (S (S (S
+                                 (S (S (S (S (S (S (S (S (S (S (S (S (S (S (S
+                                 (S (S (S (S (S (S (S (S (S (S
+                                 O)))))))))))))))))))))))))))))))))))))))) he)
+                             ((IGetSelf
+                             ((t (S (S (S (S (S (S (S (S (S (S (S (S (S (S (S
+                                (S (S (S (S (S (S (S (S (S (S (S (S (S (S (S
+                                (S (S (S (S (S (S (S (S (S (S (S (S (S (S (S
+                                (S (S (S (S (S (S (S (S (S (S (S (S (S (S (S
+                                (S (S (S (S (S (S (S (S (S (S (S (S (S (S (S
+                                (S (S (S (S (S (S (S (S (S (S (S (S (S (S (S
+                                (S (S (S (S (S (S (S (S (S (S (S (S (S (S (S
+                                (S (S (S (S (S (S (S (S (S (S (S (S (S (S (S
+                                (S (S (S (S (S (S (S (S (S (S (S (S (S (S (S
+                                (S (S (S (S (S (S (S (S (S (S (S (S (S (S (S
+                                (S (S (S (S (S (S (S (S (S (S (S (S (S (S (S
+                                (S
+                                O))))))))))))))))))))))))))))))))))))))))))))))))))))))))))))))))))))))))))))))))))))))))))))))))))))))))))))))))))))))))))))))))))))))))))))))))))))))))))))))))))))))),
+                             f_measures)) :: ((IOp
+                             ((t (S (S (S (S (S (S (S (S (S (S (S (S (S (S (S
+                                (S (S (S (S (S (S (S (S (S (S (S (S (S (S (S
+                                (S (S (S (S (S (S (S (S (S (S (S (S (S (S (S
+                                (S (S (S (S (S (S (S (S (S (S (S (S (S (S (S
+                                (S (S (S (S (S (S (S (S (S (S (S (S (S (S (S
+                                (S (S (S (S (S (S (S (S (S (S (S (S (S (S (S
+                                (S (S (S (S (S (S (S (S (S (S (S (S (S (S (S
+                                (S (S (S (S (S (S (S (S (S (S (S (S (S (S (S
+                                (S (S (S (S (S (S (S (S (S (S (S (S (S (S (S
+                                (S (S (S (S (S (S (S (S (S (S (S (S (S (S (S
+                                (S (S (S (S (S (S (S (S (S (S (S (S (S (S (S
+                                (S (S
+                                O)))))))))))))))))))))))))))))))))))))))))))))))))))))))))))))))))))))))))))))))))))))))))))))))))))))))))))))))))))))))))))))))))))))))))))))))))))))))))))))))))))))))),
+                             ((t (S (S (S (S (S (S (S (S (S (S (S (S (S (S (S
+                                (S (S (S (S (S (S (S (S (S (S (S (S (S (S (S
+                                (S (S (S (S (S (S (S (S (S (S (S (S (S (S (S
+                                (S (S (S (S (S (S (S (S (S (S (S (S (S (S (S
+                                (S (S (S (S (S (S (S (S (S (S (S (S (S (S (S
+                                (S (S (S (S (S (S (S (S (S (S (S (S (S (S (S
+                                (S (S (S (S (S (S (S (S (S (S (S (S (S (S (S
+                                (S (S (S (S (S (S (S (S (S (S (S (S (S (S (S
+                                (S (S (S (S (S (S (S (S (S (S (S (S (S (S (S
+                                (S (S (S (S (S (S (S (S (S (S (S (S (S (S (S
+                                (S (S (S (S (S (S (S (S (S (S (S (S (S (S (S
+                                (S
+                                O))))))))))))))))))))))))))))))))))))))))))))))))))))))))))))))))))))))))))))))))))))))))))))))))))))))))))))))))))))))))))))))))))))))))))))))))))))))))))))))))))))))) :: []),
+                             (S O))) :: ((ISetSelf (f_i5,
+                             (t (S (S (S (S (S (S (S (S (S (S (S (S (S (S (S
+                               (S (S (S (S (S (S (S (S (S (S (S (S (S (S (S
+                               (S (S (S (S (S (S (S (S (S (S (S (S (S (S (S
+                               (S (S (S (S (S (S (S (S (S (S (S (S (S (S (S
+                               (S (S (S (S (S (S (S (S (S (S (S (S (S (S (S
+                               (S (S (S (S (S (S (S (S (S (S (S (S (S (S (S
+                               (S (S (S (S (S (S (S (S (S (S (S (S (S (S (S
+                               (S (S (S (S (S (S (S (S (S (S (S (S (S (S (S
+                               (S (S (S (S (S (S (S (S (S (S (S (S (S (S (S
+                               (S (S (S (S (S (S (S (S (S (S (S (S (S (S (S
+                               (S (S (S (S (S (S (S (S (S (S (S (S (S (S (S
+                               (S (S
+                               O)))))))))))))))))))))))))))))))))))))))))))))))))))))))))))))))))))))))))))))))))))))))))))))))))))))))))))))))))))))))))))))))))))))))))))))))))))))))))))))))))))))))))) :: []))))))))
+            else (IOp
+                   ((t (S (S (S (S (S (S (S (S (S (S (S (S (S (S (S (S (S (S
+                      (S (S (S (S (S (S (S (S (S (S (S (S (S (S
+                      O))))))))))))))))))))))))))))))))), [], (S (S (S (S (S
+                   (S O)))))))) :: []) ((IOp
+           ((t (S (S (S (S (S (S (S (S (S (S (S (S (S (S (S (S (S (S (S (S (S
+              (S (S (S (S (S (S (S (S (S (S (S (S (S (S (S (S (S (S (S (S (S
+              (S (S (S (S (S (S (S (S (S (S (S (S (S (S (S (S (S (S (S (S (S
+              (S (S (S (S (S (S (S (S (S (S (S (S (S (S (S (S (S (S (S (S (S
+              (S (S (S (S (S (S (S (S (S (S (S (S (S (S (S (S (S (S (S (S (S
+              (S (S (S (S (S (S (S (S (S (S (S (S (S (S (S (S (S (S (S (S (S
+              (S (S (S (S (S (S (S (S (S (S (S (S (S (S (S (S (S (S (S (S (S
+              (S (S (S (S (S (S (S (S (S (S (S (S (S (S (S (S (S (S (S (S (S
+              O))))))))))))))))))))))))))))))))))))))))))))))))))))))))))))))))))))))))))))))))))))))))))))))))))))))))))))))))))))))))))))))))))))))))))))))))))))))))))))))))))))))))),
+           ((t (S (S (S (S (S (S (S (S (S (S (S (S (S (S (S (S (S (S (S (S (S
+              (S (S (S (S (S (S (S (S (S (S (S
+              O))))))))))))))))))))))))))))))))) :: []), (S (S (S (S (S (S (S
+           (S (S (S (S (S (S (S (S (S (S (S (S (S (S (S (S (S (S (S (S (S (S
+           (S (S (S (S (S (S (S (S (S (S (S (S (S (S (S (S (S (S (S (S (S (S
+           (S (S (S (S (S (S (S (S (S (S (S (S
+           O))))))))))))))))))))))))))))))))))))))))))))))))))))))))))))))))) :: ((IReturn
+           (t (S (S (S (S (S (S (S (S (S (S (S (S (S (S (S (S (S (S (S (S (S
+             (S (S (S (S (S (S (S (S (S (S (S (S (S (S (S (S (S (S (S (S (S
+             (S (S (S (S (S (S (S (S (S (S (S (S (S (S (S (S (S (S (S (S (S
+             (S (S (S (S (S (S (S (S (S (S (S (S (S (S (S (S (S (S (S (S (S
+             (S (S (S (S (S (S (S (S (S (S (S (S (S (S (S (S (S (S (S (S (S
+             (S (S (S (S (S (S (S (S (S (S (S (S (S (S (S (S (S (S (S (S (S
+             (S (S (S (S (S (S (S (S (S (S (S (S (S (S (S (S (S (S (S (S (S
+             (S (S (S (S (S (S (S (S (S (S (S (S (S (S (S (S (S (S (S (S (S
+             O)))))))))))))))))))))))))))))))))))))))))))))))))))))))))))))))))))))))))))))))))))))))))))))))))))))))))))))))))))))))))))))))))))))))))))))))))))))))))))))))))))))))))) :: ((IReturn
+           (t (S (S (S (S (S (S (S (S (S (S (S (S (S (S (S (S (S (S (S (S (S
+             (S (S (S (S (S (S (S (S (S (S (S (S (S (S (S (S (S (S (S (S (S
+             (S (S (S (S (S (S (S (S (S (S (S (S (S (S (S (S (S (S (S (S (S
+             (S (S (S (S (S (S (S (S (S (S (S (S (S (S (S (S (S (S (S (S (S
+             (S (S (S (S (S (S (S (S (S (S (S (S (S (S (S (S (S (S (S (S (S
+             (S (S (S (S (S (S (S (S (S (S (S (S (S (S (S (S (S (S (S (S (S
+             (S (S (S (S (S (S (S (S (S (S (S (S (S (S (S (S (S (S (S (S (S
+             (S (S (S (S (S (S (S (S (S (S (S (S (S
+             O)))))))))))))))))))))))))))))))))))))))))))))))))))))))))))))))))))))))))))))))))))))))))))))))))))))))))))))))))))))))))))))))))))))))))))))))))))))))))))))))))) :: [])))))
+   | ProximityAddSingle ->
+     app (validate_single O (S O) (S (S O)))
+       (app ((IOp
+         ((t (S (S (S (S (S (S (S (S (S (S (S (S (S (S (S (S (S (S (S (S (S
+            (S (S (S (S (S (S (S (S (S (S (S (S (S (S (S (S (S (S (S (S (S (S
+            (S (S (S (S (S (S (S (S (S (S (S (S (S (S (S (S (S (S (S (S (S (S
+            (S (S (S (S (S (S (S (S (S (S (S (S (S (S (S (S (S (S (S (S (S (S
+            (S (S (S (S (S (S (S (S (S (S (S (S (S (S (S (S (S (S (S (S (S (S
+            (S (S (S (S (S (S (S (S (S (S (S (S (S (S (S (S (S (S (S (S (S (S
+            (S (S (S (S (S (S (S (S (S (S (S (S (S (S (S (S (S (S (S (S (S (S
+            (S (S (S (S (S (S (S (S (S (S (S (S (S (S (S (S (S
+            O))))))))))))))))))))))))))))))))))))))))))))))))))))))))))))))))))))))))))))))))))))))))))))))))))))))))))))))))))))))))))))))))))))))))))))))))))))))))))))))))))))))))))),
+         (O :: []), (S (S (S (S (S (S (S (S (S (S (S (S (S (S (S (S (S (S (S
+         (S (S (S (S (S (S (S (S (S (S (S (S (S (S (S (S (S (S (S (S (S (S (S
+         (S (S (S (S (S (S (S (S (S (S (S (S (S (S (S (S (S (S (S (S (S (S
+         O)))))))))))))))))))))))))))))))))))))))))))))))))))))))))))))))))) :: ((IOp
+         ((t (S (S (S (S (S (S (S (S (S (S (S (S (S (S (S (S (S (S (S (S (S
+            (S (S (S (S (S (S (S (S (S (S (S (S (S (S (S (S (S (S (S (S (S (S
+            (S (S (S (S (S (S (S (S (S (S (S (S (S (S (S (S (S (S (S (S (S (S
+            (S (S (S (S (S (S (S (S (S (S (S (S (S (S (S (S (S (S (S (S (S (S
+            (S (S (S (S (S (S (S (S (S (S (S (S (S (S (S (S (S (S (S (S (S (S
+            (S (S (S (S (S (S (S (S (S (S (S (S (S (S (S (S (S (S (S (S (S (S
+            (S (S (S (S (S (S (S (S (S (S (S (S (S (S (S (S (S (S (S (S (S (S
+            (S (S (S (S (S (S (S (S (S (S (S (S (S (S (S (S (S (S
+            O)))))))))))))))))))))))))))))))))))))))))))))))))))))))))))))))))))))))))))))))))))))))))))))))))))))))))))))))))))))))))))))))))))))))))))))))))))))))))))))))))))))))))))),
+         ((S O) :: []), (S (S (S (S (S (S (S (S (S (S (S (S (S (S (S (S (S (S
+         (S (S (S (S (S (S (S (S (S (S (S (S (S (S (S (S (S (S (S (S (S (S (S
+         (S (S (S (S (S (S (S (S (S (S (S (S (S (S (S (S (S (S (S (S (S (S (S
+         O)))))))))))))))))))))))))))))))))))))))))))))))))))))))))))))))))) :: ((IOp
+         ((t (S (S (S (S (S (S (S (S (S (S (S (S (S (S (S (S (S (S (S (S (S
+            (S (S (S (S (S (S (S (S (S (S (S (S (S (S (S (S (S (S (S (S (S (S
+            (S (S (S (S (S (S (S (S (S (S (S (S (S (S (S (S (S (S (S (S (S (S
+            (S (S (S (S (S (S (S (S (S (S (S (S (S (S (S (S (S (S (S (S (S (S
+            (S (S (S (S (S (S (S (S (S (S (S (S (S (S (S (S (S (S (S (S (S (S
+            (S (S (S (S (S (S (S (S (S (S (S (S (S (S (S (S (S (S (S (S (S (S
+            (S (S (S (S (S (S (S (S (S (S (S (S (S (S (S (S (S (S (S (S (S (S
+            (S (S (S (S (S (S (S (S (S (S (S (S (S (S (S (S (S (S (S
+            O))))))))))))))))))))))))))))))))))))))))))))))))))))))))))))))))))))))))))))))))))))))))))))))))))))))))))))))))))))))))))))))))))))))))))))))))))))))))))))))))))))))))))))),
+         ((S (S O)) :: []), (S (S (S (S (S (S (S (S (S (S (S (S (S (S (S (S
+         (S (S (S (S (S (S (S (S (S (S (S (S (S (S (S (S (S (S (S (S (S (S (S
+         (S (S (S (S (S (S (S (S (S (S (S (S (S (S (S (S (S (S (S (S (S (S (S
+         (S (S
+         O)))))))))))))))))))))))))))))))))))))))))))))))))))))))))))))))))) :: [])))
+         (app
+           (if he
+            then (IOp
+                   ((t (S (S (S (S (S (S (S (S (S (S (S (S (S (S (S (S (S (S
+                      (S (S (S (S (S (S (S (S (S (S (S (S (S (S (S (S (S (S
+                      (S (S (S (S (S (S (S (S (S (S (S (S (S (S (S (S (S (S
+                      (S (S (S (S (S (S (S (S (S (S (S (S (S (S (S (S (S (S
+                      (S (S (S (S (S (S (S (S (S (S (S (S (S (S (S (S (S (S
+                      (S (S (S (S (S (S (S (S (S (S (S (S (S (S (S (S (S (S
+                      (S (S (S (S (S (S (S (S (S (S (S (S (S (S (S (S (S (S
+                      (S (S (S (S (S (S (S (S (S (S (S (S (S (S (S (S (S (S
+                      (S (S (S (S (S (S (S (S (S (S (S (S (S (S (S (S (S (S
+                      (S (S (S (S (S (S (S (S (S (S (S
+                      O)))))))))))))))))))))))))))))))))))))))))))))))))))))))))))))))))))))))))))))))))))))))))))))))))))))))))))))))))))))))))))))))))))))))))))))))))))))))))))))))))))))))))))))),
+                   ((S (S (S O))) :: []), (S (S (S (S (S (S (S (S (S (S (S (S
+                   (S (S (S (S (S (S (S (S (S (S (S (S (S (S (S (S (S (S (S
+                   (S (S (S (S (S (S (S (S (S (S (S (S (S (S (S (S (S (S (S
+                   (S (S (S (S (S (S (S (S (S (S (S (S (S (S
+                   O)))))))))))))))))))))))))))))))))))))))))))))))))))))))))))))))))) :: []
+            else []) ((IOp
+           ((t (S (S (S (S (S (S (S (S (S (S (S (S (S (S (S (S (S (S (S (S (S
+              (S (S (S (S (S (S (S (S (S (S (S (S (S (S (S (S (S (S (S (S (S
+              (S (S (S (S (S (S (S (S (S (S (S (S (S (S (S (S (S (S (S (S (S
+              (S (S (S (S (S (S (S (S (S (S (S (S (S (S (S (S (S (S (S (S (S
+              (S (S (S (S (S (S (S (S (S (S (S (S (S (S (S (S (S (S (S (S (S
+              (S (S (S (S (S (S (S (S (S (S (S (S (S (S (S (S (S (S (S (S (S
+              (S (S (S (S (S (S (S (S (S (S (S (S (S (S (S (S (S (S (S (S (S
+              (S (S (S (S (S (S (S (S (S (S (S (S (S
+              O))))))))))))))))))))))))))))))))))))))))))))))))))))))))))))))))))))))))))))))))))))))))))))))))))))))))))))))))))))))))))))))))))))))))))))))))))))))))))))))))),
+           ((t (S (S (S (S (S (S (S (S (S (S (S (S (S (S (S (S (S (S (S (S (S
+              (S (S (S (S (S (S (S (S (S (S (S (S (S (S (S (S (S (S (S (S (S
+              (S (S (S (S (S (S (S (S (S (S (S (S (S (S (S (S (S (S (S (S (S
+              (S (S (S (S (S (S (S (S (S (S (S (S (S (S (S (S (S (S (S (S (S
+              (S (S (S (S (S (S (S (S (S (S (S (S (S (S (S (S (S (S (S (S (S
+              (S (S (S (S (S (S (S (S (S (S (S (S (S (S (S (S (S (S (S (S (S
+              (S (S (S (S (S (S (S (S (S (S (S (S (S (S (S (S (S (S (S (S (S
+              (S (S (S (S (S (S (S (S (S (S (S (S (S (S (S (S (S (S (S (S (S
+              (S (S (S (S
+              O))))))))))))))))))))))))))))))))))))))))))))))))))))))))))))))))))))))))))))))))))))))))))))))))))))))))))))))))))))))))))))))))))))))))))))))))))))))))))))))))))))))))))))) :: []),
+           (S (S (S (S (S (S (S (S (S (S (S (S (S (S (S (S (S (S (S (S (S (S
+           (S (S (S (S (S (S (S (S (S (S (S (S (S (S (S (S (S (S (S (S (S (S
+           (S (S (S (S (S (S (S (S (S (S (S (S (S (S (S (S
+           O)))))))))))))))))))))))))))))))))))))))))))))))))))))))))))))) :: ((IOp
+           ((t (S (S (S (S (S (S (S (S (S (S (S (S (S (S (S (S (S (S (S (S (S
+              (S (S (S (S (S (S (S (S (S (S (S (S (S (S (S (S (S (S (S (S (S
+              (S (S (S (S (S (S (S (S (S (S (S (S (S (S (S (S (S (S (S (S (S
+              (S (S (S (S (S (S (S (S (S (S (S (S (S (S (S (S (S (S (S (S (S
+              (S (S (S (S (S (S (S (S (S (S (S (S (S (S (S (S (S (S (S (S (S
+              (S (S (S (S (S (S (S (S (S (S (S (S (S (S (S (S (S (S (S (S (S
+              (S (S (S (S (S (S (S (S (S (S (S (S (S (S (S (S (S (S (S (S (S
+              (S (S (S (S (S (S (S (S (S (S (S (S (S (S
+              O)))))))))))))))))))))))))))))))))))))))))))))))))))))))))))))))))))))))))))))))))))))))))))))))))))))))))))))))))))))))))))))))))))))))))))))))))))))))))))))))))),
+           ((t (S (S (S (S (S (S (S (S (S (S (S (S (S (S (S (S (S (S (S (S (S
+              (S (S (S (S (S (S (S (S (S (S (S (S (S (S (S (S (S (S (S (S (S
+              (S (S (S (S (S (S (S (S (S (S (S (S (S (S (S (S (S (S (S (S (S
+              (S (S (S (S (S (S (S (S (S (S (S (S (S (S (S (S (S (S (S (S (S
+              (S (S (S (S (S (S (S (S (S (S (S (S (S (S (S (S (S (S (S (S (S
+              (S (S (S (S (S (S (S (S (S (S (S (S (S (S (S (S (S (S (S (S (S
+              (S (S (S (S (S (S (S (S (S (S (S (S (S (S (S (S (S (S (S (S (S
+              (S (S (S (S (S (S (S (S (S (S (S (S (S
+              O))))))))))))))))))))))))))))))))))))))))))))))))))))))))))))))))))))))))))))))))))))))))))))))))))))))))))))))))))))))))))))))))))))))))))))))))))))))))))))))))) :: []),
+           (S (S (S (S (S (S (S (S (S (S (S (S (S (S (S (S (S (S (S (S (S (S
+           (S (S (S (S (S (S (S (S (S (S (S (S (S (S (S (S (S (S (S (S (S (S
+           (S (S (S (S (S (S (S (S (S (S (S (S (S (S (S (S (S
+           O))))))))))))))))))))))))))))))))))))))))))))))))))))))))))))))) :: ((IOp
+           ((t (S (S (S (S (S (S (S (S (S (S (S (S (S (S (S (S (S (S (S (S (S
+              (S (S (S (S (S (S (S (S (S (S (S (S (S (S (S (S (S (S (S (S (S
+              (S (S (S (S (S (S (S (S (S (S (S (S (S (S (S (S (S (S (S (S (S
+              (S (S (S (S (S (S (S (S (S (S (S (S (S (S (S (S (S (S (S (S (S
+              (S (S (S (S (S (S (S (S (S (S (S (S (S (S (S (S (S (S (S (S (S
+              (S (S (S (S (S (S (S (S (S (S (S (S (S (S (S (S (S (S (S (S (S
+              (S (S (S (S (S (S (S (S (S (S (S (S (S (S (S (S (S (S (S (S (S
+              (S (S (S (S (S (S (S (S (S (S (S (S (S (S (S (S (S (S (S (S (S
+              O))))))))))))))))))))))))))))))))))))))))))))))))))))))))))))))))))))))))))))))))))))))))))))))))))))))))))))))))))))))))))))))))))))))))))))))))))))))))))))))))))))))))),
+           ((t (S (S (S (S (S (S (S (S (S (S (S (S (S (S (S (S (S (S (S (S (S
+              (S (S (S (S (S (S (S (S (S (S (S (S (S (S (S (S (S (S (S (S (S
+              (S (S (S (S (S (S (S (S (S (S (S (S (S (S (S (S (S (S (S (S (S
+              (S (S (S (S (S (S (S (S (S (S (S (S (S (S (S (S (S (S (S (S (S
+              (S (S (S (S (S (S (S (S (S (S (S (S (S (S (S (S (S (S (S (S (S
+              (S (S (S (S (S (S (S (S (S (S (S (S (S (S (S (S (S (S (S (S (S
+              (S (S (S (S (S (S (S (S (S (S (S (S (S (S (S (S (S (S (S (S (S
+              (S (S (S (S (S (S (S (S (S (S (S (S (S (S
+              O)))))))))))))))))))))))))))))))))))))))))))))))))))))))))))))))))))))))))))))))))))))))))))))))))))))))))))))))))))))))))))))))))))))))))))))))))))))))))))))))))) :: []),
+           (S (S (S (S (S (S (S (S (S (S (S (S (S (S (S (S (S (S (S (S (S (S
+           (S (S (S (S (S (S (S (S (S (S (S (S (S (S (S (S (S (S (S (S (S (S
+           (S (S (S (S (S (S (S (S (S (S (S (S (S (S (S (S (S (S (S
+           O))))))))))))))))))))))))))))))))))))))))))))))))))))))))))))))))) :: ((IReturn
+           (t (S (S (S (S (S (S (S (S (S (S (S (S (S (S (S (S (S (S (S (S (S
+             (S (S (S (S (S (S (S (S (S (S (S (S (S (S (S (S (S (S (S (S (S
+             (S (S (S (S (S (S (S (S (S (S (S (S (S (S (S (S (S (S (S (S (S
+             (S (S (S (S (S (S (S (S (S (S (S (S (S (S (S (S (S (S (S (S (S
+             (S (S (S (S (S (S (S (S (S (S (S (S (S (S (S (S (S (S (S (S (S
+             (S (S (S (S (S (S (S (S (S (S (S (S (S (S (S (S (S (S (S (S (S
+             (S (S (S (S (S (S (S (S (S (S (S (S (S (S (S (S (S (S (S (S (S
+             (S (S (S (S (S (S (S (S (S (S (S (S (S (S (S (S (S (S (S (S (S
+             O)))))))))))))))))))))))))))))))))))))))))))))))))))))))))))))))))))))))))))))))))))))))))))))))))))))))))))))))))))))))))))))))))))))))))))))))))))))))))))))))))))))))))) :: ((IReturn
+           (t (S (S (S (S (S (S (S (S (S (S (S (S (S (S (S (S (S (S (S (S (S
+             (S (S (S (S (S (S (S (S (S (S (S (S (S (S (S (S (S (S (S (S (S
+             (S (S (S (S (S (S (S (S (S (S (S (S (S (S (S (S (S (S (S (S (S
+             (S (S (S (S (S (S (S (S (S (S (S (S (S (S (S (S (S (S (S (S (S
+             (S (S (S (S (S (S (S (S (S (S (S (S (S (S (S (S (S (S (S (S (S
+             (S (S (S (S (S (S (S (S (S (S (S (S (S (S (S (S (S (S (S (S (S
+             (S (S (S (S (S (S (S (S (S (S (S (S (S (S (S (S (S (S (S (S (S
+             (S (S (S (S (S (S (S (S (S (S (S (S (S
+             O)))))))))))))))))))))))))))))))))))))))))))))))))))))))))))))))))))))))))))))))))))))))))))))))))))))))))))))))))))))))))))))))))))))))))))))))))))))))))))))))))) :: [])))))))
+   | ArchiveRetrieve ->
+     app ((IAsarray (O, O, false)) :: ((IOp ((t O), (O :: []), (S (S (S (S (S
+       (S (S (S (S (S (S (S (S (S (S (S O)))))))))))))))))) :: []))
+       (app
+         (store_retrieve (t O) (S (S (S (S (S (S (S (S (S (S O)))))))))) true)
+         (app ((IOp
+           ((t (S (S (S (S (S (S (S (S (S (S (S (S (S (S (S (S (S (S (S (S
+              O))))))))))))))))))))),
+           ((t (S (S (S (S (S (S (S (S (S (S (S O)))))))))))) :: []), (S (S
+           (S (S (S (S (S (S (S (S (S (S (S (S (S (S (S
+           O))))))))))))))))))) :: [])
+           (app
+             (flat_map (fun r -> (IInplace (r,
+               ((t (S (S (S (S (S (S (S (S (S (S (S (S (S (S (S (S (S (S (S
+                  (S O))))))))))))))))))))) :: []), (S (S (S (S (S (S (S (S
+               (S (S (S (S (S (S (S (S (S (S O)))))))))))))))))))) :: [])
+               ((t
+                  (add (S (S (S (S (S (S (S (S (S (S (S (S O))))))))))))
+                    f_solution)) :: ((t
+                                       (add (S (S (S (S (S (S (S (S (S (S (S
+                                         (S O)))))))))))) f_objective)) :: (
+               (t
+                 (add (S (S (S (S (S (S (S (S (S (S (S (S O))))))))))))
+                   f_measures)) :: ((t
+                                      (add (S (S (S (S (S (S (S (S (S (S (S
+                                        (S O)))))))))))) f_threshold)) :: (
+               (t
+                 (add (S (S (S (S (S (S (S (S (S (S (S (S O))))))))))))
+                   f_extra)) :: ((t (S (S (S (S (S (S (S (S (S (S (S (S (S (S
+                                   (S (S (S O)))))))))))))))))) :: [])))))))
+             (map (fun x -> IReturn x)
+               ((t (S (S (S (S (S (S (S (S (S (S (S O)))))))))))) :: (
+               (t
+                 (add (S (S (S (S (S (S (S (S (S (S (S (S O))))))))))))
+                   f_solution)) :: ((t
+                                      (add (S (S (S (S (S (S (S (S (S (S (S
+                                        (S O)))))))))))) f_objective)) :: (
+               (t
+                 (add (S (S (S (S (S (S (S (S (S (S (S (S O))))))))))))
+                   f_measures)) :: ((t
+                                      (add (S (S (S (S (S (S (S (S (S (S (S
+                                        (S O)))))))))))) f_threshold)) :: (
+               (t
+                 (add (S (S (S (S (S (S (S (S (S (S (S (S O))))))))))))
+                   f_extra)) :: ((t (S (S (S (S (S (S (S (S (S (S (S (S (S (S
+                                   (S (S (S O)))))))))))))))))) :: [])))))))))))
+   | ArchiveRetrieveSingle ->
+     app ((IAsarray (O, O, false)) :: ((IView ((t (S O)), O, true)) :: ((IOp
+       ((t O), ((t (S O)) :: []), (S (S (S (S (S (S (S (S (S (S (S (S (S (S
+       (S (S O)))))))))))))))))) :: [])))
+       (app
+         (store_retrieve (t O) (S (S (S (S (S (S (S (S (S (S O)))))))))) true)
+         (app ((IOp
+           ((t (S (S (S (S (S (S (S (S (S (S (S (S (S (S (S (S (S (S (S (S
+              O))))))))))))))))))))),
+           ((t (S (S (S (S (S (S (S (S (S (S (S O)))))))))))) :: []), (S (S
+           (S (S (S (S (S (S (S (S (S (S (S (S (S (S (S
+           O))))))))))))))))))) :: [])
+           (app
+             (flat_map (fun r -> (IInplace (r,
+               ((t (S (S (S (S (S (S (S (S (S (S (S (S (S (S (S (S (S (S (S
+                  (S O))))))))))))))))))))) :: []), (S (S (S (S (S (S (S (S
+               (S (S (S (S (S (S (S (S (S (S O)))))))))))))))))))) :: [])
+               ((t
+                  (add (S (S (S (S (S (S (S (S (S (S (S (S O))))))))))))
+                    f_solution)) :: ((t
+                                       (add (S (S (S (S (S (S (S (S (S (S (S
+                                         (S O)))))))))))) f_objective)) :: (
+               (t
+                 (add (S (S (S (S (S (S (S (S (S (S (S (S O))))))))))))
+                   f_measures)) :: ((t
+                                      (add (S (S (S (S (S (S (S (S (S (S (S
+                                        (S O)))))))))))) f_threshold)) :: (
+               (t
+                 (add (S (S (S (S (S (S (S (S (S (S (S (S O))))))))))))
+                   f_extra)) :: ((t (S (S (S (S (S (S (S (S (S (S (S (S (S (S
+                                   (S (S (S O)))))))))))))))))) :: [])))))))
+             (app ((ICopy
+               ((t (S (S (S (S (S (S (S (S (S (S (S (S (S (S (S (S (S (S (S
+                  (S (S (S (S (S (S (S (S (S (S (S
+                  O))))))))))))))))))))))))))))))),
+               (t (S (S (S (S (S (S (S (S (S (S (S O)))))))))))))) :: ((IView
+               ((t (S (S (S (S (S (S (S (S (S (S (S (S (S (S (S (S (S (S (S
+                  (S (S (S (S (S (S (S (S (S (S (S (S
+                  O)))))))))))))))))))))))))))))))),
+               (t
+                 (add (S (S (S (S (S (S (S (S (S (S (S (S O))))))))))))
+                   f_solution)), true)) :: ((ICopy
+               ((t (S (S (S (S (S (S (S (S (S (S (S (S (S (S (S (S (S (S (S
+                  (S (S (S (S (S (S (S (S (S (S (S (S (S
+                  O))))))))))))))))))))))))))))))))),
+               (t
+                 (add (S (S (S (S (S (S (S (S (S (S (S (S O))))))))))))
+                   f_objective)))) :: ((IView
+               ((t (S (S (S (S (S (S (S (S (S (S (S (S (S (S (S (S (S (S (S
+                  (S (S (S (S (S (S (S (S (S (S (S (S (S (S
+                  O)))))))))))))))))))))))))))))))))),
+               (t
+                 (add (S (S (S (S (S (S (S (S (S (S (S (S O))))))))))))
+                   f_measures)), true)) :: ((IView
+               ((t (S (S (S (S (S (S (S (S (S (S (S (S (S (S (S (S (S (S (S
+                  (S (S (S (S (S (S (S (S (S (S (S (S (S (S (S
+                  O))))))))))))))))))))))))))))))))))),
+               (t
+                 (add (S (S (S (S (S (S (S (S (S (S (S (S O))))))))))))
+                   f_extra)), true)) :: [])))))
+               (map (fun x -> IReturn x)
+                 ((t (S (S (S (S (S (S (S (S (S (S (S (S (S (S (S (S (S (S (S
+                    (S (S (S (S (S (S (S (S (S (S (S
+                    O))))))))))))))))))))))))))))))) :: ((t (S (S (S (S (S (S
+                                                           (S (S (S (S (S (S
+                                                           (S (S (S (S (S (S
+                                                           (S (S (S (S (S (S
+                                                           (S (S (S (S (S (S
+                                                           (S
+                                                           O)))))))))))))))))))))))))))))))) :: (
+                 (t (S (S (S (S (S (S (S (S (S (S (S (S (S (S (S (S (S (S (S
+                   (S (S (S (S (S (S (S (S (S (S (S (S (S
+                   O))))))))))))))))))))))))))))))))) :: ((t (S (S (S (S (S
+                                                            (S (S (S (S (S (S
+                                                            (S (S (S (S (S (S
+                                                            (S (S (S (S (S (S
+                                                            (S (S (S (S (S (S
+                                                            (S (S (S (S
+                                                            O)))))))))))))))))))))))))))))))))) :: (
+                 (t (S (S (S (S (S (S (S (S (S (S (S (S (S (S (S (S (S (S (S
+                   (S (S (S (S (S (S (S (S (S (S (S (S (S (S (S
+                   O))))))))))))))))))))))))))))))))))) :: []))))))))))
+   | SampleElites ->
+     app ((IGetSelf ((t (S O)), f_olist)) :: ((IView ((t (S O)), (t (S O)),
+       true)) :: ((IReadonly ((t (S O)), (t (S O)))) :: ((IOp ((t (S (S O))),
+       [], (S (S (S (S (S (S (S (S (S (S (S (S (S (S (S (S (S (S (S
+       O))))))))))))))))))))) :: ((IOp ((t (S (S (S O)))),
+       ((t (S O)) :: ((t (S (S O))) :: [])), (S O))) :: [])))))
+       (app
+         (store_retrieve (t (S (S (S O)))) (S (S (S (S (S (S (S (S (S (S
+           O)))))))))) true)
+         (map (fun x -> IReturn x)
+           ((t
+              (add (S (S (S (S (S (S (S (S (S (S (S (S O))))))))))))
+                f_solution)) :: ((t
+                                   (add (S (S (S (S (S (S (S (S (S (S (S (S
+                                     O)))))))))))) f_objective)) :: (
+           (t
+             (add (S (S (S (S (S (S (S (S (S (S (S (S O))))))))))))
+               f_measures)) :: ((t
+                                  (add (S (S (S (S (S (S (S (S (S (S (S (S
+                                    O)))))))))))) f_threshold)) :: ((t
+                                                                    (add (S
+                                                                    (S (S (S
+                                                                    (S (S (S
+                                                                    (S (S (S
+                                                                    (S (S
+                                                                    O))))))))))))
+                                                                    f_extra)) :: (
+           (t (S (S (S (S (S (S (S (S (S (S (S (S (S (S (S (S (S
+             O)))))))))))))))))) :: []))))))))
+   | ArchiveData ->
+     app ((IGetSelf ((t (S O)), f_olist)) :: ((IView ((t (S O)), (t (S O)),
+       true)) :: ((IReadonly ((t (S O)), (t (S O)))) :: [])))
+       (app
+         (store_retrieve (t (S O)) (S (S (S (S (S (S (S (S (S (S O))))))))))
+           true)
+         (match variant with
+          | O ->
+            (IReturn
+              (t
+                (add (S (S (S (S (S (S (S (S (S (S (S (S O))))))))))))
+                  f_solution))) :: ((IReturn
+              (t
+                (add (S (S (S (S (S (S (S (S (S (S (S (S O))))))))))))
+                  f_objective))) :: ((IReturn
+              (t
+                (add (S (S (S (S (S (S (S (S (S (S (S (S O))))))))))))
+                  f_measures))) :: ((IReturn
+              (t
+                (add (S (S (S (S (S (S (S (S (S (S (S (S O))))))))))))
+                  f_threshold))) :: ((IReturn
+              (t
+                (add (S (S (S (S (S (S (S (S (S (S (S (S O))))))))))))
+                  f_extra))) :: ((IReturn
+              (t (S (S (S (S (S (S (S (S (S (S (S (S (S (S (S (S (S
+                O))))))))))))))))))) :: [])))))
+          | S n ->
+            (match n with
+             | O ->
+               (IReturn
+                 (t
+                   (add (S (S (S (S (S (S (S (S (S (S (S (S O))))))))))))
+                     f_solution))) :: ((IReturn
+                 (t
+                   (add (S (S (S (S (S (S (S (S (S (S (S (S O))))))))))))
+                     f_objective))) :: ((IReturn
+                 (t
+                   (add (S (S (S (S (S (S (S (S (S (S (S (S O))))))))))))
+                     f_measures))) :: ((IReturn
+                 (t
+                   (add (S (S (S (S (S (S (S (S (S (S (S (S O))))))))))))
+                     f_threshold))) :: ((IReturn
+                 (t
+                   (add (S (S (S (S (S (S (S (S (S (S (S (S O))))))))))))
+                     f_extra))) :: ((IReturn
+                 (t (S (S (S (S (S (S (S (S (S (S (S (S (S (S (S (S (S
+                   O))))))))))))))))))) :: [])))))
+             | S n0 ->
+               (match n0 with
+                | O ->
+                  (IView
+                    ((t (S (S (S (S (S (S (S (S (S (S (S (S (S (S (S (S (S (S
+                       (S (S (S (S (S (S (S (S (S (S (S (S
+                       O))))))))))))))))))))))))))))))),
+                    (t
+                      (add (S (S (S (S (S (S (S (S (S (S (S (S O))))))))))))
+                        f_solution)), false)) :: ((IView
+                    ((t (S (S (S (S (S (S (S (S (S (S (S (S (S (S (S (S (S (S
+                       (S (S (S (S (S (S (S (S (S (S (S (S (S
+                       O)))))))))))))))))))))))))))))))),
+                    (t
+                      (add (S (S (S (S (S (S (S (S (S (S (S (S O))))))))))))
+                        f_measures)), false)) :: ((IReturn
+                    (t (S (S (S (S (S (S (S (S (S (S (S (S (S (S (S (S (S (S
+                      (S (S (S (S (S (S (S (S (S (S (S (S
+                      O)))))))))))))))))))))))))))))))) :: ((IReturn
+                    (t (S (S (S (S (S (S (S (S (S (S (S (S (S (S (S (S (S (S
+                      (S (S (S (S (S (S (S (S (S (S (S (S (S
+                      O))))))))))))))))))))))))))))))))) :: ((IReturn
+                    (t
+                      (add (S (S (S (S (S (S (S (S (S (S (S (S O))))))))))))
+                        f_objective))) :: ((IReturn
+                    (t (S (S (S (S (S (S (S (S (S (S (S (S (S (S (S (S (S
+                      O))))))))))))))))))) :: ((ICopy
+                    ((t (S (S (S (S (S (S (S (S (S (S (S (S (S (S (S (S (S (S
+                       (S (S (S (S (S (S (S (S (S (S (S (S (S (S
+                       O))))))))))))))))))))))))))))))))),
+                    (t (S (S (S (S (S (S (S (S (S (S (S (S (S (S (S (S (S (S
+                      (S (S (S (S (S (S (S (S (S (S (S (S
+                      O))))))))))))))))))))))))))))))))) :: ((IReturn
+                    (t (S (S (S (S (S (S (S (S (S (S (S (S (S (S (S (S (S (S
+                      (S (S (S (S (S (S (S (S (S (S (S (S (S (S
+                      O)))))))))))))))))))))))))))))))))) :: [])))))))
+                | S n1 ->
+                  (match n1 with
+                   | O ->
+                     (IReturn
+                       (t
+                         (add (S (S (S (S (S (S (S (S (S (S (S (S
+                           O)))))))))))) f_solution))) :: []
+                   | S _ ->
+                     (IReturn
+                       (t
+                         (add (S (S (S (S (S (S (S (S (S (S (S (S
+                           O)))))))))))) f_solution))) :: ((IReturn
+                       (t
+                         (add (S (S (S (S (S (S (S (S (S (S (S (S
+                           O)))))))))))) f_objective))) :: ((IReturn
+                       (t
+                         (add (S (S (S (S (S (S (S (S (S (S (S (S
+                           O)))))))))))) f_measures))) :: ((IReturn
+                       (t
+                         (add (S (S (S (S (S (S (S (S (S (S (S (S
+                           O)))))))))))) f_threshold))) :: ((IReturn
+                       (t
+                         (add (S (S (S (S (S (S (S (S (S (S (S (S
+                           O)))))))))))) f_extra))) :: ((IReturn
+                       (t (S (S (S (S (S (S (S (S (S (S (S (S (S (S (S (S (S
+                         O))))))))))))))))))) :: []))))))))))
+   | BestElite ->
+     if Nat.eqb variant O
+     then (IGetSelf ((t (S O)), f_i6)) :: ((IReturn (t (S O))) :: [])
+     else []
+   | ArchiveIter ->
+     app ((IGetSelf ((t (S O)), f_olist)) :: ((ICopy ((t (S (S O))),
+       (t (S O)))) :: ((IGetSelf ((t (S (S (S O)))),
+       f_solution)) :: ((IGetSelf ((t (S (S (S (S O))))),
+       f_objective)) :: ((IGetSelf ((t (S (S (S (S (S O)))))),
+       f_measures)) :: ((IGetSelf ((t (S (S (S (S (S (S O))))))),
+       f_extra)) :: []))))))
+       (app
+         (if copy
+          then (ICopy ((t (S (S (S O)))), (t (S (S (S O)))))) :: ((ICopy
+                 ((t (S (S (S (S (S O)))))),
+                 (t (S (S (S (S (S O)))))))) :: ((ICopy
+                 ((t (S (S (S (S (S (S O))))))),
+                 (t (S (S (S (S (S (S O))))))))) :: []))
+          else (IView ((t (S (S (S O)))), (t (S (S (S O)))),
+                 true)) :: ((IView ((t (S (S (S (S (S O)))))),
+                 (t (S (S (S (S (S O)))))), true)) :: ((IView
+                 ((t (S (S (S (S (S (S O))))))),
+                 (t (S (S (S (S (S (S O))))))), true)) :: []))) ((ICopy
+         ((t (S (S (S (S O))))), (t (S (S (S (S O))))))) :: ((IReturn
+         (t (S (S O)))) :: ((IReturn (t (S (S (S O))))) :: ((IReturn
+         (t (S (S (S (S O)))))) :: ((IReturn
+         (t (S (S (S (S (S O))))))) :: ((IReturn
+         (t (S (S (S (S (S (S O)))))))) :: [])))))))
+   | IndexOf ->
+     app ((IAsarray (O, O, false)) :: [])
+       (app
+         (match variant with
+          | O ->
+            (IOp ((t (S O)), (O :: []), (S (S (S (S (S (S (S (S (S (S (S (S
+              (S (S (S (S (S (S (S (S (S (S (S (S (S (S (S (S (S (S (S (S (S
+              (S (S (S (S (S (S (S (S (S (S (S (S (S (S (S (S (S (S (S (S (S
+              (S (S (S (S (S (S (S (S (S (S (S (S (S (S (S (S (S (S (S (S (S
+              (S
+              O)))))))))))))))))))))))))))))))))))))))))))))))))))))))))))))))))))))))))))))) :: ((IOp
+              ((t (S (S (S (S O))))), ((t (S O)) :: []), (S (S (S (S (S (S (S
+              (S (S (S (S (S (S (S (S (S (S (S (S (S (S (S (S (S (S (S (S (S
+              (S (S (S (S (S (S (S (S (S (S (S (S (S (S (S (S (S (S (S (S (S
+              (S (S (S (S (S (S (S (S (S (S (S (S (S (S (S (S (S (S (S (S (S
+              (S (S (S (S (S (S (S
+              O))))))))))))))))))))))))))))))))))))))))))))))))))))))))))))))))))))))))))))))) :: [])
+          | S n ->
+            (match n with
+             | O ->
+               (IGetSelf ((t (S (S O))), f_i5)) :: ((IOp ((t (S (S (S O)))),
+                 (O :: ((t (S (S O))) :: [])), (S (S (S (S (S (S (S (S (S (S
+                 (S (S (S (S (S (S (S (S (S (S (S (S (S (S (S (S (S (S (S (S
+                 (S (S (S (S (S (S (S (S (S (S (S (S (S (S (S (S (S (S (S (S
+                 (S (S (S (S (S (S (S (S (S (S (S (S (S (S (S (S (S (S (S (S
+                 (S (S
+                 O)))))))))))))))))))))))))))))))))))))))))))))))))))))))))))))))))))))))))) :: ((IOp
+                 ((t (S (S (S (S O))))), ((t (S (S (S O)))) :: []), (S (S (S
+                 (S (S (S (S (S (S (S (S (S (S (S (S (S (S (S (S (S (S (S (S
+                 (S (S (S (S (S (S (S (S (S (S (S (S (S (S (S (S (S (S (S (S
+                 (S (S (S (S (S (S (S (S (S (S (S (S (S (S (S (S (S (S (S (S
+                 (S (S (S (S (S (S (S (S (S (S
+                 O))))))))))))))))))))))))))))))))))))))))))))))))))))))))))))))))))))))))))) :: []))
+             | S n0 ->
+               (match n0 with
+                | O ->
+                  (IView ((t (S O)), O, true)) :: ((IGetSelf ((t (S (S O))),
+                    f_i0)) :: ((IOp ((t (S (S (S O)))),
+                    ((t (S O)) :: ((t (S (S O))) :: [])), (S (S (S (S (S (S
+                    (S (S (S (S (S (S (S (S (S (S (S (S (S (S (S (S (S (S (S
+                    (S (S (S (S (S (S (S (S (S (S (S (S (S (S (S (S (S (S (S
+                    (S (S (S (S (S (S (S (S (S (S (S (S (S (S (S (S (S (S (S
+                    (S (S (S (S (S (S (S
+                    O)))))))))))))))))))))))))))))))))))))))))))))))))))))))))))))))))))))))) :: ((IOp
+                    ((t (S (S (S (S O))))), ((t (S (S (S O)))) :: []), (S (S
+                    (S (S (S (S (S (S (S (S (S (S (S (S (S (S (S (S (S (S (S
+                    (S (S (S (S (S (S (S (S (S (S (S (S (S (S (S (S (S (S (S
+                    (S (S (S (S (S (S (S (S (S (S (S (S (S (S (S (S (S (S (S
+                    (S (S (S (S (S (S (S (S (S (S (S (S
+                    O))))))))))))))))))))))))))))))))))))))))))))))))))))))))))))))))))))))))) :: [])))
+                | S n1 ->
+                  (match n1 with
+                   | O ->
+                     (IOp ((t (S O)), (O :: []), (S (S (S (S (S (S (S (S (S
+                       (S (S (S (S (S (S (S (S (S (S (S (S (S (S (S (S (S (S
+                       (S (S (S (S (S (S (S (S (S (S (S (S (S (S (S (S (S (S
+                       (S (S (S (S (S (S (S (S (S (S (S (S (S (S (S (S (S (S
+                       (S (S (S (S (S (S (S (S (S (S (S
+                       O)))))))))))))))))))))))))))))))))))))))))))))))))))))))))))))))))))))))))))) :: ((IView
+                       ((t (S (S O))), (t (S O)), false)) :: ((IOp
+                       ((t (S (S (S (S O))))), ((t (S (S O))) :: []), (S (S
+                       (S (S (S (S (S (S (S (S (S (S (S (S (S (S (S (S (S (S
+                       (S (S (S (S (S (S (S (S (S (S (S (S (S (S (S (S (S (S
+                       (S (S (S (S (S (S (S (S (S (S (S (S (S (S (S (S (S (S
+                       (S (S (S (S (S (S (S (S (S (S (S (S (S (S (S (S (S (S
+                       (S
+                       O))))))))))))))))))))))))))))))))))))))))))))))))))))))))))))))))))))))))))))) :: []))
+                   | S n2 ->
+                     (match n2 with
+                      | O ->
+                        (IGetSelf ((t (S (S O))), f_i5)) :: ((IOp
+                          ((t (S (S (S O)))), (O :: ((t (S (S O))) :: [])),
+                          (S (S (S (S (S (S (S (S (S (S (S (S (S (S (S (S (S
+                          (S (S (S (S (S (S (S (S (S (S (S (S (S (S (S (S (S
+                          (S (S (S (S (S (S (S (S (S (S (S (S (S (S (S (S (S
+                          (S (S (S (S (S (S (S (S (S (S (S (S (S (S (S (S (S
+                          (S (S (S (S
+                          O)))))))))))))))))))))))))))))))))))))))))))))))))))))))))))))))))))))))))) :: ((IOp
+                          ((t (S (S (S (S O))))), ((t (S (S (S O)))) :: []),
+                          (S (S (S (S (S (S (S (S (S (S (S (S (S (S (S (S (S
+                          (S (S (S (S (S (S (S (S (S (S (S (S (S (S (S (S (S
+                          (S (S (S (S (S (S (S (S (S (S (S (S (S (S (S (S (S
+                          (S (S (S (S (S (S (S (S (S (S (S (S (S (S (S (S (S
+                          (S (S (S (S (S
+                          O))))))))))))))))))))))))))))))))))))))))))))))))))))))))))))))))))))))))))) :: []))
+                      | S _ ->
+                        (IOp ((t (S O)), (O :: []), (S (S (S (S (S (S (S (S
+                          (S (S (S (S (S (S (S (S (S (S (S (S (S (S (S (S (S
+                          (S (S (S (S (S (S (S (S (S (S (S (S (S (S (S (S (S
+                          (S (S (S (S (S (S (S (S (S (S (S (S (S (S (S (S (S
+                          (S (S (S (S (S (S (S (S (S (S (S (S (S (S (S (S (S
+                          O)))))))))))))))))))))))))))))))))))))))))))))))))))))))))))))))))))))))))))))) :: ((IOp
+                          ((t (S (S (S (S O))))), ((t (S O)) :: []), (S (S (S
+                          (S (S (S (S (S (S (S (S (S (S (S (S (S (S (S (S (S
+                          (S (S (S (S (S (S (S (S (S (S (S (S (S (S (S (S (S
+                          (S (S (S (S (S (S (S (S (S (S (S (S (S (S (S (S (S
+                          (S (S (S (S (S (S (S (S (S (S (S (S (S (S (S (S (S
+                          (S (S (S (S (S (S
+                          O))))))))))))))))))))))))))))))))))))))))))))))))))))))))))))))))))))))))))))))) :: []))))))
+         ((IReturn (t (S (S (S (S O)))))) :: []))
+   | IndexOfSingle ->
+     (IAsarray (O, O, false)) :: ((IView ((t (S O)), O, true)) :: ((IAsarray
+       ((t (S O)), (t (S O)), false)) :: ((IOp ((t (S (S (S O)))),
+       ((t (S O)) :: []), (S (S (S (S (S (S (S (S (S (S (S (S (S (S (S (S
+       O)))))))))))))))))) :: ((ICopy ((t (S (S (S (S O))))),
+       (t (S (S (S O)))))) :: ((IReturn (t (S (S (S (S O)))))) :: [])))))
+   | CVTCtorCentroids ->
+     app
+       (if copy
+        then (ICopy ((t (S O)), O)) :: []
+        else (IAsarray ((t (S O)), O, true)) :: []) ((ISetSelf (f_new0,
+       (t (S O)))) :: ((IView ((t (S (S O))), (t (S O)), true)) :: ((ISetSelf
+       (f_new1, (t (S (S O))))) :: [])))
+   | CVTCtorSamples ->
+     app
+       (if copy
+        then (ICopy ((t (S O)), O)) :: []
+        else (IAsarray ((t (S O)), O, true)) :: []) ((ISetSelf (f_new0,
+       (t (S O)))) :: ((IOp ((t (S (S O))), ((t (S O)) :: []), (S (S (S (S (S
+       (S (S (S (S (S (S (S (S (S (S (S (S (S (S (S (S (S (S (S (S (S (S (S
+       (S (S (S (S (S (S (S (S (S (S (S (S (S (S (S (S (S (S (S (S (S (S (S
+       (S (S (S (S (S (S (S (S (S (S (S (S (S (S (S (S (S (S (S (S (S (S (S
+       (S (S (S (S (S (S
+       O)))))))))))))))))))))))))))))))))))))))))))))))))))))))))))))))))))))))))))))))))) :: ((ISetSelf
+       (f_new1, (t (S (S O))))) :: ((IView ((t (S (S (S O)))), (t (S (S O))),
+       true)) :: ((ISetSelf (f_new2, (t (S (S (S O)))))) :: [])))))
+   | GridCtor ->
+     (ICopy ((t (S O)), O)) :: ((ISetSelf (f_new0, (t (S O)))) :: ((IOp
+       ((t (S (S O))), ((S O) :: []), (S (S (S (S (S (S (S (S (S (S (S (S (S
+       (S (S (S (S (S (S (S (S (S (S (S (S (S (S (S (S (S (S (S (S (S (S (S
+       (S (S (S (S (S (S (S (S (S (S (S (S (S (S (S (S (S (S (S (S (S (S (S
+       (S (S (S (S (S (S (S (S (S (S (S (S (S (S (S (S (S (S (S (S (S (S
+       O))))))))))))))))))))))))))))))))))))))))))))))))))))))))))))))))))))))))))))))))))) :: ((IOp
+       ((t (S (S (S O)))), ((S O) :: []), (S (S (S (S (S (S (S (S (S (S (S (S
+       (S (S (S (S (S (S (S (S (S (S (S (S (S (S (S (S (S (S (S (S (S (S (S
+       (S (S (S (S (S (S (S (S (S (S (S (S (S (S (S (S (S (S (S (S (S (S (S
+       (S (S (S (S (S (S (S (S (S (S (S (S (S (S (S (S (S (S (S (S (S (S (S
+       O))))))))))))))))))))))))))))))))))))))))))))))))))))))))))))))))))))))))))))))))))) :: ((ISetSelf
+       (f_new1, (t (S (S O))))) :: ((ISetSelf (f_new2,
+       (t (S (S (S O)))))) :: ((IOp ((t (S (S (S (S O))))),
+       ((t (S (S O))) :: ((t (S (S (S O)))) :: [])), (S (S (S (S (S (S (S (S
+       (S (S (S (S (S (S (S (S (S (S (S (S (S (S (S (S (S (S (S (S (S (S (S
+       (S (S (S (S (S (S (S (S (S (S (S (S (S (S (S (S (S (S (S (S (S (S (S
+       (S (S (S (S (S (S (S (S (S (S (S (S (S (S (S (S (S (S (S (S (S (S (S
+       (S (S (S (S (S
+       O)))))))))))))))))))))))))))))))))))))))))))))))))))))))))))))))))))))))))))))))))))) :: ((ISetSelf
+       (f_new3, (t (S (S (S (S O))))))) :: [])))))))
+   | CqdScore ->
+     (ICopy ((t (S O)), O)) :: ((ICopy ((t (S (S O))), (S O))) :: ((IGetSelf
+       ((t (S (S (S O)))), f_objective)) :: ((IOp ((t (S (S (S (S O))))),
+       ((t (S (S (S O)))) :: []), (S O))) :: ((IOp
+       ((t (S (S (S (S (S O)))))),
+       ((t (S (S (S (S O))))) :: ((t (S O)) :: ((t (S (S O))) :: []))), (S (S
+       (S (S (S (S (S (S (S (S (S (S (S (S (S (S (S (S (S (S (S (S (S (S (S
+       (S (S (S (S (S (S (S (S (S (S (S (S (S (S (S (S (S (S (S (S (S (S (S
+       (S (S (S (S (S (S (S (S (S (S (S (S (S (S (S (S (S (S (S (S (S (S (S
+       (S (S (S (S (S (S (S (S (S (S (S (S
+       O))))))))))))))))))))))))))))))))))))))))))))))))))))))))))))))))))))))))))))))))))))) :: ((IReturn
+       (t (S (S (S (S (S O))))))) :: ((IReturn (t (S O))) :: ((IReturn
+       (t (S (S O)))) :: [])))))))
+   | ComputeNovelty ->
+     app ((IAsarray (O, O, false)) :: [])
+       (app
+         (if Nat.eqb variant (S O)
+          then (IAsarray ((S O), (S O), false)) :: []
+          else [])
+         (app ((IGetSelf ((t (S O)), f_i5)) :: ((IOp ((t (S (S O))),
+           (O :: ((t (S O)) :: [])), (S (S (S (S (S (S (S (S (S (S (S (S (S
+           (S (S (S (S (S (S (S (S (S (S (S (S (S (S (S (S (S (S (S (S (S (S
+           (S (S (S (S (S (S (S (S (S (S (S (S (S (S (S (S (S (S (S (S (S (S
+           (S (S (S (S (S (S (S (S (S (S (S (S (S (S (S
+           O)))))))))))))))))))))))))))))))))))))))))))))))))))))))))))))))))))))))))) :: ((IOp
+           ((t (S (S (S O)))), ((t (S (S O))) :: []), (S (S (S (S (S (S (S (S
+           (S (S (S (S (S (S (S (S (S (S (S (S (S (S (S (S (S (S (S (S (S (S
+           (S (S (S (S (S (S (S (S (S (S (S (S (S (S (S (S (S (S (S (S (S (S
+           (S (S (S (S (S (S (S (S (S (S (S (S (S (S (S (S (S (S (S (S (S (S
+           (S (S (S (S (S (S (S (S (S (S
+           O)))))))))))))))))))))))))))))))))))))))))))))))))))))))))))))))))))))))))))))))))))))) :: ((IReturn
+           (t (S (S (S O))))) :: []))))
+           (if Nat.eqb variant (S O)
+            then (IOp ((t (S (S (S (S O))))), ((S
+                   O) :: ((t (S (S O))) :: [])), (S (S (S (S (S (S (S (S (S
+                   (S (S (S (S (S (S (S (S (S (S (S (S (S (S (S (S (S (S (S
+                   (S (S (S (S (S (S (S (S (S (S (S (S (S (S (S (S (S (S (S
+                   (S (S (S (S (S (S (S (S (S (S (S (S (S (S (S (S (S (S (S
+                   (S (S (S (S (S (S (S (S (S (S (S (S (S (S (S (S (S (S (S
+                   O))))))))))))))))))))))))))))))))))))))))))))))))))))))))))))))))))))))))))))))))))))))) :: ((IReturn
+                   (t (S (S (S (S O)))))) :: [])
+            else [])))
+   | GaussianCtor ->
+     app ((ICopy
+       ((t (S (S (S (S (S (S (S (S (S (S (S (S (S (S (S (S (S (S (S
+          O)))))))))))))))))))), O)) :: ((ISetSelf (f_new4,
+       (t (S (S (S (S (S (S (S (S (S (S (S (S (S (S (S (S (S (S (S
+         O)))))))))))))))))))))) :: []))
+       (app (emitter_start copy (Nat.eqb variant (S O)) (S O))
+         (emitter_bounds (S (S O))))
+   | IsoLineCtor ->
+     app (emitter_start copy (Nat.eqb variant (S O)) O) (emitter_bounds (S O))
+   | ESCtor ->
+     app (emitter_start copy false O)
+       (app (emitter_bounds (S O)) ((IGetSelf
+         ((t (S (S (S (S (S (S (S (S (S (S (S (S (S (S (S (S (S (S (S (S (S
+            (S (S O)))))))))))))))))))))))), f_new0)) :: ((ICopy
+         ((t (S (S (S (S (S (S (S (S (S (S (S (S (S (S (S (S (S (S (S (S (S
+            (S (S (S O))))))))))))))))))))))))),
+         (t (S (S (S (S (S (S (S (S (S (S (S (S (S (S (S (S (S (S (S (S (S (S
+           (S O)))))))))))))))))))))))))) :: ((ISetSelf (f_new4,
+         (t (S (S (S (S (S (S (S (S (S (S (S (S (S (S (S (S (S (S (S (S (S (S
+           (S (S O))))))))))))))))))))))))))) :: []))))
+   | GAECtor ->
+     app (emitter_start copy false O) ((IGetSelf
+       ((t (S (S (S (S (S (S (S (S (S (S (S (S (S (S (S (S (S (S (S (S (S (S
+          (S O)))))))))))))))))))))))), f_new0)) :: ((ICopy
+       ((t (S (S (S (S (S (S (S (S (S (S (S (S (S (S (S (S (S (S (S (S (S (S
+          (S (S O))))))))))))))))))))))))),
+       (t (S (S (S (S (S (S (S (S (S (S (S (S (S (S (S (S (S (S (S (S (S (S
+         (S O)))))))))))))))))))))))))) :: ((ISetSelf (f_new4,
+       (t (S (S (S (S (S (S (S (S (S (S (S (S (S (S (S (S (S (S (S (S (S (S
+         (S (S O))))))))))))))))))))))))))) :: [])))
+   | GOECtor ->
+     app (emitter_start copy (Nat.eqb variant (S O)) O)
+       (app (emitter_bounds (S O)) ((ICopy
+         ((t (S (S (S (S (S (S (S (S (S (S (S (S (S (S (S (S (S (S (S
+            O)))))))))))))))))))), (S (S O)))) :: ((ISetSelf (f_new4,
+         (t (S (S (S (S (S (S (S (S (S (S (S (S (S (S (S (S (S (S (S
+           O)))))))))))))))))))))) :: [])))
+   | GACtor ->
+     app (emitter_start copy (Nat.eqb variant (S O)) O)
+       (app (emitter_bounds (S O))
+         (app
+           (if copy
+            then (ICopy
+                   ((t (S (S (S (S (S (S (S (S (S (S (S (S (S (S (S (S (S (S
+                      (S O)))))))))))))))))))), (S (S O)))) :: []
+            else (IMove
+                   ((t (S (S (S (S (S (S (S (S (S (S (S (S (S (S (S (S (S (S
+                      (S O)))))))))))))))))))), (S (S O)))) :: []) ((ISetSelf
+           (f_new4,
+           (t (S (S (S (S (S (S (S (S (S (S (S (S (S (S (S (S (S (S (S
+             O)))))))))))))))))))))) :: [])))
+   | BaseTell -> emitter_tell O false (seq O nargs)
+   | ESTell -> emitter_tell (S O) (Nat.eqb variant (S O)) (seq O nargs)
+   | GAETell -> emitter_tell (S (S O)) (Nat.eqb variant (S O)) (seq O nargs)
+   | GAETellDqd ->
+     tell_dqd copy (Nat.eqb variant (S O)) (seq O nargs) (S (S (S O)))
+   | GOETellDqd ->
+     tell_dqd copy (Nat.eqb variant (S O)) (seq O nargs) (S (S (S O)))
+   | SchedTell ->
+     let ev = opt_ev e nargs (S (S O)) in
+     app ((IAsarray (O, O, false)) :: ((IAsarray ((S O), (S O),
+       false)) :: []))
+       (app
+         (match ev with
+          | Some r -> (IAsarray (r, r, false)) :: []
+          | None -> [])
+         (app
+           (sched_archive_add copy (Nat.div variant (S (S O)))
+             (Nat.eqb (Nat.modulo variant (S (S O))) (S O)) O (S O) ev)
+           (app (sched_emitter_slices O (S O) ev)
+             (emitter_tell (S O) false
+               (app
+                 ((t (S (S (S (S (S (S (S (S (S (S (S (S (S (S (S (S (S (S (S
+                    (S (S (S (S (S (S (S (S (S (S (S (S (S (S (S (S (S (S (S
+                    (S (S (S (S (S (S (S (S (S (S (S (S (S (S (S (S (S (S (S
+                    (S (S (S (S (S (S (S (S (S (S (S (S (S (S (S (S (S (S (S
+                    (S (S (S (S (S (S (S (S (S (S (S (S (S (S (S (S (S (S (S
+                    (S (S (S (S (S (S (S (S (S (S (S (S (S (S (S (S (S (S (S
+                    (S (S (S (S (S (S (S (S (S (S (S (S (S (S (S (S
+                    O))))))))))))))))))))))))))))))))))))))))))))))))))))))))))))))))))))))))))))))))))))))))))))))))))))))))))))))))))))))))))))))))))) :: (
+                 (t (S (S (S (S (S (S (S (S (S (S (S (S (S (S (S (S (S (S (S
+                   (S (S (S (S (S (S (S (S (S (S (S (S (S (S (S (S (S (S (S
+                   (S (S (S (S (S (S (S (S (S (S (S (S (S (S (S (S (S (S (S
+                   (S (S (S (S (S (S (S (S (S (S (S (S (S (S (S (S (S (S (S
+                   (S (S (S (S (S (S (S (S (S (S (S (S (S (S (S (S (S (S (S
+                   (S (S (S (S (S (S (S (S (S (S (S (S (S (S (S (S (S (S (S
+                   (S (S (S (S (S (S (S (S (S (S (S (S (S (S (S (S (S
+                   O)))))))))))))))))))))))))))))))))))))))))))))))))))))))))))))))))))))))))))))))))))))))))))))))))))))))))))))))))))))))))))))))))))) :: (
+                 (t (S (S (S (S (S (S (S (S (S (S (S (S (S (S (S (S (S (S (S
+                   (S (S (S (S (S (S (S (S (S (S (S (S (S (S (S (S (S (S (S
+                   (S (S (S (S (S (S (S (S (S (S (S (S (S (S (S (S (S (S (S
+                   (S (S (S (S (S (S (S (S (S (S (S (S (S (S (S (S (S (S (S
+                   (S (S (S (S (S (S (S (S (S (S (S (S (S (S (S (S (S (S (S
+                   (S (S (S (S (S (S (S (S (S (S (S (S (S (S (S (S (S (S (S
+                   (S (S (S (S (S (S (S (S (S (S (S (S (S (S (S (S (S (S
+                   O))))))))))))))))))))))))))))))))))))))))))))))))))))))))))))))))))))))))))))))))))))))))))))))))))))))))))))))))))))))))))))))))))))) :: (
+                 (t (S (S (S (S (S (S (S (S (S (S (S (S (S (S (S (S (S (S (S
+                   (S (S (S (S (S (S (S (S (S (S (S (S (S (S (S (S (S (S (S
+                   (S (S (S (S (S (S (S (S (S (S (S (S (S (S (S (S (S (S (S
+                   (S (S (S (S (S (S (S (S (S (S (S (S (S (S (S (S (S (S (S
+                   (S (S (S (S (S (S (S (S (S (S (S (S (S (S (S (S (S (S (S
+                   (S (S (S (S (S (S (S (S (S (S (S (S (S (S (S (S (S (S (S
+                   (S (S (S (S (S (S (S (S (S (S (S (S (S (S (S (S (S (S (S
+                   (S
+                   O))))))))))))))))))))))))))))))))))))))))))))))))))))))))))))))))))))))))))))))))))))))))))))))))))))))))))))))))))))))))))))))))))))))) :: (
+                 (t (S (S (S (S (S (S (S (S (S (S (S (S (S (S (S (S (S (S (S
+                   (S (S (S (S (S (S (S (S (S (S (S (S (S (S (S (S (S (S (S
+                   (S (S (S (S (S (S (S (S (S (S (S (S (S (S (S (S (S (S (S
+                   (S (S (S (S (S (S (S (S (S (S (S (S (S (S (S (S (S (S (S
+                   (S (S (S (S (S (S (S (S (S (S (S (S (S (S (S (S (S (S (S
+                   (S (S (S (S (S (S (S (S (S (S (S (S (S (S (S (S (S (S (S
+                   (S (S (S (S (S (S (S (S (S (S (S (S (S (S (S (S (S (S (S
+                   (S (S
+                   O)))))))))))))))))))))))))))))))))))))))))))))))))))))))))))))))))))))))))))))))))))))))))))))))))))))))))))))))))))))))))))))))))))))))) :: [])))))
+                 (match ev with
+                  | Some _ ->
+                    (t (S (S (S (S (S (S (S (S (S (S (S (S (S (S (S (S (S (S
+                      (S (S (S (S (S (S (S (S (S (S (S (S (S (S (S (S (S (S
+                      (S (S (S (S (S (S (S (S (S (S (S (S (S (S (S (S (S (S
+                      (S (S (S (S (S (S (S (S (S (S (S (S (S (S (S (S (S (S
+                      (S (S (S (S (S (S (S (S (S (S (S (S (S (S (S (S (S (S
+                      (S (S (S (S (S (S (S (S (S (S (S (S (S (S (S (S (S (S
+                      (S (S (S (S (S (S (S (S (S (S (S (S (S (S (S (S (S (S
+                      (S (S (S (S (S (S (S
+                      O)))))))))))))))))))))))))))))))))))))))))))))))))))))))))))))))))))))))))))))))))))))))))))))))))))))))))))))))))))))))))))))))))))))) :: []
+                  | None -> []))))))
+   | SchedTellDqd ->
+     let ev = opt_ev e nargs (S (S (S O))) in
+     app ((IAsarray (O, O, false)) :: ((IAsarray ((S O), (S O),
+       false)) :: []))
+       (app
+         (match ev with
+          | Some r -> (IAsarray (r, r, false)) :: []
+          | None -> [])
+         (app ((IAsarray ((S (S O)), (S (S O)), false)) :: [])
+           (app
+             (sched_archive_add copy (Nat.div variant (S (S O)))
+               (Nat.eqb (Nat.modulo variant (S (S O))) (S O)) O (S O) ev)
+             (app (sched_emitter_slices O (S O) ev)
+               (app ((IView
+                 ((t (S (S (S (S (S (S (S (S (S (S (S (S (S (S (S (S (S (S (S
+                    (S (S (S (S (S (S (S (S (S (S (S (S (S (S (S (S (S (S (S
+                    (S (S (S (S (S (S (S (S (S (S (S (S (S (S (S (S (S (S (S
+                    (S (S (S (S (S (S (S (S (S (S (S (S (S (S (S (S (S (S (S
+                    (S (S (S (S (S (S (S (S (S (S (S (S (S (S (S (S (S (S (S
+                    (S (S (S (S (S (S (S (S (S (S (S (S (S (S (S (S (S (S (S
+                    (S (S (S (S (S (S (S (S (S (S (S (S (S (S (S (S (S (S (S
+                    (S (S (S
+                    O))))))))))))))))))))))))))))))))))))))))))))))))))))))))))))))))))))))))))))))))))))))))))))))))))))))))))))))))))))))))))))))))))))))))),
+                 (S (S O)), true)) :: [])
+                 (tell_dqd copy true
+                   (app
+                     ((t (S (S (S (S (S (S (S (S (S (S (S (S (S (S (S (S (S
+                        (S (S (S (S (S (S (S (S (S (S (S (S (S (S (S (S (S (S
+                        (S (S (S (S (S (S (S (S (S (S (S (S (S (S (S (S (S (S
+                        (S (S (S (S (S (S (S (S (S (S (S (S (S (S (S (S (S (S
+                        (S (S (S (S (S (S (S (S (S (S (S (S (S (S (S (S (S (S
+                        (S (S (S (S (S (S (S (S (S (S (S (S (S (S (S (S (S (S
+                        (S (S (S (S (S (S (S (S (S (S (S (S (S (S (S (S (S (S
+                        (S (S (S (S (S
+                        O))))))))))))))))))))))))))))))))))))))))))))))))))))))))))))))))))))))))))))))))))))))))))))))))))))))))))))))))))))))))))))))))))) :: (
+                     (t (S (S (S (S (S (S (S (S (S (S (S (S (S (S (S (S (S (S
+                       (S (S (S (S (S (S (S (S (S (S (S (S (S (S (S (S (S (S
+                       (S (S (S (S (S (S (S (S (S (S (S (S (S (S (S (S (S (S
+                       (S (S (S (S (S (S (S (S (S (S (S (S (S (S (S (S (S (S
+                       (S (S (S (S (S (S (S (S (S (S (S (S (S (S (S (S (S (S
+                       (S (S (S (S (S (S (S (S (S (S (S (S (S (S (S (S (S (S
+                       (S (S (S (S (S (S (S (S (S (S (S (S (S (S (S (S (S (S
+                       (S (S (S (S (S
+                       O)))))))))))))))))))))))))))))))))))))))))))))))))))))))))))))))))))))))))))))))))))))))))))))))))))))))))))))))))))))))))))))))))))) :: (
+                     (t (S (S (S (S (S (S (S (S (S (S (S (S (S (S (S (S (S (S
+                       (S (S (S (S (S (S (S (S (S (S (S (S (S (S (S (S (S (S
+                       (S (S (S (S (S (S (S (S (S (S (S (S (S (S (S (S (S (S
+                       (S (S (S (S (S (S (S (S (S (S (S (S (S (S (S (S (S (S
+                       (S (S (S (S (S (S (S (S (S (S (S (S (S (S (S (S (S (S
+                       (S (S (S (S (S (S (S (S (S (S (S (S (S (S (S (S (S (S
+                       (S (S (S (S (S (S (S (S (S (S (S (S (S (S (S (S (S (S
+                       (S (S (S (S (S (S
+                       O))))))))))))))))))))))))))))))))))))))))))))))))))))))))))))))))))))))))))))))))))))))))))))))))))))))))))))))))))))))))))))))))))))) :: (
+                     (t (S (S (S (S (S (S (S (S (S (S (S (S (S (S (S (S (S (S
+                       (S (S (S (S (S (S (S (S (S (S (S (S (S (S (S (S (S (S
+                       (S (S (S (S (S (S (S (S (S (S (S (S (S (S (S (S (S (S
+                       (S (S (S (S (S (S (S (S (S (S (S (S (S (S (S (S (S (S
+                       (S (S (S (S (S (S (S (S (S (S (S (S (S (S (S (S (S (S
+                       (S (S (S (S (S (S (S (S (S (S (S (S (S (S (S (S (S (S
+                       (S (S (S (S (S (S (S (S (S (S (S (S (S (S (S (S (S (S
+                       (S (S (S (S (S (S (S (S (S (S
+                       O))))))))))))))))))))))))))))))))))))))))))))))))))))))))))))))))))))))))))))))))))))))))))))))))))))))))))))))))))))))))))))))))))))))))) :: (
+                     (t (S (S (S (S (S (S (S (S (S (S (S (S (S (S (S (S (S (S
+                       (S (S (S (S (S (S (S (S (S (S (S (S (S (S (S (S (S (S
+                       (S (S (S (S (S (S (S (S (S (S (S (S (S (S (S (S (S (S
+                       (S (S (S (S (S (S (S (S (S (S (S (S (S (S (S (S (S (S
+                       (S (S (S (S (S (S (S (S (S (S (S (S (S (S (S (S (S (S
+                       (S (S (S (S (S (S (S (S (S (S (S (S (S (S (S (S (S (S
+                       (S (S (S (S (S (S (S (S (S (S (S (S (S (S (S (S (S (S
+                       (S (S (S (S (S (S (S (S
+                       O))))))))))))))))))))))))))))))))))))))))))))))))))))))))))))))))))))))))))))))))))))))))))))))))))))))))))))))))))))))))))))))))))))))) :: (
+                     (t (S (S (S (S (S (S (S (S (S (S (S (S (S (S (S (S (S (S
+                       (S (S (S (S (S (S (S (S (S (S (S (S (S (S (S (S (S (S
+                       (S (S (S (S (S (S (S (S (S (S (S (S (S (S (S (S (S (S
+                       (S (S (S (S (S (S (S (S (S (S (S (S (S (S (S (S (S (S
+                       (S (S (S (S (S (S (S (S (S (S (S (S (S (S (S (S (S (S
+                       (S (S (S (S (S (S (S (S (S (S (S (S (S (S (S (S (S (S
+                       (S (S (S (S (S (S (S (S (S (S (S (S (S (S (S (S (S (S
+                       (S (S (S (S (S (S (S (S (S
+                       O)))))))))))))))))))))))))))))))))))))))))))))))))))))))))))))))))))))))))))))))))))))))))))))))))))))))))))))))))))))))))))))))))))))))) :: []))))))
+                     (match ev with
+                      | Some _ ->
+                        (t (S (S (S (S (S (S (S (S (S (S (S (S (S (S (S (S (S
+                          (S (S (S (S (S (S (S (S (S (S (S (S (S (S (S (S (S
+                          (S (S (S (S (S (S (S (S (S (S (S (S (S (S (S (S (S
+                          (S (S (S (S (S (S (S (S (S (S (S (S (S (S (S (S (S
+                          (S (S (S (S (S (S (S (S (S (S (S (S (S (S (S (S (S
+                          (S (S (S (S (S (S (S (S (S (S (S (S (S (S (S (S (S
+                          (S (S (S (S (S (S (S (S (S (S (S (S (S (S (S (S (S
+                          (S (S (S (S (S (S (S (S (S (S (S (S (S (S
+                          O)))))))))))))))))))))))))))))))))))))))))))))))))))))))))))))))))))))))))))))))))))))))))))))))))))))))))))))))))))))))))))))))))))))) :: []
+                      | None -> []))
+                   (t (S (S (S (S (S (S (S (S (S (S (S (S (S (S (S (S (S (S
+                     (S (S (S (S (S (S (S (S (S (S (S (S (S (S (S (S (S (S (S
+                     (S (S (S (S (S (S (S (S (S (S (S (S (S (S (S (S (S (S (S
+                     (S (S (S (S (S (S (S (S (S (S (S (S (S (S (S (S (S (S (S
+                     (S (S (S (S (S (S (S (S (S (S (S (S (S (S (S (S (S (S (S
+                     (S (S (S (S (S (S (S (S (S (S (S (S (S (S (S (S (S (S (S
+                     (S (S (S (S (S (S (S (S (S (S (S (S (S (S (S (S (S (S (S
+                     (S (S (S (S
+                     O)))))))))))))))))))))))))))))))))))))))))))))))))))))))))))))))))))))))))))))))))))))))))))))))))))))))))))))))))))))))))))))))))))))))))))))))
+   | BanditTell ->
+     let ev = opt_ev e nargs (S (S O)) in
+     app ((IAsarray (O, O, false)) :: ((IAsarray ((S O), (S O),
+       false)) :: []))
+       (app
+         (match ev with
+          | Some r -> (IAsarray (r, r, false)) :: []
+          | None -> [])
+         (app
+           (sched_archive_add copy (Nat.div variant (S (S O)))
+             (Nat.eqb (Nat.modulo variant (S (S O))) (S O)) O (S O) ev)
+           (app (sched_emitter_slices O (S O) ev)
+             (emitter_tell (S O) false
+               (app
+                 ((t (S (S (S (S (S (S (S (S (S (S (S (S (S (S (S (S (S (S (S
+                    (S (S (S (S (S (S (S (S (S (S (S (S (S (S (S (S (S (S (S
+                    (S (S (S (S (S (S (S (S (S (S (S (S (S (S (S (S (S (S (S
+                    (S (S (S (S (S (S (S (S (S (S (S (S (S (S (S (S (S (S (S
+                    (S (S (S (S (S (S (S (S (S (S (S (S (S (S (S (S (S (S (S
+                    (S (S (S (S (S (S (S (S (S (S (S (S (S (S (S (S (S (S (S
+                    (S (S (S (S (S (S (S (S (S (S (S (S (S (S (S (S
+                    O))))))))))))))))))))))))))))))))))))))))))))))))))))))))))))))))))))))))))))))))))))))))))))))))))))))))))))))))))))))))))))))))))) :: (
+                 (t (S (S (S (S (S (S (S (S (S (S (S (S (S (S (S (S (S (S (S
+                   (S (S (S (S (S (S (S (S (S (S (S (S (S (S (S (S (S (S (S
+                   (S (S (S (S (S (S (S (S (S (S (S (S (S (S (S (S (S (S (S
+                   (S (S (S (S (S (S (S (S (S (S (S (S (S (S (S (S (S (S (S
+                   (S (S (S (S (S (S (S (S (S (S (S (S (S (S (S (S (S (S (S
+                   (S (S (S (S (S (S (S (S (S (S (S (S (S (S (S (S (S (S (S
+                   (S (S (S (S (S (S (S (S (S (S (S (S (S (S (S (S (S
+                   O)))))))))))))))))))))))))))))))))))))))))))))))))))))))))))))))))))))))))))))))))))))))))))))))))))))))))))))))))))))))))))))))))))) :: (
+                 (t (S (S (S (S (S (S (S (S (S (S (S (S (S (S (S (S (S (S (S
+                   (S (S (S (S (S (S (S (S (S (S (S (S (S (S (S (S (S (S (S
+                   (S (S (S (S (S (S (S (S (S (S (S (S (S (S (S (S (S (S (S
+                   (S (S (S (S (S (S (S (S (S (S (S (S (S (S (S (S (S (S (S
+                   (S (S (S (S (S (S (S (S (S (S (S (S (S (S (S (S (S (S (S
+                   (S (S (S (S (S (S (S (S (S (S (S (S (S (S (S (S (S (S (S
+                   (S (S (S (S (S (S (S (S (S (S (S (S (S (S (S (S (S (S
+                   O))))))))))))))))))))))))))))))))))))))))))))))))))))))))))))))))))))))))))))))))))))))))))))))))))))))))))))))))))))))))))))))))))))) :: (
+                 (t (S (S (S (S (S (S (S (S (S (S (S (S (S (S (S (S (S (S (S
+                   (S (S (S (S (S (S (S (S (S (S (S (S (S (S (S (S (S (S (S
+                   (S (S (S (S (S (S (S (S (S (S (S (S (S (S (S (S (S (S (S
+                   (S (S (S (S (S (S (S (S (S (S (S (S (S (S (S (S (S (S (S
+                   (S (S (S (S (S (S (S (S (S (S (S (S (S (S (S (S (S (S (S
+                   (S (S (S (S (S (S (S (S (S (S (S (S (S (S (S (S (S (S (S
+                   (S (S (S (S (S (S (S (S (S (S (S (S (S (S (S (S (S (S (S
+                   (S
+                   O))))))))))))))))))))))))))))))))))))))))))))))))))))))))))))))))))))))))))))))))))))))))))))))))))))))))))))))))))))))))))))))))))))))) :: (
+                 (t (S (S (S (S (S (S (S (S (S (S (S (S (S (S (S (S (S (S (S
+                   (S (S (S (S (S (S (S (S (S (S (S (S (S (S (S (S (S (S (S
+                   (S (S (S (S (S (S (S (S (S (S (S (S (S (S (S (S (S (S (S
+                   (S (S (S (S (S (S (S (S (S (S (S (S (S (S (S (S (S (S (S
+                   (S (S (S (S (S (S (S (S (S (S (S (S (S (S (S (S (S (S (S
+                   (S (S (S (S (S (S (S (S (S (S (S (S (S (S (S (S (S (S (S
+                   (S (S (S (S (S (S (S (S (S (S (S (S (S (S (S (S (S (S (S
+                   (S (S
+                   O)))))))))))))))))))))))))))))))))))))))))))))))))))))))))))))))))))))))))))))))))))))))))))))))))))))))))))))))))))))))))))))))))))))))) :: [])))))
+                 (match ev with
+                  | Some _ ->
+                    (t (S (S (S (S (S (S (S (S (S (S (S (S (S (S (S (S (S (S
+                      (S (S (S (S (S (S (S (S (S (S (S (S (S (S (S (S (S (S
+                      (S (S (S (S (S (S (S (S (S (S (S (S (S (S (S (S (S (S
+                      (S (S (S (S (S (S (S (S (S (S (S (S (S (S (S (S (S (S
+                      (S (S (S (S (S (S (S (S (S (S (S (S (S (S (S (S (S (S
+                      (S (S (S (S (S (S (S (S (S (S (S (S (S (S (S (S (S (S
+                      (S (S (S (S (S (S (S (S (S (S (S (S (S (S (S (S (S (S
+                      (S (S (S (S (S (S (S
+                      O)))))))))))))))))))))))))))))))))))))))))))))))))))))))))))))))))))))))))))))))))))))))))))))))))))))))))))))))))))))))))))))))))))))) :: []
+                  | None -> []))))))
+   | AdamStep ->
+     (IAsarray ((t (S O)), O, false)) :: ((IOp ((t (S (S O))),
+       ((t (S O)) :: []), (S (S (S (S (S (S (S (S (S (S (S (S (S (S (S (S (S
+       (S (S (S (S (S (S (S (S O))))))))))))))))))))))))))) :: ((IGetSelf
+       ((t (S (S (S O)))), f_i2)) :: ((IInplace ((t (S (S O))),
+       ((t (S (S (S O)))) :: []), (S (S (S (S (S (S (S (S (S (S (S (S (S (S
+       (S (S (S (S (S (S (S (S (S (S (S (S
+       O)))))))))))))))))))))))))))) :: ((IOp ((t (S (S (S (S O))))),
+       ((t (S (S O))) :: []), (S (S (S (S (S (S (S (S (S (S (S (S (S (S (S (S
+       (S (S (S (S (S (S (S (S (S (S (S (S (S (S (S (S (S (S (S (S (S (S (S
+       (S (S (S (S (S (S (S (S (S (S (S (S (S (S (S (S (S (S (S (S (S (S (S
+       (S (S (S (S (S (S (S (S (S (S (S (S (S (S (S (S (S (S (S (S (S (S (S
+       (S (S (S (S (S (S
+       O))))))))))))))))))))))))))))))))))))))))))))))))))))))))))))))))))))))))))))))))))))))))))))) :: ((ISetSelf
+       (f_i7, (t (S (S (S (S O))))))) :: ((IOp ((t (S (S (S (S (S O)))))),
+       ((t (S (S (S (S O))))) :: []), (S (S (S (S (S (S (S (S (S (S (S (S (S
+       (S (S (S (S (S (S (S (S (S (S (S (S (S (S (S (S (S (S (S (S (S (S (S
+       (S (S (S (S (S (S (S (S (S (S (S (S (S (S (S (S (S (S (S (S (S (S (S
+       (S (S (S (S (S (S (S (S (S (S (S (S (S (S (S (S (S (S (S (S (S (S (S
+       (S (S (S (S (S (S (S (S (S (S
+       O)))))))))))))))))))))))))))))))))))))))))))))))))))))))))))))))))))))))))))))))))))))))))))))) :: ((IInplace
+       ((t (S (S (S O)))), ((t (S (S (S (S (S O)))))) :: []), (S (S (S (S (S
+       (S (S (S (S (S (S (S (S (S (S (S (S (S (S (S (S (S (S (S (S (S (S
+       O))))))))))))))))))))))))))))) :: [])))))))
+   | GAscStep ->
+     (IAsarray ((t (S O)), O, false)) :: ((IOp ((t (S (S O))),
+       ((t (S O)) :: []), (S (S (S (S (S (S (S (S (S (S (S (S (S (S (S (S (S
+       (S (S (S (S (S (S (S (S (S (S (S (S (S (S (S (S (S (S (S (S (S (S (S
+       (S (S (S (S (S (S (S (S (S (S (S (S (S (S (S (S (S (S (S (S (S (S (S
+       (S (S (S (S (S (S (S (S (S (S (S (S (S (S (S (S (S (S (S (S (S (S (S
+       (S (S (S (S (S (S (S
+       O))))))))))))))))))))))))))))))))))))))))))))))))))))))))))))))))))))))))))))))))))))))))))))))) :: ((IGetSelf
+       ((t (S (S (S O)))), f_i2)) :: ((IInplace ((t (S (S (S O)))),
+       ((t (S (S O))) :: []), (S (S (S (S (S (S (S (S (S (S (S (S (S (S (S (S
+       (S (S (S (S (S (S (S (S (S (S (S
+       O))))))))))))))))))))))))))))) :: [])))
+   | ParallelAxes ->
+     app ((IAsarray ((t (S O)), O, true)) :: [])
+       (app
+         (if Nat.eqb variant (S O)
+          then if copy
+               then (IOp ((t (S O)), ((t (S O)) :: []), (S (S (S (S (S (S (S
+                      (S (S (S (S (S (S (S (S (S (S (S (S (S (S (S (S (S (S
+                      (S (S (S (S (S (S (S (S (S (S (S (S (S (S (S (S (S (S
+                      (S (S (S (S (S (S (S (S (S (S (S (S (S (S (S (S (S (S
+                      (S (S (S (S (S (S (S (S (S (S (S (S (S (S (S (S (S (S
+                      (S (S (S (S (S (S (S (S (S (S (S (S (S (S (S (S
+                      O))))))))))))))))))))))))))))))))))))))))))))))))))))))))))))))))))))))))))))))))))))))))))))))))) :: []
+               else (IInplace ((t (S O)), [], (S (S (S (S (S (S (S (S (S (S
+                      (S (S (S (S (S (S (S (S (S (S (S (S (S (S (S (S (S (S
+                      (S (S (S (S (S (S (S (S (S (S (S (S (S (S (S (S (S (S
+                      (S (S (S (S (S (S (S (S (S (S (S (S (S (S (S (S (S (S
+                      (S (S (S (S (S (S (S (S (S (S (S (S (S (S (S (S (S (S
+                      (S (S (S (S (S (S (S (S (S (S (S (S (S
+                      O))))))))))))))))))))))))))))))))))))))))))))))))))))))))))))))))))))))))))))))))))))))))))))))))) :: []
+          else []) ((ICopy ((t (S (S O))), (t (S O)))) :: ((ICopy
+         ((t (S (S (S O)))), (t (S O)))) :: [])))
+   | HeatmapDf ->
+     (IAsarray ((t (S O)), O, true)) :: ((ICopy ((t (S (S O))),
+       (t (S O)))) :: ((ICopy ((t (S (S (S O)))), (t (S O)))) :: []))
+   | _ ->
+     (ICopy ((t (S O)), O)) :: ((ISetSelf (f_i2, (t (S O)))) :: ((IOp
+       ((t (S (S O))), ((t (S O)) :: []), (S (S (S (S (S (S (S (S (S (S (S (S
+       (S (S (S (S (S (S (S (S (S (S (S (S (S (S (S (S (S (S (S (S (S (S (S
+       (S (S (S (S (S (S (S (S (S (S (S (S (S (S (S (S (S (S (S (S (S (S (S
+       (S (S (S (S (S (S (S (S (S (S (S (S (S (S (S (S (S (S (S (S (S (S (S
+       (S (S (S (S (S (S (S (S (S
+       O)))))))))))))))))))))))))))))))))))))))))))))))))))))))))))))))))))))))))))))))))))))))))))) :: ((ISetSelf
+       (f_i7, (t (S (S O))))) :: []))))
+
+(** val bufs : env -> nat list **)
+
+let bufs e =
+  map (fun p -> (snd p).vbuf) e
+
+(** val arg_mutated : astate -> nat -> bool **)
+
+let arg_mutated a i =
+  memb (caller_buf i) a.a_mut
+
+(** val arg_retained : astate -> nat -> bool **)
+
+let arg_retained a i =
+  memb (caller_buf i) (bufs a.a_self)
+
+(** val arg_returned : astate -> nat -> bool **)
+
+let arg_returned a i =
+  existsb (fun v -> Nat.eqb v.vbuf (caller_buf i)) a.a_ret
+
+(** val arg_exposed : astate -> nat -> bool **)
+
+let arg_exposed a i =
+  existsb (fun v -> Nat.eqb v.vbuf (caller_buf i)) a.a_exp
+
+(** val rw_store : astate -> bool **)
+
+let rw_store a =
+  existsb (fun v -> (&&) v.vw (is_store_buf v.vbuf)) a.a_ret
+
+(** val ro_store : astate -> bool **)
+
+let ro_store a =
+  existsb (fun v -> (&&) (negb v.vw) (is_store_buf v.vbuf)) a.a_ret
+
+(** val rw_self : astate -> bool **)
+
+let rw_self a =
+  existsb (fun v ->
+    (&&) ((&&) v.vw (negb (is_store_buf v.vbuf)))
+      (memb v.vbuf (bufs a.a_self))) a.a_ret
+
+(** val exp_store : astate -> bool **)
+
+let exp_store a =
+  existsb (fun v -> is_store_buf v.vbuf) a.a_exp
+
+(** val row_at : 'a1 -> 'a1 store -> nat -> 'a1 **)
+
+let row_at rdflt s i =
+  match get_row s i with
+  | Some r -> r
+  | None -> rdflt
+
+(** val column :
+    (nat -> 'a1 -> 'a2 list) -> 'a1 -> 'a1 store -> nat -> 'a2 list list **)
+
+let column proj rdflt s fl =
+  map (fun i -> proj fl (row_at rdflt s i)) s.olist
+
+(** val read_dict :
+    nat list -> (nat -> 'a1 -> 'a2 list) -> 'a1 -> 'a1 store -> (nat * 'a2
+    list list) list * nat list **)
+
+let read_dict fields proj rdflt s =
+  ((map (fun fl -> (fl, (column proj rdflt s fl))) fields), s.olist)
+
+(** val read_tuple :
+    nat list -> (nat -> 'a1 -> 'a2 list) -> 'a1 -> 'a1 store -> 'a2 list list
+    list * nat list **)
+
+let read_tuple fields proj rdflt s =
+  ((map (column proj rdflt s) fields), s.olist)
+
+(** val read_single :
+    (nat -> 'a1 -> 'a2 list) -> 'a1 -> 'a1 store -> nat -> 'a2 list list **)
+
+let read_single =
+  column
+
+type 'v elite = nat * (nat * 'v list) list
+
+(** val transpose_rows :
+    nat list -> (nat * 'a1 list list) list -> 'a1 elite list **)
+
+let transpose_rows idx cols =
+  map (fun k -> ((nth k idx O),
+    (map (fun c -> ((fst c), (nth k (snd c) []))) cols))) (seq O (length idx))
+
+(** val elites_of_dict :
+    ((nat * 'a1 list list) list * nat list) -> 'a1 elite list **)
+
+let elites_of_dict d =
+  transpose_rows (snd d) (fst d)
+
+(** val elites_of_tuple :
+    nat list -> ('a1 list list list * nat list) -> 'a1 elite list **)
+
+let elites_of_tuple fields t0 =
+  transpose_rows (snd t0) (combine fields (fst t0))
+
+(** val iter_collect :
+    nat list -> (nat -> 'a1 -> 'a2 list) -> 'a1 -> 'a1 store -> iter -> nat
+    -> 'a2 elite list **)
+
+let rec iter_collect fields proj rdflt s it = function
+| O -> []
+| S k ->
+  let (it', i0) = iter_next s it in
+  (match i0 with
+   | Yield (i, r) ->
+     (i,
+       (map (fun fl -> (fl,
+         (proj fl (match r with
+                   | Some x -> x
+                   | None -> rdflt)))) fields)) :: (iter_collect fields proj
+                                                     rdflt s it' k)
+   | _ -> [])
+
+(** val read_iter :
+    nat list -> (nat -> 'a1 -> 'a2 list) -> 'a1 -> 'a1 store -> 'a2 elite list **)
+
+let read_iter fields proj rdflt s =
+  iter_collect fields proj rdflt s (iter_new s) (S (len s))
+
+(** val pandas_columns :
+    'a2 -> nat list -> (nat -> nat) -> (nat -> 'a1 -> 'a2 list) -> 'a1 -> 'a1
+    store -> ((nat * nat) * 'a2 list) list **)
+
+let pandas_columns dflt fields dim proj rdflt s =
+  flat_map (fun fl ->
+    map (fun j -> ((fl, j),
+      (map (fun v -> nth j v dflt) (column proj rdflt s fl))))
+      (seq O (dim fl))) fields
+
+(** val read_pandas :
+    'a2 -> nat list -> (nat -> nat) -> (nat -> 'a1 -> 'a2 list) -> 'a1 -> 'a1
+    store -> ((nat * nat) * 'a2 list) list * nat list **)
+
+let read_pandas dflt fields dim proj rdflt s =
+  ((pandas_columns dflt fields dim proj rdflt s), s.olist)
+
+(** val df_get_field :
+    'a1 -> (((nat * nat) * 'a1 list) list * nat list) -> nat -> 'a1 list list **)
+
+let df_get_field dflt df fl =
+  let cols = filter (fun c -> Nat.eqb (fst (fst c)) fl) (fst df) in
+  map (fun k -> map (fun c -> nth k (snd c) dflt) cols)
+    (seq O (length (snd df)))
+
+(** val df_iterelites :
+    'a1 -> nat list -> (((nat * nat) * 'a1 list) list * nat list) -> 'a1
+    elite list **)
+
+let df_iterelites dflt fields df =
+  transpose_rows (snd df)
+    (map (fun fl -> (fl, (df_get_field dflt df fl))) fields)
+
+(** val dlayout : sx -> layout option **)
+
+let dlayout = function
+| SZ z0 ->
+  (match z0 with
+   | Z0 -> Some ExactNdarray
+   | Zpos p ->
+     (match p with
+      | XI p0 -> (match p0 with
+                  | XH -> Some OtherDtype
+                  | _ -> None)
+      | XO p0 ->
+        (match p0 with
+         | XI _ -> None
+         | XO p1 -> (match p1 with
+                     | XH -> Some PyList
+                     | _ -> None)
+         | XH -> Some NonContiguous)
+      | XH -> Some ViewOf)
+   | Zneg _ -> None)
+| SL _ -> None
+
+(** val effects : astate -> nat -> sx **)
+
+let effects a n =
+  SL ((SL
+    (map (fun i -> SL
+      ((ebool (arg_mutated a i)) :: ((ebool (arg_retained a i)) :: ((ebool
+                                                                    (arg_returned
+                                                                    a i)) :: (
+      (ebool (arg_exposed a i)) :: []))))) (seq O n))) :: ((SL
+    ((ebool (rw_store a)) :: ((ebool (ro_store a)) :: ((ebool (rw_self a)) :: (
+    (ebool (exp_store a)) :: ((ebool a.a_halt) :: [])))))) :: []))
+
+(** val run_alias : bool -> sx -> sx -> sx -> sx **)
+
+let run_alias asis e v la =
+  match dnat e with
+  | Some en ->
+    (match dnat v with
+     | Some vn ->
+       (match dlist dlayout la with
+        | Some l ->
+          (match ep_of_nat en with
+           | Some ee ->
+             let n = length l in
+             if (&&) (existsb (Nat.eqb n) (arities ee))
+                  (Nat.ltb vn (n_variants ee))
+             then effects (arun (prog_gen (negb asis) ee vn n) (a_init l)) n
+             else sx_fail
+           | None -> sx_fail)
+        | None -> sx_fail)
+     | None -> sx_fail)
+  | None -> sx_fail
+
+(** val rp_fields : nat list **)
+
+let rp_fields =
+  O :: ((S O) :: ((S (S O)) :: []))
+
+(** val rp_dim : nat -> nat **)
+
+let rp_dim = function
+| O -> S (S (S O))
+| S n -> (match n with
+          | O -> S O
+          | S _ -> S (S O))
+
+(** val rp_proj : nat -> z -> z list **)
+
+let rp_proj fl r =
+  match fl with
+  | O ->
+    (Z.mul (Zpos (XO XH)) r) :: ((Z.add (Z.mul (Zpos (XO XH)) r) (Zpos XH)) :: (
+      (Z.opp (Z.mul (Zpos (XO XH)) r)) :: []))
+  | S n ->
+    (match n with
+     | O -> r :: []
+     | S _ ->
+       (Z.mul (Zpos (XO (XO XH))) r) :: ((Z.add (Z.mul (Zpos (XO (XO XH))) r)
+                                           (Zpos XH)) :: []))
+
+(** val dec_field : nat -> z list -> z **)
+
+let dec_field fl v =
+  match fl with
+  | O ->
+    (match v with
+     | [] -> Zneg XH
+     | a :: l ->
+       (match l with
+        | [] -> Zneg XH
+        | b :: l0 ->
+          (match l0 with
+           | [] -> Zneg XH
+           | c :: l1 ->
+             (match l1 with
+              | [] ->
+                if (&&)
+                     ((&&) (Z.eqb b (Z.add a (Zpos XH))) (Z.eqb c (Z.opp a)))
+                     (Z.eqb (Z.modulo a (Zpos (XO XH))) Z0)
+                then Z.div a (Zpos (XO XH))
+                else Zneg XH
+              | _ :: _ -> Zneg XH))))
+  | S n ->
+    (match n with
+     | O ->
+       (match v with
+        | [] -> Zneg XH
+        | a :: l -> (match l with
+                     | [] -> a
+                     | _ :: _ -> Zneg XH))
+     | S n0 ->
+       (match n0 with
+        | O ->
+          (match v with
+           | [] -> Zneg XH
+           | a :: l ->
+             (match l with
+              | [] -> Zneg XH
+              | b :: l0 ->
+                (match l0 with
+                 | [] ->
+                   if (&&) (Z.eqb b (Z.add a (Zpos XH)))
+                        (Z.eqb (Z.modulo a (Zpos (XO (XO XH)))) Z0)
+                   then Z.div a (Zpos (XO (XO XH)))
+                   else Zneg XH
+                 | _ :: _ -> Zneg XH)))
+        | S _ -> Zneg XH))
+
+(** val dec_elite : z elite -> sx **)
+
+let dec_elite e =
+  let ids = map (fun p -> dec_field (fst p) (snd p)) (snd e) in
+  let id =
+    match ids with
+    | [] -> Zneg XH
+    | a :: l ->
+      (match l with
+       | [] -> Zneg XH
+       | b :: l0 ->
+         (match l0 with
+          | [] -> Zneg XH
+          | c :: l1 ->
+            (match l1 with
+             | [] -> if (&&) (Z.eqb a b) (Z.eqb b c) then a else Zneg XH
+             | _ :: _ -> Zneg XH)))
+  in
+  SL ((enat (fst e)) :: ((ez id) :: []))
+
+(** val rp_run : z store -> sx list -> z store option **)
+
+let rec rp_run s = function
+| [] -> Some s
+| s0 :: t0 ->
+  (match s0 with
+   | SZ _ -> None
+   | SL l ->
+     (match l with
+      | [] -> None
+      | s1 :: l0 ->
+        (match s1 with
+         | SZ z0 ->
+           (match z0 with
+            | Z0 ->
+              (match l0 with
+               | [] -> None
+               | i :: l1 ->
+                 (match l1 with
+                  | [] -> None
+                  | r :: l2 ->
+                    (match l2 with
+                     | [] ->
+                       (match dnat i with
+                        | Some ii ->
+                          (match dz r with
+                           | Some rr ->
+                             rp_run
+                               (fst (add0 s (ii :: []) (rr :: []) [] true)) t0
+                           | None -> None)
+                        | None -> None)
+                     | _ :: _ -> None)))
+            | Zpos p ->
+              (match p with
+               | XH ->
+                 (match l0 with
+                  | [] -> rp_run (clear s) t0
+                  | _ :: _ -> None)
+               | _ -> None)
+            | Zneg _ -> None)
+         | SL _ -> None)))
+
+(** val run_readpaths : sx -> sx -> sx **)
+
+let run_readpaths c ops =
+  match dnat c with
+  | Some cc ->
+    (match ops with
+     | SZ _ -> sx_fail
+     | SL l ->
+       (match rp_run (init cc) l with
+        | Some s ->
+          let df = read_pandas Z0 rp_fields rp_dim rp_proj Z0 s in
+          SL
+          ((elist dec_elite
+             (elites_of_dict (read_dict rp_fields rp_proj Z0 s))) :: (
+          (elist dec_elite
+            (elites_of_tuple rp_fields (read_tuple rp_fields rp_proj Z0 s))) :: (
+          (elist dec_elite
+            (transpose_rows s.olist
+              (map (fun fl -> (fl, (read_single rp_proj Z0 s fl))) rp_fields))) :: (
+          (elist dec_elite (read_iter rp_fields rp_proj Z0 s)) :: ((elist
+                                                                    (fun p ->
+                                                                    SL
+                                                                    ((enat
+                                                                    (fst p)) :: (
+                                                                    (ez
+                                                                    (snd p)) :: [])))
+                                                                    (combine
+                                                                    (snd df)
+                                                                    (match 
+                                                                    filter
+                                                                    (fun c0 ->
+                                                                    Nat.eqb
+                                                                    (fst
+                                                                    (fst c0))
+                                                                    (S O))
+                                                                    (fst df) with
+                                                                    | [] -> []
+                                                                    | c0 :: _ ->
+                                                                    snd c0))) :: (
+          (elist dec_elite
+            (transpose_rows (snd df)
+              (map (fun fl -> (fl, (df_get_field Z0 df fl))) rp_fields))) :: (
+          (elist dec_elite (df_iterelites Z0 rp_fields df)) :: [])))))))
+        | None -> sx_fail))
+  | None -> sx_fail
+
+(** val run_C12 : sx -> sx **)
+
+let run_C12 = function
+| SZ _ -> sx_fail
+| SL l ->
+  (match l with
+   | [] -> sx_fail
+   | s :: l0 ->
+     (match s with
+      | SZ z0 ->
+        (match z0 with
+         | Z0 ->
+           (match l0 with
+            | [] -> sx_fail
+            | e :: l1 ->
+              (match l1 with
+               | [] -> sx_fail
+               | v :: l2 ->
+                 (match l2 with
+                  | [] -> sx_fail
+                  | la :: l3 ->
+                    (match l3 with
+                     | [] -> run_alias false e v la
+                     | _ :: _ -> sx_fail))))
+         | Zpos p ->
+           (match p with
+            | XI _ -> sx_fail
+            | XO p0 ->
+              (match p0 with
+               | XH ->
+                 (match l0 with
+                  | [] -> sx_fail
+                  | e :: l1 ->
+                    (match l1 with
+                     | [] -> sx_fail
+                     | v :: l2 ->
+                       (match l2 with
+                        | [] -> sx_fail
+                        | la :: l3 ->
+                          (match l3 with
+                           | [] -> run_alias true e v la
+                           | _ :: _ -> sx_fail))))
+               | _ -> sx_fail)
+            | XH ->
+              (match l0 with
+               | [] -> sx_fail
+               | c :: l1 ->
+                 (match l1 with
+                  | [] -> sx_fail
+                  | ops :: l2 ->
+                    (match l2 with
+                     | [] -> run_readpaths c ops
+                     | _ :: _ -> sx_fail))))
+         | Zneg _ -> sx_fail)
+      | SL _ -> sx_fail))
 
 (** val err_code : err -> z **)
 
@@ -845,13 +5565,11 @@ let run_op s o =
                         | XH ->
                           (match l0 with
                            | [] ->
-                             let t = s.s_store in
+                             let t0 = s.s_store in
                              keep (SL
-                               ((enat t.cap) :: ((enat (len t)) :: ((elist
-                                                                    enat
-                                                                    t.olist) :: (
-                               (elist ebool t.occ) :: ((enat t.nadd) :: (
-                               (enat t.nclear) :: [])))))))
+                               ((enat t0.cap) :: ((enat (len t0)) :: (
+                               (elist enat t0.olist) :: ((elist ebool t0.occ) :: (
+                               (enat t0.nadd) :: ((enat t0.nclear) :: [])))))))
                            | _ :: _ -> keep sx_fail)
                         | _ -> keep sx_fail)
                      | XH ->
@@ -888,7 +5606,7 @@ let run_op s o =
 
 let rec run_ops s = function
 | [] -> []
-| o :: t -> let (s', out) = run_op s o in out :: (run_ops s' t)
+| o :: t0 -> let (s', out) = run_op s o in out :: (run_ops s' t0)
 
 (** val run_C13 : sx -> sx **)
 
